@@ -1,0 +1,14794 @@
+	.file	"test_tibup.c"
+	.text
+.Ltext0:
+	.file 0 "/repo/aldor/aldor/src" "test/test_tibup.c"
+	.section	.rodata
+.LC0:
+	.string	"testTiBupCollect1"
+.LC1:
+	.string	"testTiBupCollect2"
+.LC2:
+	.string	"testTiTdnPretend"
+.LC3:
+	.string	"testTiTdnMultiToCrossEmbed"
+.LC4:
+	.string	"testTiBupApplyMixed"
+.LC5:
+	.string	"testTiBupApplyImplicit"
+.LC6:
+	.string	"testTiBupApplyErrorOnArg"
+	.text
+	.globl	tibupTest
+	.type	tibupTest, @function
+tibupTest:
+.LFB0:
+	.file 1 "test/test_tibup.c"
+	.loc 1 31 1
+	.cfi_startproc
+	pushq	%rbp
+	.cfi_def_cfa_offset 16
+	.cfi_offset 6, -16
+	movq	%rsp, %rbp
+	.cfi_def_cfa_register 6
+	.loc 1 32 2
+	call	init@PLT
+	.loc 1 33 2
+	leaq	testTiBupCollect1(%rip), %rax
+	movq	%rax, %rsi
+	leaq	.LC0(%rip), %rax
+	movq	%rax, %rdi
+	call	showTest@PLT
+	.loc 1 34 2
+	leaq	testTiBupCollect2(%rip), %rax
+	movq	%rax, %rsi
+	leaq	.LC1(%rip), %rax
+	movq	%rax, %rdi
+	call	showTest@PLT
+	.loc 1 35 2
+	leaq	testTiTdnPretend(%rip), %rax
+	movq	%rax, %rsi
+	leaq	.LC2(%rip), %rax
+	movq	%rax, %rdi
+	call	showTest@PLT
+	.loc 1 36 2
+	leaq	testTiTdnMultiToCrossEmbed(%rip), %rax
+	movq	%rax, %rsi
+	leaq	.LC3(%rip), %rax
+	movq	%rax, %rdi
+	call	showTest@PLT
+	.loc 1 37 2
+	leaq	testTiBupApplyMixed(%rip), %rax
+	movq	%rax, %rsi
+	leaq	.LC4(%rip), %rax
+	movq	%rax, %rdi
+	call	showTest@PLT
+	.loc 1 38 2
+	leaq	testTiBupApplyImplicit(%rip), %rax
+	movq	%rax, %rsi
+	leaq	.LC5(%rip), %rax
+	movq	%rax, %rdi
+	call	showTest@PLT
+	.loc 1 39 2
+	leaq	testTiBupApplyErrorOnArg(%rip), %rax
+	movq	%rax, %rsi
+	leaq	.LC6(%rip), %rax
+	movq	%rax, %rdi
+	call	showTest@PLT
+	.loc 1 40 2
+	call	fini@PLT
+	.loc 1 41 1
+	nop
+	popq	%rbp
+	.cfi_def_cfa 7, 8
+	ret
+	.cfi_endproc
+.LFE0:
+	.size	tibupTest, .-tibupTest
+	.section	.rodata
+.LC7:
+	.string	"import from Boolean"
+.LC8:
+	.string	"D: with == add"
+.LC9:
+	.string	"E: with == add"
+.LC10:
+	.string	"g(): Generator D == never"
+.LC11:
+	.string	"D"
+.LC12:
+	.string	"E"
+.LC13:
+	.string	"g"
+	.align 8
+.LC14:
+	.string	"D is %pTForm.  E is %pTForm.  g is: %pTForm\n"
+.LC15:
+	.string	"x for x in g()"
+.LC16:
+	.string	"one"
+.LC17:
+	.string	"two"
+.LC18:
+	.string	"three"
+.LC19:
+	.string	"four"
+	.text
+	.type	testTiBupCollect1, @function
+testTiBupCollect1:
+.LFB1:
+	.loc 1 45 1
+	.cfi_startproc
+	pushq	%rbp
+	.cfi_def_cfa_offset 16
+	.cfi_offset 6, -16
+	movq	%rsp, %rbp
+	.cfi_def_cfa_register 6
+	pushq	%r12
+	pushq	%rbx
+	addq	$-128, %rsp
+	.cfi_offset 12, -24
+	.cfi_offset 3, -32
+	.loc 1 46 9
+	leaq	.LC7(%rip), %rax
+	movq	%rax, -24(%rbp)
+	.loc 1 47 9
+	leaq	.LC8(%rip), %rax
+	movq	%rax, -32(%rbp)
+	.loc 1 48 9
+	leaq	.LC9(%rip), %rax
+	movq	%rax, -40(%rbp)
+	.loc 1 49 9
+	leaq	.LC10(%rip), %rax
+	movq	%rax, -48(%rbp)
+	.loc 1 51 40
+	movq	String_listPointer(%rip), %rax
+	movq	16(%rax), %r9
+	movq	-48(%rbp), %rsi
+	movq	-40(%rbp), %rcx
+	movq	-32(%rbp), %rdx
+	movq	-24(%rbp), %rax
+	movq	%rsi, %r8
+	movq	%rax, %rsi
+	movl	$4, %edi
+	movl	$0, %eax
+	call	*%r9
+.LVL0:
+	movq	%rax, -56(%rbp)
+	.loc 1 52 42
+	movq	AbSyn_listPointer(%rip), %rax
+	movq	(%rax), %rbx
+	movq	-56(%rbp), %rax
+	movq	%rax, %rdi
+	call	abqParseLines@PLT
+	movq	%rax, %r12
+	movl	$0, %eax
+	call	stdtypes@PLT
+	movq	%r12, %rsi
+	movq	%rax, %rdi
+	call	*%rbx
+.LVL1:
+	movq	%rax, -64(%rbp)
+	.loc 1 53 16
+	movq	sposNone(%rip), %rax
+	movq	-64(%rbp), %rdx
+	movq	%rax, %rsi
+	movl	$64, %edi
+	call	abNewOfList@PLT
+	movq	%rax, -72(%rbp)
+	.loc 1 62 2
+	call	initFile@PLT
+	.loc 1 63 9
+	call	stabFile@PLT
+	movq	%rax, -80(%rbp)
+	.loc 1 65 2
+	movq	-72(%rbp), %rax
+	movl	$7, %esi
+	movq	%rax, %rdi
+	call	abPutUse@PLT
+	.loc 1 66 2
+	movq	-72(%rbp), %rax
+	movq	%rax, %rdi
+	call	abPrintDb@PLT
+	.loc 1 67 2
+	movq	-72(%rbp), %rdx
+	movq	-80(%rbp), %rax
+	movq	%rdx, %rsi
+	movq	%rax, %rdi
+	call	scopeBind@PLT
+	.loc 1 68 2
+	movq	-72(%rbp), %rdx
+	movq	-80(%rbp), %rax
+	movq	%rdx, %rsi
+	movq	%rax, %rdi
+	call	typeInfer@PLT
+	.loc 1 70 6
+	leaq	.LC11(%rip), %rax
+	movq	%rax, %rdi
+	call	id@PLT
+	movq	%rax, %rdx
+	movq	-80(%rbp), %rax
+	movq	%rdx, %rsi
+	movq	%rax, %rdi
+	call	tiGetTForm@PLT
+	movq	%rax, -88(%rbp)
+	.loc 1 71 6
+	leaq	.LC12(%rip), %rax
+	movq	%rax, %rdi
+	call	id@PLT
+	movq	%rax, %rdx
+	movq	-80(%rbp), %rax
+	movq	%rdx, %rsi
+	movq	%rax, %rdi
+	call	tiGetTForm@PLT
+	movq	%rax, -96(%rbp)
+	.loc 1 72 6
+	movq	-80(%rbp), %rax
+	leaq	.LC13(%rip), %rdx
+	movq	%rdx, %rsi
+	movq	%rax, %rdi
+	call	uniqueMeaning@PLT
+	movq	%rax, -104(%rbp)
+	.loc 1 74 2
+	movq	-104(%rbp), %rax
+	movq	%rax, %rdi
+	call	symeType@PLT
+	movq	%rax, %rsi
+	movq	dbOut(%rip), %rax
+	movq	-96(%rbp), %rcx
+	movq	-88(%rbp), %rdx
+	movq	%rsi, %r8
+	leaq	.LC14(%rip), %rsi
+	movq	%rax, %rdi
+	movl	$0, %eax
+	call	afprintf@PLT
+	.loc 1 75 12
+	leaq	.LC15(%rip), %rax
+	movq	%rax, %rdi
+	call	abqParse@PLT
+	movq	%rax, -112(%rbp)
+	.loc 1 76 2
+	movq	-112(%rbp), %rdx
+	movq	-80(%rbp), %rax
+	movq	%rdx, %rsi
+	movq	%rax, %rdi
+	call	scopeBind@PLT
+	.loc 1 78 2
+	movq	-112(%rbp), %rax
+	movl	$5, %esi
+	movq	%rax, %rdi
+	call	abPutUse@PLT
+	.loc 1 79 2
+	movq	-88(%rbp), %rax
+	movq	%rax, %rdi
+	call	tfGenerator@PLT
+	movq	%rax, %rdx
+	movq	-112(%rbp), %rcx
+	movq	-80(%rbp), %rax
+	movq	%rcx, %rsi
+	movq	%rax, %rdi
+	call	tiBottomUp@PLT
+	.loc 1 80 2
+	movq	-112(%rbp), %rax
+	movq	32(%rax), %rax
+	movq	%rax, %rdi
+	call	tpossCount@PLT
+	movl	%eax, %edx
+	movl	$1, %esi
+	leaq	.LC16(%rip), %rax
+	movq	%rax, %rdi
+	call	testIntEqual@PLT
+	.loc 1 82 13
+	leaq	.LC15(%rip), %rax
+	movq	%rax, %rdi
+	call	abqParse@PLT
+	movq	%rax, -120(%rbp)
+	.loc 1 83 2
+	movq	-120(%rbp), %rdx
+	movq	-80(%rbp), %rax
+	movq	%rdx, %rsi
+	movq	%rax, %rdi
+	call	scopeBind@PLT
+	.loc 1 85 2
+	movq	tfUnknown(%rip), %rdx
+	movq	-120(%rbp), %rcx
+	movq	-80(%rbp), %rax
+	movq	%rcx, %rsi
+	movq	%rax, %rdi
+	call	tiBottomUp@PLT
+	.loc 1 86 2
+	movq	-120(%rbp), %rax
+	movq	32(%rax), %rax
+	movq	%rax, %rdi
+	call	tpossCount@PLT
+	movl	%eax, %edx
+	movl	$1, %esi
+	leaq	.LC17(%rip), %rax
+	movq	%rax, %rdi
+	call	testIntEqual@PLT
+	.loc 1 88 13
+	leaq	.LC15(%rip), %rax
+	movq	%rax, %rdi
+	call	abqParse@PLT
+	movq	%rax, -128(%rbp)
+	.loc 1 89 2
+	movq	-128(%rbp), %rdx
+	movq	-80(%rbp), %rax
+	movq	%rdx, %rsi
+	movq	%rax, %rdi
+	call	scopeBind@PLT
+	.loc 1 91 2
+	movq	-96(%rbp), %rdx
+	movq	-128(%rbp), %rcx
+	movq	-80(%rbp), %rax
+	movq	%rcx, %rsi
+	movq	%rax, %rdi
+	call	tiBottomUp@PLT
+	.loc 1 92 2
+	movq	-128(%rbp), %rax
+	movq	32(%rax), %rax
+	movq	%rax, %rdi
+	call	tpossCount@PLT
+	movl	%eax, %edx
+	movl	$0, %esi
+	leaq	.LC18(%rip), %rax
+	movq	%rax, %rdi
+	call	testIntEqual@PLT
+	.loc 1 94 13
+	leaq	.LC15(%rip), %rax
+	movq	%rax, %rdi
+	call	abqParse@PLT
+	movq	%rax, -136(%rbp)
+	.loc 1 95 2
+	movq	-136(%rbp), %rdx
+	movq	-80(%rbp), %rax
+	movq	%rdx, %rsi
+	movq	%rax, %rdi
+	call	scopeBind@PLT
+	.loc 1 97 2
+	movq	-96(%rbp), %rax
+	movq	%rax, %rdi
+	call	tfGenerator@PLT
+	movq	%rax, %rdx
+	movq	-136(%rbp), %rcx
+	movq	-80(%rbp), %rax
+	movq	%rcx, %rsi
+	movq	%rax, %rdi
+	call	tiBottomUp@PLT
+	.loc 1 98 2
+	movq	-136(%rbp), %rax
+	movq	32(%rax), %rax
+	movq	%rax, %rdi
+	call	tpossCount@PLT
+	movl	%eax, %edx
+	movl	$0, %esi
+	leaq	.LC19(%rip), %rax
+	movq	%rax, %rdi
+	call	testIntEqual@PLT
+	.loc 1 100 2
+	call	finiFile@PLT
+	.loc 1 101 1
+	nop
+	subq	$-128, %rsp
+	popq	%rbx
+	popq	%r12
+	popq	%rbp
+	.cfi_def_cfa 7, 8
+	ret
+	.cfi_endproc
+.LFE1:
+	.size	testTiBupCollect1, .-testTiBupCollect1
+	.section	.rodata
+.LC20:
+	.string	"g(): Generator E == never"
+.LC21:
+	.string	"dg(): Generator D == never"
+	.align 8
+.LC22:
+	.string	"local x: D := never; y := x for free x in g()"
+.LC23:
+	.string	"Collect is ok"
+.LC24:
+	.string	"y"
+.LC25:
+	.string	"is a generator"
+.LC26:
+	.string	"Generates D"
+	.text
+	.type	testTiBupCollect2, @function
+testTiBupCollect2:
+.LFB2:
+	.loc 1 105 1
+	.cfi_startproc
+	pushq	%rbp
+	.cfi_def_cfa_offset 16
+	.cfi_offset 6, -16
+	movq	%rsp, %rbp
+	.cfi_def_cfa_register 6
+	pushq	%r12
+	pushq	%rbx
+	addq	$-128, %rsp
+	.cfi_offset 12, -24
+	.cfi_offset 3, -32
+	.loc 1 106 9
+	leaq	.LC7(%rip), %rax
+	movq	%rax, -24(%rbp)
+	.loc 1 107 9
+	leaq	.LC8(%rip), %rax
+	movq	%rax, -32(%rbp)
+	.loc 1 108 9
+	leaq	.LC9(%rip), %rax
+	movq	%rax, -40(%rbp)
+	.loc 1 109 9
+	leaq	.LC10(%rip), %rax
+	movq	%rax, -48(%rbp)
+	.loc 1 110 9
+	leaq	.LC20(%rip), %rax
+	movq	%rax, -56(%rbp)
+	.loc 1 111 9
+	leaq	.LC21(%rip), %rax
+	movq	%rax, -64(%rbp)
+	.loc 1 113 40
+	movq	String_listPointer(%rip), %rax
+	movq	16(%rax), %r10
+	movq	-56(%rbp), %rdi
+	movq	-48(%rbp), %rsi
+	movq	-40(%rbp), %rcx
+	movq	-32(%rbp), %rdx
+	movq	-24(%rbp), %rax
+	subq	$8, %rsp
+	pushq	-64(%rbp)
+	movq	%rdi, %r9
+	movq	%rsi, %r8
+	movq	%rax, %rsi
+	movl	$5, %edi
+	movl	$0, %eax
+	call	*%r10
+.LVL2:
+	addq	$16, %rsp
+	movq	%rax, -72(%rbp)
+	.loc 1 114 42
+	movq	AbSyn_listPointer(%rip), %rax
+	movq	(%rax), %rbx
+	movq	-72(%rbp), %rax
+	movq	%rax, %rdi
+	call	abqParseLines@PLT
+	movq	%rax, %r12
+	movl	$0, %eax
+	call	stdtypes@PLT
+	movq	%r12, %rsi
+	movq	%rax, %rdi
+	call	*%rbx
+.LVL3:
+	movq	%rax, -80(%rbp)
+	.loc 1 115 16
+	movq	sposNone(%rip), %rax
+	movq	-80(%rbp), %rdx
+	movq	%rax, %rsi
+	movl	$64, %edi
+	call	abNewOfList@PLT
+	movq	%rax, -88(%rbp)
+	.loc 1 124 2
+	call	initFile@PLT
+	.loc 1 125 9
+	call	stabFile@PLT
+	movq	%rax, -96(%rbp)
+	.loc 1 127 2
+	movq	-88(%rbp), %rax
+	movl	$7, %esi
+	movq	%rax, %rdi
+	call	abPutUse@PLT
+	.loc 1 128 2
+	movq	-88(%rbp), %rax
+	movq	%rax, %rdi
+	call	abPrintDb@PLT
+	.loc 1 129 2
+	movq	-88(%rbp), %rdx
+	movq	-96(%rbp), %rax
+	movq	%rdx, %rsi
+	movq	%rax, %rdi
+	call	scopeBind@PLT
+	.loc 1 130 2
+	movq	-88(%rbp), %rdx
+	movq	-96(%rbp), %rax
+	movq	%rdx, %rsi
+	movq	%rax, %rdi
+	call	typeInfer@PLT
+	.loc 1 132 6
+	leaq	.LC11(%rip), %rax
+	movq	%rax, %rdi
+	call	id@PLT
+	movq	%rax, %rdx
+	movq	-96(%rbp), %rax
+	movq	%rdx, %rsi
+	movq	%rax, %rdi
+	call	tiGetTForm@PLT
+	movq	%rax, -104(%rbp)
+	.loc 1 133 6
+	leaq	.LC12(%rip), %rax
+	movq	%rax, %rdi
+	call	id@PLT
+	movq	%rax, %rdx
+	movq	-96(%rbp), %rax
+	movq	%rdx, %rsi
+	movq	%rax, %rdi
+	call	tiGetTForm@PLT
+	movq	%rax, -112(%rbp)
+	.loc 1 135 12
+	leaq	.LC22(%rip), %rax
+	movq	%rax, %rdi
+	call	abqParse@PLT
+	movq	%rax, -120(%rbp)
+	.loc 1 136 2
+	movq	-120(%rbp), %rdx
+	movq	-96(%rbp), %rax
+	movq	%rdx, %rsi
+	movq	%rax, %rdi
+	call	scopeBind@PLT
+	.loc 1 137 2
+	movq	tfUnknown(%rip), %rdx
+	movq	-120(%rbp), %rcx
+	movq	-96(%rbp), %rax
+	movq	%rcx, %rsi
+	movq	%rax, %rdi
+	call	tiBottomUp@PLT
+	.loc 1 139 2
+	movq	-120(%rbp), %rax
+	movq	32(%rax), %rax
+	movq	%rax, %rdi
+	call	tpossCount@PLT
+	movl	%eax, %edx
+	movl	$1, %esi
+	leaq	.LC23(%rip), %rax
+	movq	%rax, %rdi
+	call	testIntEqual@PLT
+	.loc 1 141 6
+	movq	-96(%rbp), %rax
+	leaq	.LC24(%rip), %rdx
+	movq	%rdx, %rsi
+	movq	%rax, %rdi
+	call	uniqueMeaning@PLT
+	movq	%rax, -128(%rbp)
+	.loc 1 142 8
+	movq	-128(%rbp), %rax
+	movq	%rax, %rdi
+	call	symeType@PLT
+	movq	%rax, -136(%rbp)
+	.loc 1 143 36
+	movq	-136(%rbp), %rax
+	movzbl	(%rax), %eax
+	.loc 1 143 2
+	cmpb	$16, %al
+	sete	%al
+	movzbl	%al, %eax
+	movl	%eax, %esi
+	leaq	.LC25(%rip), %rax
+	movq	%rax, %rdi
+	call	testTrue@PLT
+	.loc 1 145 2
+	movq	-136(%rbp), %rax
+	movl	$0, %esi
+	movq	%rax, %rdi
+	call	tfFollowArg@PLT
+	movq	%rax, %rdx
+	movq	-104(%rbp), %rax
+	movq	%rdx, %rsi
+	movq	%rax, %rdi
+	call	tformEqual@PLT
+	movl	%eax, %esi
+	leaq	.LC26(%rip), %rax
+	movq	%rax, %rdi
+	call	testTrue@PLT
+	.loc 1 147 2
+	call	finiFile@PLT
+	.loc 1 148 1
+	nop
+	leaq	-16(%rbp), %rsp
+	popq	%rbx
+	popq	%r12
+	popq	%rbp
+	.cfi_def_cfa 7, 8
+	ret
+	.cfi_endproc
+.LFE2:
+	.size	testTiBupCollect2, .-testTiBupCollect2
+	.section	.rodata
+.LC27:
+	.string	"x: E == never"
+.LC28:
+	.string	"(x, x) pretend D"
+.LC29:
+	.string	"is multi"
+.LC30:
+	.string	"Has a context"
+.LC31:
+	.string	"multi to cross"
+	.text
+	.type	testTiTdnPretend, @function
+testTiTdnPretend:
+.LFB3:
+	.loc 1 152 1
+	.cfi_startproc
+	pushq	%rbp
+	.cfi_def_cfa_offset 16
+	.cfi_offset 6, -16
+	movq	%rsp, %rbp
+	.cfi_def_cfa_register 6
+	pushq	%r12
+	pushq	%rbx
+	subq	$80, %rsp
+	.cfi_offset 12, -24
+	.cfi_offset 3, -32
+	.loc 1 153 9
+	leaq	.LC7(%rip), %rax
+	movq	%rax, -24(%rbp)
+	.loc 1 154 9
+	leaq	.LC8(%rip), %rax
+	movq	%rax, -32(%rbp)
+	.loc 1 155 9
+	leaq	.LC9(%rip), %rax
+	movq	%rax, -40(%rbp)
+	.loc 1 156 9
+	leaq	.LC27(%rip), %rax
+	movq	%rax, -48(%rbp)
+	.loc 1 158 40
+	movq	String_listPointer(%rip), %rax
+	movq	16(%rax), %r9
+	movq	-48(%rbp), %rsi
+	movq	-40(%rbp), %rcx
+	movq	-32(%rbp), %rdx
+	movq	-24(%rbp), %rax
+	movq	%rsi, %r8
+	movq	%rax, %rsi
+	movl	$4, %edi
+	movl	$0, %eax
+	call	*%r9
+.LVL4:
+	movq	%rax, -56(%rbp)
+	.loc 1 159 42
+	movq	AbSyn_listPointer(%rip), %rax
+	movq	(%rax), %rbx
+	movq	-56(%rbp), %rax
+	movq	%rax, %rdi
+	call	abqParseLines@PLT
+	movq	%rax, %r12
+	movl	$0, %eax
+	call	stdtypes@PLT
+	movq	%r12, %rsi
+	movq	%rax, %rdi
+	call	*%rbx
+.LVL5:
+	movq	%rax, -64(%rbp)
+	.loc 1 160 16
+	movq	sposNone(%rip), %rax
+	movq	-64(%rbp), %rdx
+	movq	%rax, %rsi
+	movl	$64, %edi
+	call	abNewOfList@PLT
+	movq	%rax, -72(%rbp)
+	.loc 1 166 2
+	call	initFile@PLT
+	.loc 1 167 9
+	call	stabFile@PLT
+	movq	%rax, -80(%rbp)
+	.loc 1 169 2
+	movq	-72(%rbp), %rax
+	movl	$7, %esi
+	movq	%rax, %rdi
+	call	abPutUse@PLT
+	.loc 1 170 2
+	movq	-72(%rbp), %rax
+	movq	%rax, %rdi
+	call	abPrintDb@PLT
+	.loc 1 171 2
+	movq	-72(%rbp), %rdx
+	movq	-80(%rbp), %rax
+	movq	%rdx, %rsi
+	movq	%rax, %rdi
+	call	scopeBind@PLT
+	.loc 1 172 2
+	movq	-72(%rbp), %rdx
+	movq	-80(%rbp), %rax
+	movq	%rdx, %rsi
+	movq	%rax, %rdi
+	call	typeInfer@PLT
+	.loc 1 174 12
+	leaq	.LC28(%rip), %rax
+	movq	%rax, %rdi
+	call	abqParse@PLT
+	movq	%rax, -88(%rbp)
+	.loc 1 175 2
+	movq	-88(%rbp), %rdx
+	movq	-80(%rbp), %rax
+	movq	%rdx, %rsi
+	movq	%rax, %rdi
+	call	scopeBind@PLT
+	.loc 1 176 2
+	movq	tfUnknown(%rip), %rdx
+	movq	-88(%rbp), %rcx
+	movq	-80(%rbp), %rax
+	movq	%rcx, %rsi
+	movq	%rax, %rdi
+	call	tiBottomUp@PLT
+	.loc 1 177 2
+	movq	tfUnknown(%rip), %rdx
+	movq	-88(%rbp), %rcx
+	movq	-80(%rbp), %rax
+	movq	%rcx, %rsi
+	movq	%rax, %rdi
+	call	tiTopDown@PLT
+	.loc 1 179 48
+	movq	-88(%rbp), %rax
+	movq	40(%rax), %rax
+	.loc 1 179 66
+	movq	32(%rax), %rax
+	.loc 1 179 75
+	movzbl	(%rax), %eax
+	.loc 1 179 2
+	cmpb	$22, %al
+	sete	%al
+	movzbl	%al, %eax
+	movl	%eax, %esi
+	leaq	.LC29(%rip), %rax
+	movq	%rax, %rdi
+	call	testTrue@PLT
+	.loc 1 180 58
+	movq	-88(%rbp), %rax
+	movq	40(%rax), %rax
+	.loc 1 180 71
+	movq	24(%rax), %rax
+	.loc 1 180 2
+	testq	%rax, %rax
+	je	.L5
+	.loc 1 180 101 discriminator 1
+	movq	-88(%rbp), %rax
+	movq	40(%rax), %rax
+	.loc 1 180 114 discriminator 1
+	movq	24(%rax), %rax
+	.loc 1 180 120 discriminator 1
+	movq	48(%rax), %rax
+	jmp	.L6
+.L5:
+	.loc 1 180 2 discriminator 2
+	movl	$0, %eax
+.L6:
+	.loc 1 180 2 is_stmt 0 discriminator 4
+	movl	%eax, %esi
+	leaq	.LC30(%rip), %rax
+	movq	%rax, %rdi
+	call	testIntIsNotZero@PLT
+	.loc 1 181 51 is_stmt 1 discriminator 4
+	movq	-88(%rbp), %rax
+	movq	40(%rax), %rax
+	.loc 1 181 64 discriminator 4
+	movq	24(%rax), %rax
+	.loc 1 181 2 discriminator 4
+	testq	%rax, %rax
+	je	.L7
+	.loc 1 181 94 discriminator 1
+	movq	-88(%rbp), %rax
+	movq	40(%rax), %rax
+	.loc 1 181 107 discriminator 1
+	movq	24(%rax), %rax
+	.loc 1 181 113 discriminator 1
+	movq	48(%rax), %rax
+	.loc 1 181 2 discriminator 1
+	andl	$32, %eax
+	jmp	.L8
+.L7:
+	.loc 1 181 2 is_stmt 0 discriminator 2
+	movl	$0, %eax
+.L8:
+	.loc 1 181 2 discriminator 4
+	movl	%eax, %esi
+	leaq	.LC31(%rip), %rax
+	movq	%rax, %rdi
+	call	testTrue@PLT
+	.loc 1 183 2 is_stmt 1 discriminator 4
+	call	finiFile@PLT
+	.loc 1 184 1 discriminator 4
+	nop
+	addq	$80, %rsp
+	popq	%rbx
+	popq	%r12
+	popq	%rbp
+	.cfi_def_cfa 7, 8
+	ret
+	.cfi_endproc
+.LFE3:
+	.size	testTiTdnPretend, .-testTiTdnPretend
+	.section	.rodata
+	.align 8
+.LC32:
+	.string	"F: with { apply: (%, %) -> () } == add { apply(f: %, g: %): () == never }"
+.LC33:
+	.string	"f: F == never"
+.LC34:
+	.string	"f(): E == never"
+.LC35:
+	.string	"f(f)"
+.LC36:
+	.string	"fn"
+.LC37:
+	.string	"Unique"
+	.text
+	.type	testTiBupApplyMixed, @function
+testTiBupApplyMixed:
+.LFB4:
+	.loc 1 191 1
+	.cfi_startproc
+	pushq	%rbp
+	.cfi_def_cfa_offset 16
+	.cfi_offset 6, -16
+	movq	%rsp, %rbp
+	.cfi_def_cfa_register 6
+	pushq	%r12
+	pushq	%rbx
+	subq	$80, %rsp
+	.cfi_offset 12, -24
+	.cfi_offset 3, -32
+	.loc 1 192 9
+	leaq	.LC7(%rip), %rax
+	movq	%rax, -24(%rbp)
+	.loc 1 193 9
+	leaq	.LC9(%rip), %rax
+	movq	%rax, -32(%rbp)
+	.loc 1 194 9
+	leaq	.LC32(%rip), %rax
+	movq	%rax, -40(%rbp)
+	.loc 1 195 9
+	leaq	.LC33(%rip), %rax
+	movq	%rax, -48(%rbp)
+	.loc 1 196 9
+	leaq	.LC34(%rip), %rax
+	movq	%rax, -56(%rbp)
+	.loc 1 198 40
+	movq	String_listPointer(%rip), %rax
+	movq	16(%rax), %r10
+	movq	-56(%rbp), %rdi
+	movq	-48(%rbp), %rsi
+	movq	-40(%rbp), %rcx
+	movq	-32(%rbp), %rdx
+	movq	-24(%rbp), %rax
+	movq	%rdi, %r9
+	movq	%rsi, %r8
+	movq	%rax, %rsi
+	movl	$5, %edi
+	movl	$0, %eax
+	call	*%r10
+.LVL6:
+	movq	%rax, -64(%rbp)
+	.loc 1 199 42
+	movq	AbSyn_listPointer(%rip), %rax
+	movq	(%rax), %rbx
+	movq	-64(%rbp), %rax
+	movq	%rax, %rdi
+	call	abqParseLines@PLT
+	movq	%rax, %r12
+	movl	$0, %eax
+	call	stdtypes@PLT
+	movq	%r12, %rsi
+	movq	%rax, %rdi
+	call	*%rbx
+.LVL7:
+	movq	%rax, -72(%rbp)
+	.loc 1 200 16
+	movq	sposNone(%rip), %rax
+	movq	-72(%rbp), %rdx
+	movq	%rax, %rsi
+	movl	$64, %edi
+	call	abNewOfList@PLT
+	movq	%rax, -80(%rbp)
+	.loc 1 202 16
+	leaq	.LC35(%rip), %rax
+	movq	%rax, %rdi
+	call	abqParse@PLT
+	movq	%rax, -88(%rbp)
+	.loc 1 205 2
+	call	initFile@PLT
+	.loc 1 206 9
+	call	stabFile@PLT
+	movq	%rax, -96(%rbp)
+	.loc 1 208 2
+	movq	-80(%rbp), %rax
+	movl	$7, %esi
+	movq	%rax, %rdi
+	call	abPutUse@PLT
+	.loc 1 209 2
+	movq	-80(%rbp), %rdx
+	movq	-96(%rbp), %rax
+	movq	%rdx, %rsi
+	movq	%rax, %rdi
+	call	scopeBind@PLT
+	.loc 1 210 2
+	movq	-80(%rbp), %rdx
+	movq	-96(%rbp), %rax
+	movq	%rdx, %rsi
+	movq	%rax, %rdi
+	call	typeInfer@PLT
+	.loc 1 212 25
+	movl	$1, tipBupDebug(%rip)
+	.loc 1 212 11
+	movl	tipBupDebug(%rip), %eax
+	movl	%eax, tfsDebug(%rip)
+	.loc 1 213 2
+	movq	-88(%rbp), %rdx
+	movq	-96(%rbp), %rax
+	movq	%rdx, %rsi
+	movq	%rax, %rdi
+	call	scopeBind@PLT
+	.loc 1 214 2
+	movq	tfUnknown(%rip), %rdx
+	movq	-88(%rbp), %rcx
+	movq	-96(%rbp), %rax
+	movq	%rcx, %rsi
+	movq	%rax, %rdi
+	call	tiBottomUp@PLT
+	.loc 1 216 2
+	movq	-88(%rbp), %rax
+	movq	32(%rax), %rax
+	movq	%rax, %rdi
+	call	tpossCount@PLT
+	movl	%eax, %edx
+	movl	$1, %esi
+	leaq	.LC36(%rip), %rax
+	movq	%rax, %rdi
+	call	testIntEqual@PLT
+	.loc 1 218 2
+	movl	$0, %edi
+	movl	$0, %eax
+	call	tfMulti@PLT
+	movq	%rax, %rdx
+	movq	-88(%rbp), %rcx
+	movq	-96(%rbp), %rax
+	movq	%rcx, %rsi
+	movq	%rax, %rdi
+	call	tiTopDown@PLT
+	.loc 1 219 60
+	movq	-88(%rbp), %rax
+	movzbl	2(%rax), %eax
+	.loc 1 219 2
+	movzbl	%al, %eax
+	movl	%eax, %edx
+	movl	$2, %esi
+	leaq	.LC37(%rip), %rax
+	movq	%rax, %rdi
+	call	testIntEqual@PLT
+	.loc 1 221 2
+	call	finiFile@PLT
+	.loc 1 222 1
+	nop
+	addq	$80, %rsp
+	popq	%rbx
+	popq	%r12
+	popq	%rbp
+	.cfi_def_cfa 7, 8
+	ret
+	.cfi_endproc
+.LFE4:
+	.size	testTiBupApplyMixed, .-testTiBupApplyMixed
+	.section	.rodata
+	.align 8
+.LC38:
+	.string	"S: with { apply: (%, E) -> () } == add { apply(f: %, e: E): () == never }"
+.LC39:
+	.string	"s: S == never"
+.LC40:
+	.string	"e: E == never"
+.LC41:
+	.string	"s e"
+	.text
+	.type	testTiBupApplyImplicit, @function
+testTiBupApplyImplicit:
+.LFB5:
+	.loc 1 228 1
+	.cfi_startproc
+	pushq	%rbp
+	.cfi_def_cfa_offset 16
+	.cfi_offset 6, -16
+	movq	%rsp, %rbp
+	.cfi_def_cfa_register 6
+	pushq	%r12
+	pushq	%rbx
+	subq	$80, %rsp
+	.cfi_offset 12, -24
+	.cfi_offset 3, -32
+	.loc 1 229 9
+	leaq	.LC7(%rip), %rax
+	movq	%rax, -24(%rbp)
+	.loc 1 230 9
+	leaq	.LC9(%rip), %rax
+	movq	%rax, -32(%rbp)
+	.loc 1 231 9
+	leaq	.LC38(%rip), %rax
+	movq	%rax, -40(%rbp)
+	.loc 1 232 9
+	leaq	.LC39(%rip), %rax
+	movq	%rax, -48(%rbp)
+	.loc 1 233 9
+	leaq	.LC40(%rip), %rax
+	movq	%rax, -56(%rbp)
+	.loc 1 235 40
+	movq	String_listPointer(%rip), %rax
+	movq	16(%rax), %r10
+	movq	-56(%rbp), %rdi
+	movq	-48(%rbp), %rsi
+	movq	-40(%rbp), %rcx
+	movq	-32(%rbp), %rdx
+	movq	-24(%rbp), %rax
+	movq	%rdi, %r9
+	movq	%rsi, %r8
+	movq	%rax, %rsi
+	movl	$5, %edi
+	movl	$0, %eax
+	call	*%r10
+.LVL8:
+	movq	%rax, -64(%rbp)
+	.loc 1 236 42
+	movq	AbSyn_listPointer(%rip), %rax
+	movq	(%rax), %rbx
+	movq	-64(%rbp), %rax
+	movq	%rax, %rdi
+	call	abqParseLines@PLT
+	movq	%rax, %r12
+	movl	$0, %eax
+	call	stdtypes@PLT
+	movq	%r12, %rsi
+	movq	%rax, %rdi
+	call	*%rbx
+.LVL9:
+	movq	%rax, -72(%rbp)
+	.loc 1 237 16
+	movq	sposNone(%rip), %rax
+	movq	-72(%rbp), %rdx
+	movq	%rax, %rsi
+	movl	$64, %edi
+	call	abNewOfList@PLT
+	movq	%rax, -80(%rbp)
+	.loc 1 239 16
+	leaq	.LC41(%rip), %rax
+	movq	%rax, %rdi
+	call	abqParse@PLT
+	movq	%rax, -88(%rbp)
+	.loc 1 242 2
+	call	initFile@PLT
+	.loc 1 243 9
+	call	stabFile@PLT
+	movq	%rax, -96(%rbp)
+	.loc 1 245 2
+	movq	-80(%rbp), %rax
+	movl	$7, %esi
+	movq	%rax, %rdi
+	call	abPutUse@PLT
+	.loc 1 246 2
+	movq	-80(%rbp), %rdx
+	movq	-96(%rbp), %rax
+	movq	%rdx, %rsi
+	movq	%rax, %rdi
+	call	scopeBind@PLT
+	.loc 1 247 2
+	movq	-80(%rbp), %rdx
+	movq	-96(%rbp), %rax
+	movq	%rdx, %rsi
+	movq	%rax, %rdi
+	call	typeInfer@PLT
+	.loc 1 249 25
+	movl	$1, tipBupDebug(%rip)
+	.loc 1 249 11
+	movl	tipBupDebug(%rip), %eax
+	movl	%eax, tfsDebug(%rip)
+	.loc 1 250 2
+	movq	-88(%rbp), %rdx
+	movq	-96(%rbp), %rax
+	movq	%rdx, %rsi
+	movq	%rax, %rdi
+	call	scopeBind@PLT
+	.loc 1 251 2
+	movq	tfUnknown(%rip), %rdx
+	movq	-88(%rbp), %rcx
+	movq	-96(%rbp), %rax
+	movq	%rcx, %rsi
+	movq	%rax, %rdi
+	call	tiBottomUp@PLT
+	.loc 1 253 2
+	movq	-88(%rbp), %rax
+	movq	32(%rax), %rax
+	movq	%rax, %rdi
+	call	tpossCount@PLT
+	movl	%eax, %edx
+	movl	$1, %esi
+	leaq	.LC36(%rip), %rax
+	movq	%rax, %rdi
+	call	testIntEqual@PLT
+	.loc 1 255 2
+	movl	$0, %edi
+	movl	$0, %eax
+	call	tfMulti@PLT
+	movq	%rax, %rdx
+	movq	-88(%rbp), %rcx
+	movq	-96(%rbp), %rax
+	movq	%rcx, %rsi
+	movq	%rax, %rdi
+	call	tiTopDown@PLT
+	.loc 1 256 60
+	movq	-88(%rbp), %rax
+	movzbl	2(%rax), %eax
+	.loc 1 256 2
+	movzbl	%al, %eax
+	movl	%eax, %edx
+	movl	$2, %esi
+	leaq	.LC37(%rip), %rax
+	movq	%rax, %rdi
+	call	testIntEqual@PLT
+	.loc 1 258 2
+	call	finiFile@PLT
+	.loc 1 259 1
+	nop
+	addq	$80, %rsp
+	popq	%rbx
+	popq	%r12
+	popq	%rbp
+	.cfi_def_cfa 7, 8
+	ret
+	.cfi_endproc
+.LFE5:
+	.size	testTiBupApplyImplicit, .-testTiBupApplyImplicit
+	.section	.rodata
+.LC42:
+	.string	"s x"
+.LC43:
+	.string	"Unchanged"
+	.text
+	.type	testTiBupApplyErrorOnArg, @function
+testTiBupApplyErrorOnArg:
+.LFB6:
+	.loc 1 264 1
+	.cfi_startproc
+	pushq	%rbp
+	.cfi_def_cfa_offset 16
+	.cfi_offset 6, -16
+	movq	%rsp, %rbp
+	.cfi_def_cfa_register 6
+	pushq	%r12
+	pushq	%rbx
+	subq	$80, %rsp
+	.cfi_offset 12, -24
+	.cfi_offset 3, -32
+	.loc 1 265 9
+	leaq	.LC7(%rip), %rax
+	movq	%rax, -24(%rbp)
+	.loc 1 266 9
+	leaq	.LC9(%rip), %rax
+	movq	%rax, -32(%rbp)
+	.loc 1 267 9
+	leaq	.LC38(%rip), %rax
+	movq	%rax, -40(%rbp)
+	.loc 1 268 9
+	leaq	.LC39(%rip), %rax
+	movq	%rax, -48(%rbp)
+	.loc 1 269 9
+	leaq	.LC40(%rip), %rax
+	movq	%rax, -56(%rbp)
+	.loc 1 271 40
+	movq	String_listPointer(%rip), %rax
+	movq	16(%rax), %r10
+	movq	-56(%rbp), %rdi
+	movq	-48(%rbp), %rsi
+	movq	-40(%rbp), %rcx
+	movq	-32(%rbp), %rdx
+	movq	-24(%rbp), %rax
+	movq	%rdi, %r9
+	movq	%rsi, %r8
+	movq	%rax, %rsi
+	movl	$5, %edi
+	movl	$0, %eax
+	call	*%r10
+.LVL10:
+	movq	%rax, -64(%rbp)
+	.loc 1 272 42
+	movq	AbSyn_listPointer(%rip), %rax
+	movq	(%rax), %rbx
+	movq	-64(%rbp), %rax
+	movq	%rax, %rdi
+	call	abqParseLines@PLT
+	movq	%rax, %r12
+	movl	$0, %eax
+	call	stdtypes@PLT
+	movq	%r12, %rsi
+	movq	%rax, %rdi
+	call	*%rbx
+.LVL11:
+	movq	%rax, -72(%rbp)
+	.loc 1 273 16
+	movq	sposNone(%rip), %rax
+	movq	-72(%rbp), %rdx
+	movq	%rax, %rsi
+	movl	$64, %edi
+	call	abNewOfList@PLT
+	movq	%rax, -80(%rbp)
+	.loc 1 275 16
+	leaq	.LC42(%rip), %rax
+	movq	%rax, %rdi
+	call	abqParse@PLT
+	movq	%rax, -88(%rbp)
+	.loc 1 278 2
+	call	initFile@PLT
+	.loc 1 279 9
+	call	stabFile@PLT
+	movq	%rax, -96(%rbp)
+	.loc 1 281 2
+	movq	-80(%rbp), %rax
+	movl	$7, %esi
+	movq	%rax, %rdi
+	call	abPutUse@PLT
+	.loc 1 282 2
+	movq	-80(%rbp), %rdx
+	movq	-96(%rbp), %rax
+	movq	%rdx, %rsi
+	movq	%rax, %rdi
+	call	scopeBind@PLT
+	.loc 1 283 2
+	movq	-80(%rbp), %rdx
+	movq	-96(%rbp), %rax
+	movq	%rdx, %rsi
+	movq	%rax, %rdi
+	call	typeInfer@PLT
+	.loc 1 285 25
+	movl	$1, tipBupDebug(%rip)
+	.loc 1 285 11
+	movl	tipBupDebug(%rip), %eax
+	movl	%eax, tfsDebug(%rip)
+	.loc 1 286 2
+	movq	-88(%rbp), %rdx
+	movq	-96(%rbp), %rax
+	movq	%rdx, %rsi
+	movq	%rax, %rdi
+	call	scopeBind@PLT
+	.loc 1 287 2
+	movq	tfUnknown(%rip), %rdx
+	movq	-88(%rbp), %rcx
+	movq	-96(%rbp), %rax
+	movq	%rcx, %rsi
+	movq	%rax, %rdi
+	call	tiBottomUp@PLT
+	.loc 1 289 2
+	movq	-88(%rbp), %rax
+	movq	32(%rax), %rax
+	movq	%rax, %rdi
+	call	tpossCount@PLT
+	movl	%eax, %edx
+	movl	$0, %esi
+	leaq	.LC36(%rip), %rax
+	movq	%rax, %rdi
+	call	testIntEqual@PLT
+	.loc 1 291 61
+	movq	-88(%rbp), %rax
+	movzbl	2(%rax), %eax
+	.loc 1 291 2
+	movzbl	%al, %eax
+	movl	%eax, %edx
+	movl	$1, %esi
+	leaq	.LC43(%rip), %rax
+	movq	%rax, %rdi
+	call	testIntEqual@PLT
+	.loc 1 293 2
+	call	finiFile@PLT
+	.loc 1 294 1
+	nop
+	addq	$80, %rsp
+	popq	%rbx
+	popq	%r12
+	popq	%rbp
+	.cfi_def_cfa 7, 8
+	ret
+	.cfi_endproc
+.LFE6:
+	.size	testTiBupApplyErrorOnArg, .-testTiBupApplyErrorOnArg
+	.section	.rodata
+.LC44:
+	.string	"f(): (E, E) == never"
+.LC45:
+	.string	"g(a: Cross(E,E)): () == never"
+.LC46:
+	.string	"g(f())"
+.LC47:
+	.string	"embed"
+.LC48:
+	.string	"Type of g: %pTForm\n"
+.LC49:
+	.string	"Type of f(): %pTForm\n"
+.LC50:
+	.string	"Embed of f(): %d\n"
+	.text
+	.type	testTiTdnMultiToCrossEmbed, @function
+testTiTdnMultiToCrossEmbed:
+.LFB7:
+	.loc 1 317 1
+	.cfi_startproc
+	pushq	%rbp
+	.cfi_def_cfa_offset 16
+	.cfi_offset 6, -16
+	movq	%rsp, %rbp
+	.cfi_def_cfa_register 6
+	pushq	%r12
+	pushq	%rbx
+	subq	$80, %rsp
+	.cfi_offset 12, -24
+	.cfi_offset 3, -32
+	.loc 1 318 9
+	leaq	.LC7(%rip), %rax
+	movq	%rax, -24(%rbp)
+	.loc 1 319 9
+	leaq	.LC9(%rip), %rax
+	movq	%rax, -32(%rbp)
+	.loc 1 320 9
+	leaq	.LC44(%rip), %rax
+	movq	%rax, -40(%rbp)
+	.loc 1 321 9
+	leaq	.LC45(%rip), %rax
+	movq	%rax, -48(%rbp)
+	.loc 1 323 40
+	movq	String_listPointer(%rip), %rax
+	movq	16(%rax), %r9
+	movq	-48(%rbp), %rsi
+	movq	-40(%rbp), %rcx
+	movq	-32(%rbp), %rdx
+	movq	-24(%rbp), %rax
+	movq	%rsi, %r8
+	movq	%rax, %rsi
+	movl	$4, %edi
+	movl	$0, %eax
+	call	*%r9
+.LVL12:
+	movq	%rax, -56(%rbp)
+	.loc 1 324 42
+	movq	AbSyn_listPointer(%rip), %rax
+	movq	(%rax), %rbx
+	movq	-56(%rbp), %rax
+	movq	%rax, %rdi
+	call	abqParseLines@PLT
+	movq	%rax, %r12
+	movl	$0, %eax
+	call	stdtypes@PLT
+	movq	%r12, %rsi
+	movq	%rax, %rdi
+	call	*%rbx
+.LVL13:
+	movq	%rax, -64(%rbp)
+	.loc 1 325 16
+	movq	sposNone(%rip), %rax
+	movq	-64(%rbp), %rdx
+	movq	%rax, %rsi
+	movl	$64, %edi
+	call	abNewOfList@PLT
+	movq	%rax, -72(%rbp)
+	.loc 1 331 2
+	call	initFile@PLT
+	.loc 1 332 9
+	call	stabFile@PLT
+	movq	%rax, -80(%rbp)
+	.loc 1 334 2
+	movq	-72(%rbp), %rax
+	movl	$7, %esi
+	movq	%rax, %rdi
+	call	abPutUse@PLT
+	.loc 1 335 2
+	movq	-72(%rbp), %rax
+	movq	%rax, %rdi
+	call	abPrintDb@PLT
+	.loc 1 336 2
+	movq	-72(%rbp), %rdx
+	movq	-80(%rbp), %rax
+	movq	%rdx, %rsi
+	movq	%rax, %rdi
+	call	scopeBind@PLT
+	.loc 1 337 2
+	movq	-72(%rbp), %rdx
+	movq	-80(%rbp), %rax
+	movq	%rdx, %rsi
+	movq	%rax, %rdi
+	call	typeInfer@PLT
+	.loc 1 339 11
+	leaq	.LC46(%rip), %rax
+	movq	%rax, %rdi
+	call	abqParse@PLT
+	movq	%rax, -88(%rbp)
+	.loc 1 340 2
+	movq	-88(%rbp), %rdx
+	movq	-80(%rbp), %rax
+	movq	%rdx, %rsi
+	movq	%rax, %rdi
+	call	scopeBind@PLT
+	.loc 1 341 2
+	movq	tfUnknown(%rip), %rdx
+	movq	-88(%rbp), %rcx
+	movq	-80(%rbp), %rax
+	movq	%rcx, %rsi
+	movq	%rax, %rdi
+	call	tiBottomUp@PLT
+	.loc 1 342 2
+	movq	tfUnknown(%rip), %rdx
+	movq	-88(%rbp), %rcx
+	movq	-80(%rbp), %rax
+	movq	%rcx, %rsi
+	movq	%rax, %rdi
+	call	tiTopDown@PLT
+	.loc 1 344 61
+	movq	-88(%rbp), %rax
+	movzbl	2(%rax), %eax
+	.loc 1 344 2
+	movzbl	%al, %eax
+	movl	%eax, %edx
+	movl	$2, %esi
+	leaq	.LC37(%rip), %rax
+	movq	%rax, %rdi
+	call	testIntEqual@PLT
+	.loc 1 345 66
+	movq	-88(%rbp), %rax
+	movq	48(%rax), %rax
+	.loc 1 345 82
+	movq	24(%rax), %rax
+	.loc 1 345 88
+	movq	48(%rax), %rax
+	.loc 1 345 2
+	movl	%eax, %edx
+	movl	$32, %esi
+	leaq	.LC47(%rip), %rax
+	movq	%rax, %rdi
+	call	testIntEqual@PLT
+	.loc 1 347 51
+	movq	-88(%rbp), %rax
+	movq	40(%rax), %rax
+	.loc 1 347 2
+	movq	32(%rax), %rax
+	movq	%rax, %rsi
+	leaq	.LC48(%rip), %rax
+	movq	%rax, %rdi
+	movl	$0, %eax
+	call	aprintf@PLT
+	.loc 1 348 58
+	movq	-88(%rbp), %rax
+	movq	48(%rax), %rax
+	.loc 1 348 2
+	movq	32(%rax), %rax
+	movq	%rax, %rsi
+	leaq	.LC49(%rip), %rax
+	movq	%rax, %rdi
+	movl	$0, %eax
+	call	aprintf@PLT
+	.loc 1 349 55
+	movq	-88(%rbp), %rax
+	movq	48(%rax), %rax
+	.loc 1 349 66
+	movq	24(%rax), %rax
+	.loc 1 349 2
+	testq	%rax, %rax
+	je	.L13
+	.loc 1 349 96 discriminator 1
+	movq	-88(%rbp), %rax
+	movq	48(%rax), %rax
+	.loc 1 349 107 discriminator 1
+	movq	24(%rax), %rax
+	.loc 1 349 113 discriminator 1
+	movq	48(%rax), %rax
+	.loc 1 349 2 discriminator 1
+	andl	$12288, %eax
+	jmp	.L14
+.L13:
+	.loc 1 349 2 is_stmt 0 discriminator 2
+	movl	$0, %eax
+.L14:
+	.loc 1 349 2 discriminator 4
+	movq	%rax, %rsi
+	leaq	.LC50(%rip), %rax
+	movq	%rax, %rdi
+	movl	$0, %eax
+	call	aprintf@PLT
+	.loc 1 351 2 is_stmt 1 discriminator 4
+	call	finiFile@PLT
+	.loc 1 352 1 discriminator 4
+	nop
+	addq	$80, %rsp
+	popq	%rbx
+	popq	%r12
+	popq	%rbp
+	.cfi_def_cfa 7, 8
+	ret
+	.cfi_endproc
+.LFE7:
+	.size	testTiTdnMultiToCrossEmbed, .-testTiTdnMultiToCrossEmbed
+.Letext0:
+	.file 2 "/usr/include/x86_64-linux-gnu/bits/types.h"
+	.file 3 "<built-in>"
+	.file 4 "/usr/lib/gcc/x86_64-linux-gnu/12/include/stddef.h"
+	.file 5 "/usr/include/x86_64-linux-gnu/bits/types/struct_FILE.h"
+	.file 6 "/usr/include/x86_64-linux-gnu/bits/types/FILE.h"
+	.file 7 "./cport.h"
+	.file 8 "./buffer.h"
+	.file 9 "./ostream.h"
+	.file 10 "./axlgen.h"
+	.file 11 "./fname.h"
+	.file 12 "./srcpos.h"
+	.file 13 "./table.h"
+	.file 14 "./axlobs.h"
+	.file 15 "./symbol.h"
+	.file 16 "./absyn.h"
+	.file 17 "./ablogic.h"
+	.file 18 "./syme.h"
+	.file 19 "./tform.h"
+	.file 20 "./tposs.h"
+	.file 21 "./foam.h"
+	.file 22 "./lib.h"
+	.file 23 "./stab.h"
+	.file 24 "./strops.h"
+	.file 25 "./debug.h"
+	.file 26 "./tfcond.h"
+	.file 27 "./symeset.h"
+	.file 28 "./format.h"
+	.file 29 "test/testlib.h"
+	.file 30 "./ti_tdn.h"
+	.file 31 "./sefo.h"
+	.file 32 "./ti_bup.h"
+	.file 33 "test/abquick.h"
+	.file 34 "./tinfer.h"
+	.file 35 "./scobind.h"
+	.file 36 "./abuse.h"
+	.section	.debug_info,"",@progbits
+.Ldebug_info0:
+	.long	0x5505
+	.value	0x5
+	.byte	0x1
+	.byte	0x8
+	.long	.Ldebug_abbrev0
+	.uleb128 0x2c
+	.long	.LASF799
+	.byte	0xc
+	.long	.LASF0
+	.long	.LASF1
+	.quad	.Ltext0
+	.quad	.Letext0-.Ltext0
+	.long	.Ldebug_line0
+	.uleb128 0x2d
+	.byte	0x4
+	.byte	0x5
+	.string	"int"
+	.uleb128 0x13
+	.byte	0x1
+	.byte	0x8
+	.long	.LASF2
+	.uleb128 0x13
+	.byte	0x2
+	.byte	0x7
+	.long	.LASF3
+	.uleb128 0x13
+	.byte	0x4
+	.byte	0x7
+	.long	.LASF4
+	.uleb128 0x13
+	.byte	0x8
+	.byte	0x7
+	.long	.LASF5
+	.uleb128 0x13
+	.byte	0x1
+	.byte	0x6
+	.long	.LASF6
+	.uleb128 0x13
+	.byte	0x2
+	.byte	0x5
+	.long	.LASF7
+	.uleb128 0x13
+	.byte	0x8
+	.byte	0x5
+	.long	.LASF8
+	.uleb128 0xa
+	.long	.LASF9
+	.byte	0x2
+	.byte	0x98
+	.byte	0x12
+	.long	0x5f
+	.uleb128 0xa
+	.long	.LASF10
+	.byte	0x2
+	.byte	0x99
+	.byte	0x12
+	.long	0x5f
+	.uleb128 0x2e
+	.byte	0x8
+	.uleb128 0x7
+	.long	0x85
+	.uleb128 0x13
+	.byte	0x1
+	.byte	0x6
+	.long	.LASF11
+	.uleb128 0x24
+	.long	0x85
+	.uleb128 0x13
+	.byte	0x4
+	.byte	0x4
+	.long	.LASF12
+	.uleb128 0x13
+	.byte	0x8
+	.byte	0x4
+	.long	.LASF13
+	.uleb128 0x2f
+	.long	.LASF800
+	.byte	0x18
+	.byte	0x3
+	.byte	0
+	.long	0xd4
+	.uleb128 0x1e
+	.long	.LASF14
+	.long	0x43
+	.byte	0
+	.uleb128 0x1e
+	.long	.LASF15
+	.long	0x43
+	.byte	0x4
+	.uleb128 0x1e
+	.long	.LASF16
+	.long	0x7e
+	.byte	0x8
+	.uleb128 0x1e
+	.long	.LASF17
+	.long	0x7e
+	.byte	0x10
+	.byte	0
+	.uleb128 0xa
+	.long	.LASF18
+	.byte	0x4
+	.byte	0xd6
+	.byte	0x1b
+	.long	0x4a
+	.uleb128 0xd
+	.long	.LASF72
+	.byte	0xd8
+	.byte	0x5
+	.byte	0x31
+	.byte	0x8
+	.long	0x267
+	.uleb128 0x2
+	.long	.LASF19
+	.byte	0x5
+	.byte	0x33
+	.byte	0x7
+	.long	0x2e
+	.byte	0
+	.uleb128 0x2
+	.long	.LASF20
+	.byte	0x5
+	.byte	0x36
+	.byte	0x9
+	.long	0x80
+	.byte	0x8
+	.uleb128 0x2
+	.long	.LASF21
+	.byte	0x5
+	.byte	0x37
+	.byte	0x9
+	.long	0x80
+	.byte	0x10
+	.uleb128 0x2
+	.long	.LASF22
+	.byte	0x5
+	.byte	0x38
+	.byte	0x9
+	.long	0x80
+	.byte	0x18
+	.uleb128 0x2
+	.long	.LASF23
+	.byte	0x5
+	.byte	0x39
+	.byte	0x9
+	.long	0x80
+	.byte	0x20
+	.uleb128 0x2
+	.long	.LASF24
+	.byte	0x5
+	.byte	0x3a
+	.byte	0x9
+	.long	0x80
+	.byte	0x28
+	.uleb128 0x2
+	.long	.LASF25
+	.byte	0x5
+	.byte	0x3b
+	.byte	0x9
+	.long	0x80
+	.byte	0x30
+	.uleb128 0x2
+	.long	.LASF26
+	.byte	0x5
+	.byte	0x3c
+	.byte	0x9
+	.long	0x80
+	.byte	0x38
+	.uleb128 0x2
+	.long	.LASF27
+	.byte	0x5
+	.byte	0x3d
+	.byte	0x9
+	.long	0x80
+	.byte	0x40
+	.uleb128 0x2
+	.long	.LASF28
+	.byte	0x5
+	.byte	0x40
+	.byte	0x9
+	.long	0x80
+	.byte	0x48
+	.uleb128 0x2
+	.long	.LASF29
+	.byte	0x5
+	.byte	0x41
+	.byte	0x9
+	.long	0x80
+	.byte	0x50
+	.uleb128 0x2
+	.long	.LASF30
+	.byte	0x5
+	.byte	0x42
+	.byte	0x9
+	.long	0x80
+	.byte	0x58
+	.uleb128 0x2
+	.long	.LASF31
+	.byte	0x5
+	.byte	0x44
+	.byte	0x16
+	.long	0x280
+	.byte	0x60
+	.uleb128 0x2
+	.long	.LASF32
+	.byte	0x5
+	.byte	0x46
+	.byte	0x14
+	.long	0x285
+	.byte	0x68
+	.uleb128 0x2
+	.long	.LASF33
+	.byte	0x5
+	.byte	0x48
+	.byte	0x7
+	.long	0x2e
+	.byte	0x70
+	.uleb128 0x2
+	.long	.LASF34
+	.byte	0x5
+	.byte	0x49
+	.byte	0x7
+	.long	0x2e
+	.byte	0x74
+	.uleb128 0x2
+	.long	.LASF35
+	.byte	0x5
+	.byte	0x4a
+	.byte	0xb
+	.long	0x66
+	.byte	0x78
+	.uleb128 0x2
+	.long	.LASF36
+	.byte	0x5
+	.byte	0x4d
+	.byte	0x12
+	.long	0x3c
+	.byte	0x80
+	.uleb128 0x2
+	.long	.LASF37
+	.byte	0x5
+	.byte	0x4e
+	.byte	0xf
+	.long	0x51
+	.byte	0x82
+	.uleb128 0x2
+	.long	.LASF38
+	.byte	0x5
+	.byte	0x4f
+	.byte	0x8
+	.long	0x28a
+	.byte	0x83
+	.uleb128 0x2
+	.long	.LASF39
+	.byte	0x5
+	.byte	0x51
+	.byte	0xf
+	.long	0x29a
+	.byte	0x88
+	.uleb128 0x2
+	.long	.LASF40
+	.byte	0x5
+	.byte	0x59
+	.byte	0xd
+	.long	0x72
+	.byte	0x90
+	.uleb128 0x2
+	.long	.LASF41
+	.byte	0x5
+	.byte	0x5b
+	.byte	0x17
+	.long	0x2a4
+	.byte	0x98
+	.uleb128 0x2
+	.long	.LASF42
+	.byte	0x5
+	.byte	0x5c
+	.byte	0x19
+	.long	0x2ae
+	.byte	0xa0
+	.uleb128 0x2
+	.long	.LASF43
+	.byte	0x5
+	.byte	0x5d
+	.byte	0x14
+	.long	0x285
+	.byte	0xa8
+	.uleb128 0x2
+	.long	.LASF44
+	.byte	0x5
+	.byte	0x5e
+	.byte	0x9
+	.long	0x7e
+	.byte	0xb0
+	.uleb128 0x2
+	.long	.LASF45
+	.byte	0x5
+	.byte	0x5f
+	.byte	0xa
+	.long	0xd4
+	.byte	0xb8
+	.uleb128 0x2
+	.long	.LASF46
+	.byte	0x5
+	.byte	0x60
+	.byte	0x7
+	.long	0x2e
+	.byte	0xc0
+	.uleb128 0x2
+	.long	.LASF47
+	.byte	0x5
+	.byte	0x62
+	.byte	0x8
+	.long	0x2b3
+	.byte	0xc4
+	.byte	0
+	.uleb128 0xa
+	.long	.LASF48
+	.byte	0x6
+	.byte	0x7
+	.byte	0x19
+	.long	0xe0
+	.uleb128 0x30
+	.long	.LASF801
+	.byte	0x5
+	.byte	0x2b
+	.byte	0xe
+	.uleb128 0x11
+	.long	.LASF49
+	.uleb128 0x7
+	.long	0x27b
+	.uleb128 0x7
+	.long	0xe0
+	.uleb128 0x14
+	.long	0x85
+	.long	0x29a
+	.uleb128 0x15
+	.long	0x4a
+	.byte	0
+	.byte	0
+	.uleb128 0x7
+	.long	0x273
+	.uleb128 0x11
+	.long	.LASF50
+	.uleb128 0x7
+	.long	0x29f
+	.uleb128 0x11
+	.long	.LASF51
+	.uleb128 0x7
+	.long	0x2a9
+	.uleb128 0x14
+	.long	0x85
+	.long	0x2c3
+	.uleb128 0x15
+	.long	0x4a
+	.byte	0x13
+	.byte	0
+	.uleb128 0x7
+	.long	0x267
+	.uleb128 0x13
+	.byte	0x8
+	.byte	0x5
+	.long	.LASF52
+	.uleb128 0x7
+	.long	0x8c
+	.uleb128 0xf
+	.long	.LASF53
+	.byte	0x7
+	.value	0x138
+	.byte	0x17
+	.long	0x35
+	.uleb128 0xf
+	.long	.LASF54
+	.byte	0x7
+	.value	0x139
+	.byte	0x18
+	.long	0x3c
+	.uleb128 0xf
+	.long	.LASF55
+	.byte	0x7
+	.value	0x13a
+	.byte	0x17
+	.long	0x4a
+	.uleb128 0xf
+	.long	.LASF56
+	.byte	0x7
+	.value	0x141
+	.byte	0x10
+	.long	0x5f
+	.uleb128 0xf
+	.long	.LASF57
+	.byte	0x7
+	.value	0x142
+	.byte	0x19
+	.long	0x4a
+	.uleb128 0xf
+	.long	.LASF58
+	.byte	0x7
+	.value	0x156
+	.byte	0xd
+	.long	0x2e
+	.uleb128 0xf
+	.long	.LASF59
+	.byte	0x7
+	.value	0x157
+	.byte	0xf
+	.long	0x308
+	.uleb128 0xf
+	.long	.LASF60
+	.byte	0x7
+	.value	0x158
+	.byte	0x10
+	.long	0xd4
+	.uleb128 0xf
+	.long	.LASF61
+	.byte	0x7
+	.value	0x159
+	.byte	0xf
+	.long	0x2ee
+	.uleb128 0xf
+	.long	.LASF62
+	.byte	0x7
+	.value	0x166
+	.byte	0x12
+	.long	0x7e
+	.uleb128 0xf
+	.long	.LASF63
+	.byte	0x7
+	.value	0x16a
+	.byte	0xf
+	.long	0x80
+	.uleb128 0xf
+	.long	.LASF64
+	.byte	0x7
+	.value	0x16b
+	.byte	0x15
+	.long	0x2cf
+	.uleb128 0xf
+	.long	.LASF65
+	.byte	0x7
+	.value	0x176
+	.byte	0x11
+	.long	0x91
+	.uleb128 0xf
+	.long	.LASF66
+	.byte	0x7
+	.value	0x178
+	.byte	0x10
+	.long	0x98
+	.uleb128 0xf
+	.long	.LASF67
+	.byte	0x7
+	.value	0x17a
+	.byte	0x10
+	.long	0x98
+	.uleb128 0xa
+	.long	.LASF68
+	.byte	0x8
+	.byte	0x10
+	.byte	0x18
+	.long	0x3a3
+	.uleb128 0x7
+	.long	0x3a8
+	.uleb128 0x11
+	.long	.LASF69
+	.uleb128 0xa
+	.long	.LASF70
+	.byte	0x9
+	.byte	0x7
+	.byte	0xf
+	.long	0x3b9
+	.uleb128 0x7
+	.long	0x3be
+	.uleb128 0x9
+	.long	0x2e
+	.long	0x3d2
+	.uleb128 0x4
+	.long	0x363
+	.uleb128 0x4
+	.long	0x2e
+	.byte	0
+	.uleb128 0xa
+	.long	.LASF71
+	.byte	0x9
+	.byte	0x9
+	.byte	0x19
+	.long	0x3de
+	.uleb128 0x7
+	.long	0x3e3
+	.uleb128 0xd
+	.long	.LASF73
+	.byte	0x10
+	.byte	0x9
+	.byte	0x15
+	.byte	0x8
+	.long	0x40b
+	.uleb128 0x12
+	.string	"ops"
+	.byte	0x9
+	.byte	0x16
+	.byte	0xd
+	.long	0x4a7
+	.byte	0
+	.uleb128 0x2
+	.long	.LASF74
+	.byte	0x9
+	.byte	0x1a
+	.byte	0x4
+	.long	0x4b8
+	.byte	0x8
+	.byte	0
+	.uleb128 0xa
+	.long	.LASF75
+	.byte	0x9
+	.byte	0xb
+	.byte	0xe
+	.long	0x417
+	.uleb128 0x16
+	.long	0x427
+	.uleb128 0x4
+	.long	0x3d2
+	.uleb128 0x4
+	.long	0x85
+	.byte	0
+	.uleb128 0xa
+	.long	.LASF76
+	.byte	0x9
+	.byte	0xc
+	.byte	0xd
+	.long	0x433
+	.uleb128 0x9
+	.long	0x2e
+	.long	0x44c
+	.uleb128 0x4
+	.long	0x3d2
+	.uleb128 0x4
+	.long	0x2cf
+	.uleb128 0x4
+	.long	0x2e
+	.byte	0
+	.uleb128 0xa
+	.long	.LASF77
+	.byte	0x9
+	.byte	0xd
+	.byte	0xe
+	.long	0x458
+	.uleb128 0x16
+	.long	0x463
+	.uleb128 0x4
+	.long	0x3d2
+	.byte	0
+	.uleb128 0xd
+	.long	.LASF78
+	.byte	0x18
+	.byte	0x9
+	.byte	0xf
+	.byte	0x10
+	.long	0x498
+	.uleb128 0x2
+	.long	.LASF79
+	.byte	0x9
+	.byte	0x10
+	.byte	0x12
+	.long	0x498
+	.byte	0
+	.uleb128 0x2
+	.long	.LASF80
+	.byte	0x9
+	.byte	0x11
+	.byte	0x14
+	.long	0x49d
+	.byte	0x8
+	.uleb128 0x2
+	.long	.LASF81
+	.byte	0x9
+	.byte	0x12
+	.byte	0xe
+	.long	0x4a2
+	.byte	0x10
+	.byte	0
+	.uleb128 0x7
+	.long	0x40b
+	.uleb128 0x7
+	.long	0x427
+	.uleb128 0x7
+	.long	0x44c
+	.uleb128 0xa
+	.long	.LASF82
+	.byte	0x9
+	.byte	0x13
+	.byte	0x4
+	.long	0x4b3
+	.uleb128 0x7
+	.long	0x463
+	.uleb128 0x31
+	.byte	0x8
+	.byte	0x9
+	.byte	0x17
+	.byte	0x2
+	.long	0x4d8
+	.uleb128 0x26
+	.string	"obj"
+	.byte	0x18
+	.byte	0xb
+	.long	0x349
+	.uleb128 0x26
+	.string	"fun"
+	.byte	0x19
+	.byte	0x11
+	.long	0x3ad
+	.byte	0
+	.uleb128 0x7
+	.long	0x9f
+	.uleb128 0x7
+	.long	0x2e
+	.uleb128 0xa
+	.long	.LASF83
+	.byte	0xa
+	.byte	0x28
+	.byte	0x1b
+	.long	0x4ee
+	.uleb128 0x7
+	.long	0x4f3
+	.uleb128 0xd
+	.long	.LASF84
+	.byte	0x50
+	.byte	0xb
+	.byte	0xe
+	.byte	0x8
+	.long	0x50e
+	.uleb128 0x2
+	.long	.LASF85
+	.byte	0xb
+	.byte	0xf
+	.byte	0x9
+	.long	0x1cd5
+	.byte	0
+	.byte	0
+	.uleb128 0xa
+	.long	.LASF86
+	.byte	0xa
+	.byte	0x29
+	.byte	0xf
+	.long	0x2ee
+	.uleb128 0xa
+	.long	.LASF87
+	.byte	0xa
+	.byte	0x2a
+	.byte	0x1b
+	.long	0x526
+	.uleb128 0x7
+	.long	0x52b
+	.uleb128 0xd
+	.long	.LASF88
+	.byte	0x10
+	.byte	0xc
+	.byte	0x43
+	.byte	0x8
+	.long	0x553
+	.uleb128 0x2
+	.long	.LASF89
+	.byte	0xc
+	.byte	0x44
+	.byte	0x9
+	.long	0x50e
+	.byte	0
+	.uleb128 0x2
+	.long	.LASF90
+	.byte	0xc
+	.byte	0x45
+	.byte	0xe
+	.long	0x553
+	.byte	0x8
+	.byte	0
+	.uleb128 0xa
+	.long	.LASF91
+	.byte	0xa
+	.byte	0x2b
+	.byte	0x19
+	.long	0x55f
+	.uleb128 0x32
+	.long	.LASF106
+	.byte	0x8
+	.byte	0xc
+	.byte	0x3e
+	.byte	0x7
+	.long	0x583
+	.uleb128 0x27
+	.long	.LASF89
+	.byte	0x3f
+	.byte	0x9
+	.long	0x50e
+	.uleb128 0x27
+	.long	.LASF92
+	.byte	0x40
+	.byte	0xd
+	.long	0x51a
+	.byte	0
+	.uleb128 0xa
+	.long	.LASF93
+	.byte	0xa
+	.byte	0x2d
+	.byte	0x18
+	.long	0x58f
+	.uleb128 0x7
+	.long	0x594
+	.uleb128 0xd
+	.long	.LASF94
+	.byte	0x30
+	.byte	0xd
+	.byte	0x21
+	.byte	0x8
+	.long	0x5f0
+	.uleb128 0x2
+	.long	.LASF95
+	.byte	0xd
+	.byte	0x22
+	.byte	0xd
+	.long	0x1d09
+	.byte	0
+	.uleb128 0x2
+	.long	.LASF96
+	.byte	0xd
+	.byte	0x23
+	.byte	0xb
+	.long	0x1d29
+	.byte	0x8
+	.uleb128 0x2
+	.long	.LASF97
+	.byte	0xd
+	.byte	0x24
+	.byte	0xa
+	.long	0x349
+	.byte	0x10
+	.uleb128 0x2
+	.long	.LASF98
+	.byte	0xd
+	.byte	0x25
+	.byte	0x9
+	.long	0x32f
+	.byte	0x18
+	.uleb128 0x2
+	.long	.LASF99
+	.byte	0xd
+	.byte	0x26
+	.byte	0x9
+	.long	0x32f
+	.byte	0x20
+	.uleb128 0x2
+	.long	.LASF100
+	.byte	0xd
+	.byte	0x27
+	.byte	0x13
+	.long	0x1d95
+	.byte	0x28
+	.byte	0
+	.uleb128 0xa
+	.long	.LASF101
+	.byte	0xa
+	.byte	0x2e
+	.byte	0x17
+	.long	0x5fc
+	.uleb128 0x7
+	.long	0x601
+	.uleb128 0x11
+	.long	.LASF102
+	.uleb128 0xa
+	.long	.LASF103
+	.byte	0xe
+	.byte	0x19
+	.byte	0x19
+	.long	0x612
+	.uleb128 0x7
+	.long	0x617
+	.uleb128 0xd
+	.long	.LASF104
+	.byte	0x10
+	.byte	0xf
+	.byte	0x19
+	.byte	0x8
+	.long	0x63f
+	.uleb128 0x2
+	.long	.LASF97
+	.byte	0xf
+	.byte	0x1a
+	.byte	0x13
+	.long	0x1d9a
+	.byte	0
+	.uleb128 0x12
+	.string	"str"
+	.byte	0xf
+	.byte	0x1b
+	.byte	0x9
+	.long	0x356
+	.byte	0x8
+	.byte	0
+	.uleb128 0x28
+	.string	"Doc"
+	.byte	0x1c
+	.long	0x649
+	.uleb128 0x7
+	.long	0x64e
+	.uleb128 0x33
+	.string	"doc"
+	.uleb128 0xa
+	.long	.LASF105
+	.byte	0xe
+	.byte	0x1d
+	.byte	0x17
+	.long	0x65f
+	.uleb128 0x7
+	.long	0x664
+	.uleb128 0x29
+	.long	.LASF107
+	.byte	0x80
+	.byte	0x10
+	.value	0x2e0
+	.long	0xa27
+	.uleb128 0x5
+	.long	.LASF108
+	.byte	0x10
+	.value	0x2e4
+	.byte	0xf
+	.long	0x213a
+	.uleb128 0x5
+	.long	.LASF109
+	.byte	0x10
+	.value	0x2e5
+	.byte	0xf
+	.long	0x21f8
+	.uleb128 0x5
+	.long	.LASF110
+	.byte	0x10
+	.value	0x2ec
+	.byte	0x11
+	.long	0x2222
+	.uleb128 0x5
+	.long	.LASF111
+	.byte	0x10
+	.value	0x2ed
+	.byte	0xe
+	.long	0x224c
+	.uleb128 0x5
+	.long	.LASF112
+	.byte	0x10
+	.value	0x2ee
+	.byte	0x10
+	.long	0x2276
+	.uleb128 0x5
+	.long	.LASF113
+	.byte	0x10
+	.value	0x2f0
+	.byte	0x13
+	.long	0x22a0
+	.uleb128 0x5
+	.long	.LASF114
+	.byte	0x10
+	.value	0x2f1
+	.byte	0x16
+	.long	0x22ca
+	.uleb128 0x5
+	.long	.LASF115
+	.byte	0x10
+	.value	0x2f2
+	.byte	0x15
+	.long	0x231e
+	.uleb128 0x5
+	.long	.LASF116
+	.byte	0x10
+	.value	0x2f3
+	.byte	0x14
+	.long	0x22f4
+	.uleb128 0x5
+	.long	.LASF117
+	.byte	0x10
+	.value	0x2f6
+	.byte	0xf
+	.long	0x2348
+	.uleb128 0x5
+	.long	.LASF118
+	.byte	0x10
+	.value	0x2f7
+	.byte	0xf
+	.long	0x2380
+	.uleb128 0x5
+	.long	.LASF119
+	.byte	0x10
+	.value	0x2f8
+	.byte	0x11
+	.long	0x23aa
+	.uleb128 0x5
+	.long	.LASF120
+	.byte	0x10
+	.value	0x2f9
+	.byte	0x12
+	.long	0x23e1
+	.uleb128 0x5
+	.long	.LASF121
+	.byte	0x10
+	.value	0x2fa
+	.byte	0x12
+	.long	0x240b
+	.uleb128 0x5
+	.long	.LASF122
+	.byte	0x10
+	.value	0x2fb
+	.byte	0x11
+	.long	0x2443
+	.uleb128 0x5
+	.long	.LASF123
+	.byte	0x10
+	.value	0x2fc
+	.byte	0x13
+	.long	0x246d
+	.uleb128 0x5
+	.long	.LASF124
+	.byte	0x10
+	.value	0x2fd
+	.byte	0x13
+	.long	0x2497
+	.uleb128 0x5
+	.long	.LASF125
+	.byte	0x10
+	.value	0x2fe
+	.byte	0x14
+	.long	0x2530
+	.uleb128 0x5
+	.long	.LASF126
+	.byte	0x10
+	.value	0x2ff
+	.byte	0x13
+	.long	0x2568
+	.uleb128 0x5
+	.long	.LASF127
+	.byte	0x10
+	.value	0x300
+	.byte	0x11
+	.long	0x25a0
+	.uleb128 0x5
+	.long	.LASF128
+	.byte	0x10
+	.value	0x301
+	.byte	0x13
+	.long	0x25ca
+	.uleb128 0x5
+	.long	.LASF129
+	.byte	0x10
+	.value	0x302
+	.byte	0x12
+	.long	0x25f4
+	.uleb128 0x5
+	.long	.LASF130
+	.byte	0x10
+	.value	0x303
+	.byte	0x13
+	.long	0x262c
+	.uleb128 0x5
+	.long	.LASF131
+	.byte	0x10
+	.value	0x304
+	.byte	0xe
+	.long	0x24ce
+	.uleb128 0x5
+	.long	.LASF132
+	.byte	0x10
+	.value	0x305
+	.byte	0x16
+	.long	0x24f8
+	.uleb128 0x5
+	.long	.LASF133
+	.byte	0x10
+	.value	0x306
+	.byte	0x12
+	.long	0x2656
+	.uleb128 0x5
+	.long	.LASF134
+	.byte	0x10
+	.value	0x307
+	.byte	0x10
+	.long	0x268e
+	.uleb128 0x5
+	.long	.LASF135
+	.byte	0x10
+	.value	0x308
+	.byte	0x12
+	.long	0x26c6
+	.uleb128 0x5
+	.long	.LASF136
+	.byte	0x10
+	.value	0x309
+	.byte	0x12
+	.long	0x270c
+	.uleb128 0x5
+	.long	.LASF137
+	.byte	0x10
+	.value	0x30a
+	.byte	0xf
+	.long	0x2736
+	.uleb128 0x5
+	.long	.LASF138
+	.byte	0x10
+	.value	0x30b
+	.byte	0x11
+	.long	0x2760
+	.uleb128 0x5
+	.long	.LASF139
+	.byte	0x10
+	.value	0x30c
+	.byte	0xf
+	.long	0x278a
+	.uleb128 0x5
+	.long	.LASF140
+	.byte	0x10
+	.value	0x30d
+	.byte	0x19
+	.long	0x27d0
+	.uleb128 0x5
+	.long	.LASF141
+	.byte	0x10
+	.value	0x30e
+	.byte	0x19
+	.long	0x2808
+	.uleb128 0x5
+	.long	.LASF142
+	.byte	0x10
+	.value	0x30f
+	.byte	0x10
+	.long	0x2840
+	.uleb128 0x5
+	.long	.LASF143
+	.byte	0x10
+	.value	0x310
+	.byte	0x14
+	.long	0x286a
+	.uleb128 0x5
+	.long	.LASF144
+	.byte	0x10
+	.value	0x311
+	.byte	0x10
+	.long	0x28a2
+	.uleb128 0x5
+	.long	.LASF145
+	.byte	0x10
+	.value	0x312
+	.byte	0xf
+	.long	0x28cc
+	.uleb128 0x5
+	.long	.LASF146
+	.byte	0x10
+	.value	0x313
+	.byte	0x10
+	.long	0x2904
+	.uleb128 0x5
+	.long	.LASF147
+	.byte	0x10
+	.value	0x314
+	.byte	0x10
+	.long	0x292e
+	.uleb128 0x5
+	.long	.LASF148
+	.byte	0x10
+	.value	0x315
+	.byte	0xe
+	.long	0x2958
+	.uleb128 0x5
+	.long	.LASF149
+	.byte	0x10
+	.value	0x316
+	.byte	0x12
+	.long	0x299e
+	.uleb128 0x5
+	.long	.LASF150
+	.byte	0x10
+	.value	0x317
+	.byte	0x12
+	.long	0x29d6
+	.uleb128 0x5
+	.long	.LASF151
+	.byte	0x10
+	.value	0x318
+	.byte	0x13
+	.long	0x2a0e
+	.uleb128 0x5
+	.long	.LASF152
+	.byte	0x10
+	.value	0x319
+	.byte	0x11
+	.long	0x2a38
+	.uleb128 0x5
+	.long	.LASF153
+	.byte	0x10
+	.value	0x31a
+	.byte	0x12
+	.long	0x2a70
+	.uleb128 0x5
+	.long	.LASF154
+	.byte	0x10
+	.value	0x31b
+	.byte	0xf
+	.long	0x2ab6
+	.uleb128 0x5
+	.long	.LASF155
+	.byte	0x10
+	.value	0x31c
+	.byte	0x11
+	.long	0x2aee
+	.uleb128 0x5
+	.long	.LASF156
+	.byte	0x10
+	.value	0x31d
+	.byte	0x11
+	.long	0x2b18
+	.uleb128 0x5
+	.long	.LASF157
+	.byte	0x10
+	.value	0x31e
+	.byte	0x13
+	.long	0x2b42
+	.uleb128 0x5
+	.long	.LASF158
+	.byte	0x10
+	.value	0x31f
+	.byte	0x13
+	.long	0x2b7a
+	.uleb128 0x5
+	.long	.LASF159
+	.byte	0x10
+	.value	0x320
+	.byte	0x11
+	.long	0x2bb2
+	.uleb128 0x5
+	.long	.LASF160
+	.byte	0x10
+	.value	0x321
+	.byte	0xf
+	.long	0x2bce
+	.uleb128 0x5
+	.long	.LASF161
+	.byte	0x10
+	.value	0x322
+	.byte	0x13
+	.long	0x2bf8
+	.uleb128 0x5
+	.long	.LASF162
+	.byte	0x10
+	.value	0x323
+	.byte	0xe
+	.long	0x2c14
+	.uleb128 0x5
+	.long	.LASF163
+	.byte	0x10
+	.value	0x324
+	.byte	0x11
+	.long	0x2c3e
+	.uleb128 0x5
+	.long	.LASF164
+	.byte	0x10
+	.value	0x325
+	.byte	0x13
+	.long	0x2c68
+	.uleb128 0x5
+	.long	.LASF165
+	.byte	0x10
+	.value	0x326
+	.byte	0x15
+	.long	0x2cae
+	.uleb128 0x5
+	.long	.LASF166
+	.byte	0x10
+	.value	0x327
+	.byte	0x13
+	.long	0x2ce6
+	.uleb128 0x5
+	.long	.LASF167
+	.byte	0x10
+	.value	0x328
+	.byte	0x11
+	.long	0x2d1e
+	.uleb128 0x5
+	.long	.LASF168
+	.byte	0x10
+	.value	0x329
+	.byte	0x15
+	.long	0x2d48
+	.uleb128 0x5
+	.long	.LASF169
+	.byte	0x10
+	.value	0x32a
+	.byte	0x12
+	.long	0x2d72
+	.uleb128 0x5
+	.long	.LASF170
+	.byte	0x10
+	.value	0x32b
+	.byte	0x16
+	.long	0x2daa
+	.uleb128 0x5
+	.long	.LASF171
+	.byte	0x10
+	.value	0x32c
+	.byte	0x15
+	.long	0x2de2
+	.uleb128 0x5
+	.long	.LASF172
+	.byte	0x10
+	.value	0x32d
+	.byte	0x12
+	.long	0x2e1a
+	.uleb128 0x5
+	.long	.LASF173
+	.byte	0x10
+	.value	0x32e
+	.byte	0x12
+	.long	0x2e44
+	.uleb128 0x5
+	.long	.LASF174
+	.byte	0x10
+	.value	0x32f
+	.byte	0x14
+	.long	0x2e7c
+	.uleb128 0x5
+	.long	.LASF175
+	.byte	0x10
+	.value	0x330
+	.byte	0x10
+	.long	0x2ea6
+	.uleb128 0x5
+	.long	.LASF176
+	.byte	0x10
+	.value	0x331
+	.byte	0xf
+	.long	0x2ed0
+	.uleb128 0x5
+	.long	.LASF177
+	.byte	0x10
+	.value	0x332
+	.byte	0x11
+	.long	0x2f23
+	.uleb128 0x5
+	.long	.LASF178
+	.byte	0x10
+	.value	0x333
+	.byte	0x11
+	.long	0x2f5b
+	.uleb128 0x5
+	.long	.LASF179
+	.byte	0x10
+	.value	0x334
+	.byte	0x10
+	.long	0x2f85
+	.uleb128 0x5
+	.long	.LASF180
+	.byte	0x10
+	.value	0x335
+	.byte	0x11
+	.long	0x2fbd
+	.byte	0
+	.uleb128 0xa
+	.long	.LASF181
+	.byte	0xe
+	.byte	0x20
+	.byte	0x18
+	.long	0xa33
+	.uleb128 0x7
+	.long	0xa38
+	.uleb128 0x11
+	.long	.LASF182
+	.uleb128 0xa
+	.long	.LASF183
+	.byte	0xe
+	.byte	0x21
+	.byte	0x1a
+	.long	0xa49
+	.uleb128 0x7
+	.long	0xa4e
+	.uleb128 0xd
+	.long	.LASF184
+	.byte	0x8
+	.byte	0x11
+	.byte	0x13
+	.byte	0x8
+	.long	0xa69
+	.uleb128 0x2
+	.long	.LASF185
+	.byte	0x11
+	.byte	0x14
+	.byte	0x9
+	.long	0x98
+	.byte	0
+	.byte	0
+	.uleb128 0xa
+	.long	.LASF186
+	.byte	0xe
+	.byte	0x22
+	.byte	0x17
+	.long	0xa75
+	.uleb128 0x7
+	.long	0xa7a
+	.uleb128 0x11
+	.long	.LASF187
+	.uleb128 0xa
+	.long	.LASF188
+	.byte	0xe
+	.byte	0x23
+	.byte	0x17
+	.long	0xa8b
+	.uleb128 0x7
+	.long	0xa90
+	.uleb128 0xd
+	.long	.LASF189
+	.byte	0x40
+	.byte	0x12
+	.byte	0xcf
+	.byte	0x8
+	.long	0xb2c
+	.uleb128 0x2
+	.long	.LASF190
+	.byte	0x12
+	.byte	0xd0
+	.byte	0x8
+	.long	0x2d4
+	.byte	0
+	.uleb128 0x2
+	.long	.LASF191
+	.byte	0x12
+	.byte	0xd1
+	.byte	0x8
+	.long	0x2d4
+	.byte	0x1
+	.uleb128 0x2
+	.long	.LASF192
+	.byte	0x12
+	.byte	0xd2
+	.byte	0x9
+	.long	0x2e1
+	.byte	0x2
+	.uleb128 0x12
+	.string	"id"
+	.byte	0x12
+	.byte	0xd4
+	.byte	0x9
+	.long	0x606
+	.byte	0x8
+	.uleb128 0x12
+	.string	"lib"
+	.byte	0x12
+	.byte	0xd5
+	.byte	0x6
+	.long	0x117e
+	.byte	0x10
+	.uleb128 0x2
+	.long	.LASF193
+	.byte	0x12
+	.byte	0xd6
+	.byte	0x7
+	.long	0x322
+	.byte	0x18
+	.uleb128 0x2
+	.long	.LASF194
+	.byte	0x12
+	.byte	0xd7
+	.byte	0x8
+	.long	0xb2c
+	.byte	0x20
+	.uleb128 0x2
+	.long	.LASF195
+	.byte	0x12
+	.byte	0xd9
+	.byte	0xf
+	.long	0x43
+	.byte	0x28
+	.uleb128 0x2
+	.long	.LASF196
+	.byte	0x12
+	.byte	0xda
+	.byte	0xf
+	.long	0x43
+	.byte	0x2c
+	.uleb128 0x2
+	.long	.LASF197
+	.byte	0x12
+	.byte	0xdb
+	.byte	0x7
+	.long	0xa7f
+	.byte	0x30
+	.uleb128 0x2
+	.long	.LASF198
+	.byte	0x12
+	.byte	0xdc
+	.byte	0x9
+	.long	0x1c97
+	.byte	0x38
+	.byte	0
+	.uleb128 0xa
+	.long	.LASF199
+	.byte	0xe
+	.byte	0x24
+	.byte	0x18
+	.long	0xb38
+	.uleb128 0x7
+	.long	0xb3d
+	.uleb128 0xd
+	.long	.LASF200
+	.byte	0xd0
+	.byte	0x13
+	.byte	0x78
+	.byte	0x8
+	.long	0xcea
+	.uleb128 0x12
+	.string	"tag"
+	.byte	0x13
+	.byte	0x79
+	.byte	0x8
+	.long	0x2d4
+	.byte	0
+	.uleb128 0x2
+	.long	.LASF201
+	.byte	0x13
+	.byte	0x7a
+	.byte	0x8
+	.long	0x2d4
+	.byte	0x1
+	.uleb128 0x2
+	.long	.LASF202
+	.byte	0x13
+	.byte	0x7b
+	.byte	0x8
+	.long	0x2d4
+	.byte	0x2
+	.uleb128 0x2
+	.long	.LASF203
+	.byte	0x13
+	.byte	0x7c
+	.byte	0x8
+	.long	0x2d4
+	.byte	0x3
+	.uleb128 0x2
+	.long	.LASF204
+	.byte	0x13
+	.byte	0x7d
+	.byte	0x8
+	.long	0x2d4
+	.byte	0x4
+	.uleb128 0x2
+	.long	.LASF205
+	.byte	0x13
+	.byte	0x7e
+	.byte	0x8
+	.long	0x2d4
+	.byte	0x5
+	.uleb128 0x12
+	.string	"raw"
+	.byte	0x13
+	.byte	0x7f
+	.byte	0x8
+	.long	0x2d4
+	.byte	0x6
+	.uleb128 0x2
+	.long	.LASF193
+	.byte	0x13
+	.byte	0x80
+	.byte	0x7
+	.long	0x322
+	.byte	0x8
+	.uleb128 0x2
+	.long	.LASF206
+	.byte	0x13
+	.byte	0x81
+	.byte	0x8
+	.long	0x653
+	.byte	0x10
+	.uleb128 0x2
+	.long	.LASF207
+	.byte	0x13
+	.byte	0x82
+	.byte	0x9
+	.long	0x2e1
+	.byte	0x18
+	.uleb128 0x2
+	.long	.LASF208
+	.byte	0x13
+	.byte	0x84
+	.byte	0x9
+	.long	0x32f
+	.byte	0x20
+	.uleb128 0x2
+	.long	.LASF209
+	.byte	0x13
+	.byte	0x85
+	.byte	0x9
+	.long	0x1ba4
+	.byte	0x28
+	.uleb128 0x2
+	.long	.LASF210
+	.byte	0x13
+	.byte	0x87
+	.byte	0x7
+	.long	0x145b
+	.byte	0x30
+	.uleb128 0x2
+	.long	.LASF211
+	.byte	0x13
+	.byte	0x88
+	.byte	0xb
+	.long	0x1c81
+	.byte	0x38
+	.uleb128 0x2
+	.long	.LASF212
+	.byte	0x13
+	.byte	0x89
+	.byte	0xb
+	.long	0x1c81
+	.byte	0x40
+	.uleb128 0x2
+	.long	.LASF213
+	.byte	0x13
+	.byte	0x8a
+	.byte	0xb
+	.long	0x1c81
+	.byte	0x48
+	.uleb128 0x2
+	.long	.LASF214
+	.byte	0x13
+	.byte	0x8b
+	.byte	0xb
+	.long	0x1c81
+	.byte	0x50
+	.uleb128 0x2
+	.long	.LASF215
+	.byte	0x13
+	.byte	0x8d
+	.byte	0xb
+	.long	0x1c81
+	.byte	0x58
+	.uleb128 0x2
+	.long	.LASF216
+	.byte	0x13
+	.byte	0x8e
+	.byte	0xb
+	.long	0x1c81
+	.byte	0x60
+	.uleb128 0x2
+	.long	.LASF217
+	.byte	0x13
+	.byte	0x8f
+	.byte	0xb
+	.long	0x1c81
+	.byte	0x68
+	.uleb128 0x2
+	.long	.LASF218
+	.byte	0x13
+	.byte	0x91
+	.byte	0xa
+	.long	0x49e7
+	.byte	0x70
+	.uleb128 0x2
+	.long	.LASF219
+	.byte	0x13
+	.byte	0x93
+	.byte	0xd
+	.long	0x1dba
+	.byte	0x78
+	.uleb128 0x2
+	.long	.LASF220
+	.byte	0x13
+	.byte	0x95
+	.byte	0xd
+	.long	0x1bd6
+	.byte	0x80
+	.uleb128 0x2
+	.long	.LASF221
+	.byte	0x13
+	.byte	0x96
+	.byte	0xc
+	.long	0x1b98
+	.byte	0x88
+	.uleb128 0x2
+	.long	.LASF222
+	.byte	0x13
+	.byte	0x97
+	.byte	0xc
+	.long	0x1c0f
+	.byte	0x90
+	.uleb128 0x2
+	.long	.LASF223
+	.byte	0x13
+	.byte	0x99
+	.byte	0x9
+	.long	0x49ae
+	.byte	0x98
+	.uleb128 0x2
+	.long	.LASF224
+	.byte	0x13
+	.byte	0x9b
+	.byte	0x8
+	.long	0xa27
+	.byte	0xa0
+	.uleb128 0x12
+	.string	"fv"
+	.byte	0x13
+	.byte	0x9c
+	.byte	0xa
+	.long	0xa69
+	.byte	0xa8
+	.uleb128 0x12
+	.string	"rho"
+	.byte	0x13
+	.byte	0x9d
+	.byte	0xa
+	.long	0x4b16
+	.byte	0xb0
+	.uleb128 0x2
+	.long	.LASF225
+	.byte	0x13
+	.byte	0x9f
+	.byte	0xb
+	.long	0x14aa
+	.byte	0xb8
+	.uleb128 0x2
+	.long	.LASF226
+	.byte	0x13
+	.byte	0xa0
+	.byte	0x8
+	.long	0xb2c
+	.byte	0xc0
+	.uleb128 0x2
+	.long	.LASF227
+	.byte	0x13
+	.byte	0xa1
+	.byte	0x8
+	.long	0x2ee
+	.byte	0xc8
+	.byte	0
+	.uleb128 0xa
+	.long	.LASF228
+	.byte	0xe
+	.byte	0x25
+	.byte	0x18
+	.long	0xcf6
+	.uleb128 0x7
+	.long	0xcfb
+	.uleb128 0xd
+	.long	.LASF229
+	.byte	0x10
+	.byte	0x14
+	.byte	0xf
+	.byte	0x8
+	.long	0xd30
+	.uleb128 0x2
+	.long	.LASF230
+	.byte	0x14
+	.byte	0x10
+	.byte	0xc
+	.long	0x1b98
+	.byte	0
+	.uleb128 0x2
+	.long	.LASF231
+	.byte	0x14
+	.byte	0x11
+	.byte	0x6
+	.long	0x2e
+	.byte	0x8
+	.uleb128 0x2
+	.long	.LASF232
+	.byte	0x14
+	.byte	0x12
+	.byte	0x6
+	.long	0x2e
+	.byte	0xc
+	.byte	0
+	.uleb128 0xa
+	.long	.LASF233
+	.byte	0xe
+	.byte	0x26
+	.byte	0x19
+	.long	0xd3c
+	.uleb128 0x7
+	.long	0xd41
+	.uleb128 0x11
+	.long	.LASF234
+	.uleb128 0xa
+	.long	.LASF235
+	.byte	0xe
+	.byte	0x27
+	.byte	0x18
+	.long	0xd52
+	.uleb128 0x7
+	.long	0xd57
+	.uleb128 0x11
+	.long	.LASF236
+	.uleb128 0xa
+	.long	.LASF237
+	.byte	0xe
+	.byte	0x28
+	.byte	0x16
+	.long	0xd68
+	.uleb128 0x7
+	.long	0xd6d
+	.uleb128 0x29
+	.long	.LASF238
+	.byte	0x98
+	.byte	0x15
+	.value	0x4af
+	.long	0x117e
+	.uleb128 0x19
+	.string	"hdr"
+	.byte	0x15
+	.value	0x4b0
+	.byte	0x11
+	.long	0x3073
+	.uleb128 0x5
+	.long	.LASF239
+	.byte	0x15
+	.value	0x4b1
+	.byte	0x11
+	.long	0x313c
+	.uleb128 0x5
+	.long	.LASF240
+	.byte	0x15
+	.value	0x4b3
+	.byte	0x11
+	.long	0x3176
+	.uleb128 0x5
+	.long	.LASF241
+	.byte	0x15
+	.value	0x4b4
+	.byte	0x12
+	.long	0x3192
+	.uleb128 0x5
+	.long	.LASF242
+	.byte	0x15
+	.value	0x4b5
+	.byte	0x12
+	.long	0x31bc
+	.uleb128 0x5
+	.long	.LASF243
+	.byte	0x15
+	.value	0x4b6
+	.byte	0x12
+	.long	0x31e6
+	.uleb128 0x5
+	.long	.LASF244
+	.byte	0x15
+	.value	0x4b7
+	.byte	0x12
+	.long	0x3210
+	.uleb128 0x5
+	.long	.LASF245
+	.byte	0x15
+	.value	0x4b8
+	.byte	0x12
+	.long	0x323a
+	.uleb128 0x5
+	.long	.LASF246
+	.byte	0x15
+	.value	0x4b9
+	.byte	0x12
+	.long	0x3264
+	.uleb128 0x5
+	.long	.LASF247
+	.byte	0x15
+	.value	0x4ba
+	.byte	0x12
+	.long	0x328e
+	.uleb128 0x5
+	.long	.LASF248
+	.byte	0x15
+	.value	0x4bb
+	.byte	0x12
+	.long	0x32b8
+	.uleb128 0x5
+	.long	.LASF249
+	.byte	0x15
+	.value	0x4bc
+	.byte	0x12
+	.long	0x32e2
+	.uleb128 0x5
+	.long	.LASF250
+	.byte	0x15
+	.value	0x4bd
+	.byte	0x11
+	.long	0x330c
+	.uleb128 0x5
+	.long	.LASF251
+	.byte	0x15
+	.value	0x4be
+	.byte	0x11
+	.long	0x3346
+	.uleb128 0x5
+	.long	.LASF252
+	.byte	0x15
+	.value	0x4bf
+	.byte	0x11
+	.long	0x338e
+	.uleb128 0x5
+	.long	.LASF253
+	.byte	0x15
+	.value	0x4c0
+	.byte	0x12
+	.long	0x33d6
+	.uleb128 0x5
+	.long	.LASF254
+	.byte	0x15
+	.value	0x4c1
+	.byte	0x12
+	.long	0x341c
+	.uleb128 0x5
+	.long	.LASF255
+	.byte	0x15
+	.value	0x4c2
+	.byte	0x12
+	.long	0x34ee
+	.uleb128 0x5
+	.long	.LASF256
+	.byte	0x15
+	.value	0x4c4
+	.byte	0x12
+	.long	0x3595
+	.uleb128 0x5
+	.long	.LASF257
+	.byte	0x15
+	.value	0x4c5
+	.byte	0x13
+	.long	0x3526
+	.uleb128 0x5
+	.long	.LASF258
+	.byte	0x15
+	.value	0x4c6
+	.byte	0x13
+	.long	0x35e8
+	.uleb128 0x5
+	.long	.LASF259
+	.byte	0x15
+	.value	0x4c7
+	.byte	0x14
+	.long	0x3620
+	.uleb128 0x5
+	.long	.LASF260
+	.byte	0x15
+	.value	0x4c8
+	.byte	0x12
+	.long	0x364a
+	.uleb128 0x5
+	.long	.LASF261
+	.byte	0x15
+	.value	0x4c9
+	.byte	0x12
+	.long	0x3674
+	.uleb128 0x5
+	.long	.LASF262
+	.byte	0x15
+	.value	0x4ca
+	.byte	0x11
+	.long	0x369e
+	.uleb128 0x5
+	.long	.LASF263
+	.byte	0x15
+	.value	0x4cb
+	.byte	0x12
+	.long	0x36d6
+	.uleb128 0x5
+	.long	.LASF264
+	.byte	0x15
+	.value	0x4cd
+	.byte	0x11
+	.long	0x3700
+	.uleb128 0x5
+	.long	.LASF265
+	.byte	0x15
+	.value	0x4ce
+	.byte	0x11
+	.long	0x372a
+	.uleb128 0x5
+	.long	.LASF266
+	.byte	0x15
+	.value	0x4cf
+	.byte	0x11
+	.long	0x3754
+	.uleb128 0x5
+	.long	.LASF267
+	.byte	0x15
+	.value	0x4d0
+	.byte	0x11
+	.long	0x378c
+	.uleb128 0x5
+	.long	.LASF268
+	.byte	0x15
+	.value	0x4d1
+	.byte	0x13
+	.long	0x37e0
+	.uleb128 0x5
+	.long	.LASF269
+	.byte	0x15
+	.value	0x4d2
+	.byte	0x13
+	.long	0x37b6
+	.uleb128 0x5
+	.long	.LASF270
+	.byte	0x15
+	.value	0x4d3
+	.byte	0x11
+	.long	0x380a
+	.uleb128 0x5
+	.long	.LASF271
+	.byte	0x15
+	.value	0x4d4
+	.byte	0x12
+	.long	0x3834
+	.uleb128 0x5
+	.long	.LASF272
+	.byte	0x15
+	.value	0x4d5
+	.byte	0x12
+	.long	0x386c
+	.uleb128 0x5
+	.long	.LASF273
+	.byte	0x15
+	.value	0x4d6
+	.byte	0x13
+	.long	0x38a4
+	.uleb128 0x5
+	.long	.LASF274
+	.byte	0x15
+	.value	0x4d7
+	.byte	0x11
+	.long	0x38ce
+	.uleb128 0x5
+	.long	.LASF275
+	.byte	0x15
+	.value	0x4d8
+	.byte	0x13
+	.long	0x38f8
+	.uleb128 0x5
+	.long	.LASF276
+	.byte	0x15
+	.value	0x4d9
+	.byte	0x12
+	.long	0x3922
+	.uleb128 0x5
+	.long	.LASF277
+	.byte	0x15
+	.value	0x4da
+	.byte	0x13
+	.long	0x394c
+	.uleb128 0x5
+	.long	.LASF278
+	.byte	0x15
+	.value	0x4db
+	.byte	0x15
+	.long	0x3976
+	.uleb128 0x5
+	.long	.LASF279
+	.byte	0x15
+	.value	0x4dc
+	.byte	0x13
+	.long	0x39a0
+	.uleb128 0x5
+	.long	.LASF280
+	.byte	0x15
+	.value	0x4dd
+	.byte	0x12
+	.long	0x39ca
+	.uleb128 0x5
+	.long	.LASF281
+	.byte	0x15
+	.value	0x4de
+	.byte	0x12
+	.long	0x3ab8
+	.uleb128 0x5
+	.long	.LASF282
+	.byte	0x15
+	.value	0x4df
+	.byte	0x13
+	.long	0x3a48
+	.uleb128 0x5
+	.long	.LASF283
+	.byte	0x15
+	.value	0x4e0
+	.byte	0x13
+	.long	0x3afe
+	.uleb128 0x5
+	.long	.LASF284
+	.byte	0x15
+	.value	0x4e1
+	.byte	0x13
+	.long	0x3b44
+	.uleb128 0x5
+	.long	.LASF285
+	.byte	0x15
+	.value	0x4e2
+	.byte	0x12
+	.long	0x3b98
+	.uleb128 0x5
+	.long	.LASF286
+	.byte	0x15
+	.value	0x4e3
+	.byte	0x12
+	.long	0x3bec
+	.uleb128 0x5
+	.long	.LASF287
+	.byte	0x15
+	.value	0x4e5
+	.byte	0x13
+	.long	0x3c16
+	.uleb128 0x5
+	.long	.LASF288
+	.byte	0x15
+	.value	0x4e6
+	.byte	0x11
+	.long	0x3c40
+	.uleb128 0x5
+	.long	.LASF289
+	.byte	0x15
+	.value	0x4e7
+	.byte	0x11
+	.long	0x3c5c
+	.uleb128 0x5
+	.long	.LASF290
+	.byte	0x15
+	.value	0x4e8
+	.byte	0x10
+	.long	0x3c94
+	.uleb128 0x5
+	.long	.LASF291
+	.byte	0x15
+	.value	0x4e9
+	.byte	0x11
+	.long	0x3ccc
+	.uleb128 0x5
+	.long	.LASF292
+	.byte	0x15
+	.value	0x4ea
+	.byte	0x14
+	.long	0x3fa0
+	.uleb128 0x5
+	.long	.LASF293
+	.byte	0x15
+	.value	0x4eb
+	.byte	0x12
+	.long	0x3cf6
+	.uleb128 0x5
+	.long	.LASF294
+	.byte	0x15
+	.value	0x4ec
+	.byte	0x12
+	.long	0x3d2e
+	.uleb128 0x5
+	.long	.LASF295
+	.byte	0x15
+	.value	0x4ed
+	.byte	0x13
+	.long	0x3a10
+	.uleb128 0x5
+	.long	.LASF296
+	.byte	0x15
+	.value	0x4ee
+	.byte	0x13
+	.long	0x3d58
+	.uleb128 0x5
+	.long	.LASF297
+	.byte	0x15
+	.value	0x4ef
+	.byte	0x12
+	.long	0x3d90
+	.uleb128 0x5
+	.long	.LASF298
+	.byte	0x15
+	.value	0x4f0
+	.byte	0x13
+	.long	0x3dc8
+	.uleb128 0x5
+	.long	.LASF299
+	.byte	0x15
+	.value	0x4f1
+	.byte	0x13
+	.long	0x3e1b
+	.uleb128 0x5
+	.long	.LASF300
+	.byte	0x15
+	.value	0x4f2
+	.byte	0x13
+	.long	0x3e52
+	.uleb128 0x5
+	.long	.LASF301
+	.byte	0x15
+	.value	0x4f3
+	.byte	0x13
+	.long	0x3e97
+	.uleb128 0x5
+	.long	.LASF302
+	.byte	0x15
+	.value	0x4f4
+	.byte	0x14
+	.long	0x3eea
+	.uleb128 0x5
+	.long	.LASF303
+	.byte	0x15
+	.value	0x4f5
+	.byte	0x14
+	.long	0x3f3e
+	.uleb128 0x5
+	.long	.LASF304
+	.byte	0x15
+	.value	0x4f6
+	.byte	0x15
+	.long	0x400f
+	.uleb128 0x5
+	.long	.LASF305
+	.byte	0x15
+	.value	0x4f7
+	.byte	0x14
+	.long	0x4047
+	.uleb128 0x5
+	.long	.LASF306
+	.byte	0x15
+	.value	0x4f8
+	.byte	0x12
+	.long	0x4063
+	.uleb128 0x5
+	.long	.LASF307
+	.byte	0x15
+	.value	0x4f9
+	.byte	0x13
+	.long	0x3a8e
+	.uleb128 0x5
+	.long	.LASF308
+	.byte	0x15
+	.value	0x4fa
+	.byte	0x14
+	.long	0x409b
+	.uleb128 0x5
+	.long	.LASF309
+	.byte	0x15
+	.value	0x4fc
+	.byte	0x12
+	.long	0x3fd7
+	.uleb128 0x5
+	.long	.LASF310
+	.byte	0x15
+	.value	0x4fe
+	.byte	0x12
+	.long	0x40c5
+	.uleb128 0x5
+	.long	.LASF311
+	.byte	0x15
+	.value	0x4ff
+	.byte	0x12
+	.long	0x40ef
+	.uleb128 0x5
+	.long	.LASF312
+	.byte	0x15
+	.value	0x500
+	.byte	0x12
+	.long	0x4119
+	.uleb128 0x5
+	.long	.LASF313
+	.byte	0x15
+	.value	0x501
+	.byte	0x13
+	.long	0x4143
+	.uleb128 0x5
+	.long	.LASF314
+	.byte	0x15
+	.value	0x502
+	.byte	0x13
+	.long	0x417b
+	.uleb128 0x5
+	.long	.LASF315
+	.byte	0x15
+	.value	0x503
+	.byte	0x15
+	.long	0x41b3
+	.uleb128 0x5
+	.long	.LASF316
+	.byte	0x15
+	.value	0x504
+	.byte	0x14
+	.long	0x41f9
+	.byte	0
+	.uleb128 0x28
+	.string	"Lib"
+	.byte	0x2a
+	.long	0x1188
+	.uleb128 0x7
+	.long	0x118d
+	.uleb128 0x34
+	.string	"lib"
+	.value	0x308
+	.byte	0x16
+	.byte	0x63
+	.byte	0x8
+	.long	0x133c
+	.uleb128 0x2
+	.long	.LASF317
+	.byte	0x16
+	.byte	0x64
+	.byte	0xb
+	.long	0x4e2
+	.byte	0
+	.uleb128 0x2
+	.long	.LASF318
+	.byte	0x16
+	.byte	0x65
+	.byte	0xa
+	.long	0x133c
+	.byte	0x8
+	.uleb128 0x2
+	.long	.LASF319
+	.byte	0x16
+	.byte	0x66
+	.byte	0x8
+	.long	0x2d4
+	.byte	0x10
+	.uleb128 0x2
+	.long	.LASF320
+	.byte	0x16
+	.byte	0x67
+	.byte	0x8
+	.long	0x2d4
+	.byte	0x11
+	.uleb128 0x2
+	.long	.LASF321
+	.byte	0x16
+	.byte	0x68
+	.byte	0x8
+	.long	0x2d4
+	.byte	0x12
+	.uleb128 0x2
+	.long	.LASF322
+	.byte	0x16
+	.byte	0x69
+	.byte	0x9
+	.long	0x356
+	.byte	0x18
+	.uleb128 0x2
+	.long	.LASF323
+	.byte	0x16
+	.byte	0x6a
+	.byte	0x9
+	.long	0x2c3
+	.byte	0x20
+	.uleb128 0x2
+	.long	.LASF324
+	.byte	0x16
+	.byte	0x6b
+	.byte	0x9
+	.long	0x33c
+	.byte	0x28
+	.uleb128 0x2
+	.long	.LASF211
+	.byte	0x16
+	.byte	0x6c
+	.byte	0x7
+	.long	0xa7f
+	.byte	0x30
+	.uleb128 0x2
+	.long	.LASF210
+	.byte	0x16
+	.byte	0x6d
+	.byte	0x7
+	.long	0x145b
+	.byte	0x38
+	.uleb128 0x2
+	.long	.LASF325
+	.byte	0x16
+	.byte	0x70
+	.byte	0x9
+	.long	0x2e1
+	.byte	0x40
+	.uleb128 0x2
+	.long	.LASF326
+	.byte	0x16
+	.byte	0x71
+	.byte	0x9
+	.long	0x2e1
+	.byte	0x42
+	.uleb128 0x2
+	.long	.LASF327
+	.byte	0x16
+	.byte	0x72
+	.byte	0x9
+	.long	0x1c8d
+	.byte	0x48
+	.uleb128 0x2
+	.long	.LASF214
+	.byte	0x16
+	.byte	0x73
+	.byte	0xb
+	.long	0x1c81
+	.byte	0x50
+	.uleb128 0x2
+	.long	.LASF328
+	.byte	0x16
+	.byte	0x74
+	.byte	0xa
+	.long	0x48f0
+	.byte	0x58
+	.uleb128 0x2
+	.long	.LASF329
+	.byte	0x16
+	.byte	0x75
+	.byte	0xb
+	.long	0x48f5
+	.byte	0x60
+	.uleb128 0x2
+	.long	.LASF330
+	.byte	0x16
+	.byte	0x76
+	.byte	0xb
+	.long	0x1c81
+	.byte	0x68
+	.uleb128 0x2
+	.long	.LASF331
+	.byte	0x16
+	.byte	0x79
+	.byte	0x8
+	.long	0x2ee
+	.byte	0x70
+	.uleb128 0x2
+	.long	.LASF332
+	.byte	0x16
+	.byte	0x7a
+	.byte	0xa
+	.long	0x1ba4
+	.byte	0x78
+	.uleb128 0x2
+	.long	.LASF333
+	.byte	0x16
+	.byte	0x7b
+	.byte	0xc
+	.long	0x1b98
+	.byte	0x80
+	.uleb128 0x2
+	.long	.LASF334
+	.byte	0x16
+	.byte	0x7c
+	.byte	0x8
+	.long	0x4dd
+	.byte	0x88
+	.uleb128 0x2
+	.long	.LASF335
+	.byte	0x16
+	.byte	0x7d
+	.byte	0x9
+	.long	0x397
+	.byte	0x90
+	.uleb128 0x2
+	.long	.LASF336
+	.byte	0x16
+	.byte	0x80
+	.byte	0x9
+	.long	0x32f
+	.byte	0x98
+	.uleb128 0x2
+	.long	.LASF337
+	.byte	0x16
+	.byte	0x81
+	.byte	0x9
+	.long	0x1c92
+	.byte	0xa0
+	.uleb128 0x2
+	.long	.LASF338
+	.byte	0x16
+	.byte	0x82
+	.byte	0x8
+	.long	0x4dd
+	.byte	0xa8
+	.uleb128 0x2
+	.long	.LASF339
+	.byte	0x16
+	.byte	0x83
+	.byte	0x9
+	.long	0x397
+	.byte	0xb0
+	.uleb128 0x12
+	.string	"pos"
+	.byte	0x16
+	.byte	0x84
+	.byte	0x9
+	.long	0x397
+	.byte	0xb8
+	.uleb128 0x2
+	.long	.LASF340
+	.byte	0x16
+	.byte	0x85
+	.byte	0x9
+	.long	0x397
+	.byte	0xc0
+	.uleb128 0x2
+	.long	.LASF341
+	.byte	0x16
+	.byte	0x86
+	.byte	0x7
+	.long	0xd5c
+	.byte	0xc8
+	.uleb128 0x2
+	.long	.LASF342
+	.byte	0x16
+	.byte	0x87
+	.byte	0x7
+	.long	0xd5c
+	.byte	0xd0
+	.uleb128 0x2
+	.long	.LASF343
+	.byte	0x16
+	.byte	0x89
+	.byte	0x8
+	.long	0x653
+	.byte	0xd8
+	.uleb128 0x12
+	.string	"hdr"
+	.byte	0x16
+	.byte	0x8b
+	.byte	0x10
+	.long	0x4872
+	.byte	0xe0
+	.byte	0
+	.uleb128 0xa
+	.long	.LASF344
+	.byte	0xe
+	.byte	0x2c
+	.byte	0x1b
+	.long	0x1348
+	.uleb128 0x7
+	.long	0x134d
+	.uleb128 0x11
+	.long	.LASF345
+	.uleb128 0xa
+	.long	.LASF346
+	.byte	0xe
+	.byte	0x2e
+	.byte	0x1c
+	.long	0x135e
+	.uleb128 0x7
+	.long	0x1363
+	.uleb128 0xd
+	.long	.LASF347
+	.byte	0x80
+	.byte	0x17
+	.byte	0x3d
+	.byte	0x8
+	.long	0x145b
+	.uleb128 0x2
+	.long	.LASF348
+	.byte	0x17
+	.byte	0x3e
+	.byte	0x8
+	.long	0x2ee
+	.byte	0
+	.uleb128 0x2
+	.long	.LASF349
+	.byte	0x17
+	.byte	0x3f
+	.byte	0x8
+	.long	0x2ee
+	.byte	0x8
+	.uleb128 0x2
+	.long	.LASF350
+	.byte	0x17
+	.byte	0x40
+	.byte	0x8
+	.long	0x2ee
+	.byte	0x10
+	.uleb128 0x2
+	.long	.LASF193
+	.byte	0x17
+	.byte	0x41
+	.byte	0x7
+	.long	0x322
+	.byte	0x18
+	.uleb128 0x2
+	.long	.LASF351
+	.byte	0x17
+	.byte	0x42
+	.byte	0x8
+	.long	0x2d4
+	.byte	0x20
+	.uleb128 0x2
+	.long	.LASF352
+	.byte	0x17
+	.byte	0x43
+	.byte	0x8
+	.long	0x2d4
+	.byte	0x21
+	.uleb128 0x2
+	.long	.LASF353
+	.byte	0x17
+	.byte	0x44
+	.byte	0x8
+	.long	0x2d4
+	.byte	0x22
+	.uleb128 0x2
+	.long	.LASF207
+	.byte	0x17
+	.byte	0x45
+	.byte	0x9
+	.long	0x2e1
+	.byte	0x24
+	.uleb128 0x12
+	.string	"tbl"
+	.byte	0x17
+	.byte	0x46
+	.byte	0x8
+	.long	0x583
+	.byte	0x28
+	.uleb128 0x2
+	.long	.LASF354
+	.byte	0x17
+	.byte	0x47
+	.byte	0xb
+	.long	0x1c48
+	.byte	0x30
+	.uleb128 0x2
+	.long	.LASF89
+	.byte	0x17
+	.byte	0x48
+	.byte	0x9
+	.long	0x50e
+	.byte	0x38
+	.uleb128 0x2
+	.long	.LASF355
+	.byte	0x17
+	.byte	0x49
+	.byte	0xd
+	.long	0x1551
+	.byte	0x40
+	.uleb128 0x2
+	.long	.LASF356
+	.byte	0x17
+	.byte	0x4a
+	.byte	0xc
+	.long	0x158a
+	.byte	0x48
+	.uleb128 0x2
+	.long	.LASF357
+	.byte	0x17
+	.byte	0x4f
+	.byte	0x4
+	.long	0x4cd1
+	.byte	0x50
+	.uleb128 0x2
+	.long	.LASF358
+	.byte	0x17
+	.byte	0x51
+	.byte	0xc
+	.long	0x1b98
+	.byte	0x60
+	.uleb128 0x2
+	.long	.LASF359
+	.byte	0x17
+	.byte	0x52
+	.byte	0xb
+	.long	0x1c81
+	.byte	0x68
+	.uleb128 0x2
+	.long	.LASF360
+	.byte	0x17
+	.byte	0x53
+	.byte	0xb
+	.long	0x1c81
+	.byte	0x70
+	.uleb128 0x2
+	.long	.LASF361
+	.byte	0x17
+	.byte	0x54
+	.byte	0x8
+	.long	0x583
+	.byte	0x78
+	.byte	0
+	.uleb128 0xa
+	.long	.LASF362
+	.byte	0xe
+	.byte	0x2f
+	.byte	0x24
+	.long	0x1467
+	.uleb128 0x7
+	.long	0x146c
+	.uleb128 0xd
+	.long	.LASF363
+	.byte	0x10
+	.byte	0xe
+	.byte	0x56
+	.byte	0x10
+	.long	0x1494
+	.uleb128 0x2
+	.long	.LASF364
+	.byte	0xe
+	.byte	0x56
+	.byte	0x2e
+	.long	0x1352
+	.byte	0
+	.uleb128 0x2
+	.long	.LASF90
+	.byte	0xe
+	.byte	0x56
+	.byte	0x4f
+	.long	0x1467
+	.byte	0x8
+	.byte	0
+	.uleb128 0xa
+	.long	.LASF365
+	.byte	0xe
+	.byte	0x30
+	.byte	0x1a
+	.long	0x14a0
+	.uleb128 0x7
+	.long	0x14a5
+	.uleb128 0x11
+	.long	.LASF366
+	.uleb128 0xa
+	.long	.LASF367
+	.byte	0xe
+	.byte	0x35
+	.byte	0xf
+	.long	0x2ee
+	.uleb128 0xa
+	.long	.LASF368
+	.byte	0xe
+	.byte	0x37
+	.byte	0x1a
+	.long	0x14c2
+	.uleb128 0x7
+	.long	0x14c7
+	.uleb128 0x11
+	.long	.LASF369
+	.uleb128 0xa
+	.long	.LASF370
+	.byte	0xe
+	.byte	0x38
+	.byte	0x1b
+	.long	0x14d8
+	.uleb128 0x7
+	.long	0x14dd
+	.uleb128 0x11
+	.long	.LASF371
+	.uleb128 0xa
+	.long	.LASF372
+	.byte	0xe
+	.byte	0x39
+	.byte	0x1b
+	.long	0x14ee
+	.uleb128 0x7
+	.long	0x14f3
+	.uleb128 0x11
+	.long	.LASF373
+	.uleb128 0xa
+	.long	.LASF374
+	.byte	0xe
+	.byte	0x3a
+	.byte	0x18
+	.long	0x1504
+	.uleb128 0x7
+	.long	0x1509
+	.uleb128 0x35
+	.long	.LASF802
+	.uleb128 0xa
+	.long	.LASF375
+	.byte	0xe
+	.byte	0x3d
+	.byte	0x22
+	.long	0x151a
+	.uleb128 0x7
+	.long	0x151f
+	.uleb128 0x11
+	.long	.LASF376
+	.uleb128 0xd
+	.long	.LASF377
+	.byte	0x10
+	.byte	0xe
+	.byte	0x49
+	.byte	0x10
+	.long	0x154c
+	.uleb128 0x2
+	.long	.LASF364
+	.byte	0xe
+	.byte	0x49
+	.byte	0x28
+	.long	0x606
+	.byte	0
+	.uleb128 0x2
+	.long	.LASF90
+	.byte	0xe
+	.byte	0x49
+	.byte	0x46
+	.long	0x154c
+	.byte	0x8
+	.byte	0
+	.uleb128 0x7
+	.long	0x1524
+	.uleb128 0xa
+	.long	.LASF378
+	.byte	0xe
+	.byte	0x49
+	.byte	0x4f
+	.long	0x154c
+	.uleb128 0xd
+	.long	.LASF379
+	.byte	0x10
+	.byte	0xe
+	.byte	0x4f
+	.byte	0x10
+	.long	0x1585
+	.uleb128 0x2
+	.long	.LASF364
+	.byte	0xe
+	.byte	0x4f
+	.byte	0x26
+	.long	0x653
+	.byte	0
+	.uleb128 0x2
+	.long	.LASF90
+	.byte	0xe
+	.byte	0x4f
+	.byte	0x43
+	.long	0x1585
+	.byte	0x8
+	.byte	0
+	.uleb128 0x7
+	.long	0x155d
+	.uleb128 0xa
+	.long	.LASF380
+	.byte	0xe
+	.byte	0x4f
+	.byte	0x4c
+	.long	0x1585
+	.uleb128 0x25
+	.long	.LASF381
+	.value	0x140
+	.byte	0xe
+	.byte	0x4f
+	.byte	0x5e
+	.long	0x17d9
+	.uleb128 0x2
+	.long	.LASF382
+	.byte	0xe
+	.byte	0x4f
+	.byte	0x80
+	.long	0x17f2
+	.byte	0
+	.uleb128 0x2
+	.long	.LASF383
+	.byte	0xe
+	.byte	0x4f
+	.byte	0xa6
+	.long	0x1806
+	.byte	0x8
+	.uleb128 0x2
+	.long	.LASF384
+	.byte	0xe
+	.byte	0x4f
+	.byte	0xc6
+	.long	0x181b
+	.byte	0x10
+	.uleb128 0x2
+	.long	.LASF385
+	.byte	0xe
+	.byte	0x4f
+	.byte	0xe6
+	.long	0x182f
+	.byte	0x18
+	.uleb128 0xb
+	.long	.LASF386
+	.byte	0xe
+	.byte	0x4f
+	.value	0x109
+	.long	0x1844
+	.byte	0x20
+	.uleb128 0xb
+	.long	.LASF387
+	.byte	0xe
+	.byte	0x4f
+	.value	0x128
+	.long	0x187b
+	.byte	0x28
+	.uleb128 0xb
+	.long	.LASF388
+	.byte	0xe
+	.byte	0x4f
+	.value	0x169
+	.long	0x189e
+	.byte	0x30
+	.uleb128 0xb
+	.long	.LASF389
+	.byte	0xe
+	.byte	0x4f
+	.value	0x1af
+	.long	0x18b2
+	.byte	0x38
+	.uleb128 0xb
+	.long	.LASF390
+	.byte	0xe
+	.byte	0x4f
+	.value	0x1cd
+	.long	0x18c2
+	.byte	0x40
+	.uleb128 0xb
+	.long	.LASF391
+	.byte	0xe
+	.byte	0x4f
+	.value	0x1ec
+	.long	0x18db
+	.byte	0x48
+	.uleb128 0xb
+	.long	.LASF392
+	.byte	0xe
+	.byte	0x4f
+	.value	0x213
+	.long	0x1900
+	.byte	0x50
+	.uleb128 0xb
+	.long	.LASF393
+	.byte	0xe
+	.byte	0x4f
+	.value	0x24a
+	.long	0x191e
+	.byte	0x58
+	.uleb128 0xb
+	.long	.LASF394
+	.byte	0xe
+	.byte	0x4f
+	.value	0x290
+	.long	0x1950
+	.byte	0x60
+	.uleb128 0x1f
+	.string	"Elt"
+	.byte	0xe
+	.byte	0x4f
+	.value	0x2d4
+	.long	0x1969
+	.byte	0x68
+	.uleb128 0xb
+	.long	.LASF395
+	.byte	0xe
+	.byte	0x4f
+	.value	0x2fa
+	.long	0x1982
+	.byte	0x70
+	.uleb128 0xb
+	.long	.LASF396
+	.byte	0xe
+	.byte	0x4f
+	.value	0x321
+	.long	0x18b2
+	.byte	0x78
+	.uleb128 0xb
+	.long	.LASF397
+	.byte	0xe
+	.byte	0x4f
+	.value	0x341
+	.long	0x1996
+	.byte	0x80
+	.uleb128 0xb
+	.long	.LASF398
+	.byte	0xe
+	.byte	0x4f
+	.value	0x35e
+	.long	0x19af
+	.byte	0x88
+	.uleb128 0xb
+	.long	.LASF399
+	.byte	0xe
+	.byte	0x4f
+	.value	0x384
+	.long	0x19af
+	.byte	0x90
+	.uleb128 0xb
+	.long	.LASF400
+	.byte	0xe
+	.byte	0x4f
+	.value	0x3ab
+	.long	0x19af
+	.byte	0x98
+	.uleb128 0xb
+	.long	.LASF401
+	.byte	0xe
+	.byte	0x4f
+	.value	0x3d6
+	.long	0x18b2
+	.byte	0xa0
+	.uleb128 0xb
+	.long	.LASF402
+	.byte	0xe
+	.byte	0x4f
+	.value	0x3f5
+	.long	0x18db
+	.byte	0xa8
+	.uleb128 0xb
+	.long	.LASF403
+	.byte	0xe
+	.byte	0x4f
+	.value	0x421
+	.long	0x19dc
+	.byte	0xb0
+	.uleb128 0xb
+	.long	.LASF404
+	.byte	0xe
+	.byte	0x4f
+	.value	0x458
+	.long	0x19fa
+	.byte	0xb8
+	.uleb128 0x1f
+	.string	"Map"
+	.byte	0xe
+	.byte	0x4f
+	.value	0x49c
+	.long	0x1a13
+	.byte	0xc0
+	.uleb128 0xb
+	.long	.LASF405
+	.byte	0xe
+	.byte	0x4f
+	.value	0x4cd
+	.long	0x1a13
+	.byte	0xc8
+	.uleb128 0xb
+	.long	.LASF406
+	.byte	0xe
+	.byte	0x4f
+	.value	0x4ff
+	.long	0x18b2
+	.byte	0xd0
+	.uleb128 0xb
+	.long	.LASF407
+	.byte	0xe
+	.byte	0x4f
+	.value	0x521
+	.long	0x18b2
+	.byte	0xd8
+	.uleb128 0xb
+	.long	.LASF408
+	.byte	0xe
+	.byte	0x4f
+	.value	0x544
+	.long	0x18db
+	.byte	0xe0
+	.uleb128 0xb
+	.long	.LASF409
+	.byte	0xe
+	.byte	0x4f
+	.value	0x570
+	.long	0x18db
+	.byte	0xe8
+	.uleb128 0xb
+	.long	.LASF410
+	.byte	0xe
+	.byte	0x4f
+	.value	0x598
+	.long	0x1a2c
+	.byte	0xf0
+	.uleb128 0xb
+	.long	.LASF411
+	.byte	0xe
+	.byte	0x4f
+	.value	0x5b9
+	.long	0x1a4a
+	.byte	0xf8
+	.uleb128 0x10
+	.long	.LASF412
+	.byte	0xe
+	.byte	0x4f
+	.value	0x5f5
+	.long	0x1a63
+	.value	0x100
+	.uleb128 0x10
+	.long	.LASF413
+	.byte	0xe
+	.byte	0x4f
+	.value	0x621
+	.long	0x1a7c
+	.value	0x108
+	.uleb128 0x10
+	.long	.LASF414
+	.byte	0xe
+	.byte	0x4f
+	.value	0x641
+	.long	0x1a9a
+	.value	0x110
+	.uleb128 0x10
+	.long	.LASF415
+	.byte	0xe
+	.byte	0x4f
+	.value	0x684
+	.long	0x1ab8
+	.value	0x118
+	.uleb128 0x10
+	.long	.LASF416
+	.byte	0xe
+	.byte	0x4f
+	.value	0x6c1
+	.long	0x1ad2
+	.value	0x120
+	.uleb128 0x10
+	.long	.LASF417
+	.byte	0xe
+	.byte	0x4f
+	.value	0x6e9
+	.long	0x1b09
+	.value	0x128
+	.uleb128 0x10
+	.long	.LASF418
+	.byte	0xe
+	.byte	0x4f
+	.value	0x726
+	.long	0x1b36
+	.value	0x130
+	.uleb128 0x10
+	.long	.LASF419
+	.byte	0xe
+	.byte	0x4f
+	.value	0x77c
+	.long	0x1b54
+	.value	0x138
+	.byte	0
+	.uleb128 0x24
+	.long	0x1596
+	.uleb128 0x9
+	.long	0x158a
+	.long	0x17f2
+	.uleb128 0x4
+	.long	0x653
+	.uleb128 0x4
+	.long	0x158a
+	.byte	0
+	.uleb128 0x7
+	.long	0x17de
+	.uleb128 0x9
+	.long	0x158a
+	.long	0x1806
+	.uleb128 0x4
+	.long	0x653
+	.byte	0
+	.uleb128 0x7
+	.long	0x17f7
+	.uleb128 0x9
+	.long	0x158a
+	.long	0x181b
+	.uleb128 0x4
+	.long	0x2e
+	.uleb128 0x18
+	.byte	0
+	.uleb128 0x7
+	.long	0x180b
+	.uleb128 0x9
+	.long	0x158a
+	.long	0x182f
+	.uleb128 0x4
+	.long	0x4d8
+	.byte	0
+	.uleb128 0x7
+	.long	0x1820
+	.uleb128 0x9
+	.long	0x158a
+	.long	0x1844
+	.uleb128 0x4
+	.long	0x653
+	.uleb128 0x18
+	.byte	0
+	.uleb128 0x7
+	.long	0x1834
+	.uleb128 0x9
+	.long	0x315
+	.long	0x1862
+	.uleb128 0x4
+	.long	0x158a
+	.uleb128 0x4
+	.long	0x158a
+	.uleb128 0x4
+	.long	0x1862
+	.byte	0
+	.uleb128 0x7
+	.long	0x1867
+	.uleb128 0x9
+	.long	0x315
+	.long	0x187b
+	.uleb128 0x4
+	.long	0x653
+	.uleb128 0x4
+	.long	0x653
+	.byte	0
+	.uleb128 0x7
+	.long	0x1849
+	.uleb128 0x9
+	.long	0x653
+	.long	0x189e
+	.uleb128 0x4
+	.long	0x158a
+	.uleb128 0x4
+	.long	0x653
+	.uleb128 0x4
+	.long	0x1862
+	.uleb128 0x4
+	.long	0x4dd
+	.byte	0
+	.uleb128 0x7
+	.long	0x1880
+	.uleb128 0x9
+	.long	0x158a
+	.long	0x18b2
+	.uleb128 0x4
+	.long	0x158a
+	.byte	0
+	.uleb128 0x7
+	.long	0x18a3
+	.uleb128 0x16
+	.long	0x18c2
+	.uleb128 0x4
+	.long	0x158a
+	.byte	0
+	.uleb128 0x7
+	.long	0x18b7
+	.uleb128 0x9
+	.long	0x158a
+	.long	0x18db
+	.uleb128 0x4
+	.long	0x158a
+	.uleb128 0x4
+	.long	0x158a
+	.byte	0
+	.uleb128 0x7
+	.long	0x18c7
+	.uleb128 0x16
+	.long	0x18f0
+	.uleb128 0x4
+	.long	0x158a
+	.uleb128 0x4
+	.long	0x18f0
+	.byte	0
+	.uleb128 0x7
+	.long	0x18f5
+	.uleb128 0x16
+	.long	0x1900
+	.uleb128 0x4
+	.long	0x653
+	.byte	0
+	.uleb128 0x7
+	.long	0x18e0
+	.uleb128 0x9
+	.long	0x158a
+	.long	0x191e
+	.uleb128 0x4
+	.long	0x158a
+	.uleb128 0x4
+	.long	0x158a
+	.uleb128 0x4
+	.long	0x18f0
+	.byte	0
+	.uleb128 0x7
+	.long	0x1905
+	.uleb128 0x9
+	.long	0x158a
+	.long	0x193c
+	.uleb128 0x4
+	.long	0x158a
+	.uleb128 0x4
+	.long	0x18f0
+	.uleb128 0x4
+	.long	0x193c
+	.byte	0
+	.uleb128 0x7
+	.long	0x1941
+	.uleb128 0x9
+	.long	0x315
+	.long	0x1950
+	.uleb128 0x4
+	.long	0x653
+	.byte	0
+	.uleb128 0x7
+	.long	0x1923
+	.uleb128 0x9
+	.long	0x653
+	.long	0x1969
+	.uleb128 0x4
+	.long	0x158a
+	.uleb128 0x4
+	.long	0x32f
+	.byte	0
+	.uleb128 0x7
+	.long	0x1955
+	.uleb128 0x9
+	.long	0x158a
+	.long	0x1982
+	.uleb128 0x4
+	.long	0x158a
+	.uleb128 0x4
+	.long	0x32f
+	.byte	0
+	.uleb128 0x7
+	.long	0x196e
+	.uleb128 0x9
+	.long	0x32f
+	.long	0x1996
+	.uleb128 0x4
+	.long	0x158a
+	.byte	0
+	.uleb128 0x7
+	.long	0x1987
+	.uleb128 0x9
+	.long	0x315
+	.long	0x19af
+	.uleb128 0x4
+	.long	0x158a
+	.uleb128 0x4
+	.long	0x32f
+	.byte	0
+	.uleb128 0x7
+	.long	0x199b
+	.uleb128 0x9
+	.long	0x158a
+	.long	0x19c8
+	.uleb128 0x4
+	.long	0x158a
+	.uleb128 0x4
+	.long	0x19c8
+	.byte	0
+	.uleb128 0x7
+	.long	0x19cd
+	.uleb128 0x9
+	.long	0x653
+	.long	0x19dc
+	.uleb128 0x4
+	.long	0x653
+	.byte	0
+	.uleb128 0x7
+	.long	0x19b4
+	.uleb128 0x9
+	.long	0x158a
+	.long	0x19fa
+	.uleb128 0x4
+	.long	0x158a
+	.uleb128 0x4
+	.long	0x158a
+	.uleb128 0x4
+	.long	0x19c8
+	.byte	0
+	.uleb128 0x7
+	.long	0x19e1
+	.uleb128 0x9
+	.long	0x158a
+	.long	0x1a13
+	.uleb128 0x4
+	.long	0x19c8
+	.uleb128 0x4
+	.long	0x158a
+	.byte	0
+	.uleb128 0x7
+	.long	0x19ff
+	.uleb128 0x9
+	.long	0x315
+	.long	0x1a2c
+	.uleb128 0x4
+	.long	0x158a
+	.uleb128 0x4
+	.long	0x653
+	.byte	0
+	.uleb128 0x7
+	.long	0x1a18
+	.uleb128 0x9
+	.long	0x315
+	.long	0x1a4a
+	.uleb128 0x4
+	.long	0x158a
+	.uleb128 0x4
+	.long	0x653
+	.uleb128 0x4
+	.long	0x1862
+	.byte	0
+	.uleb128 0x7
+	.long	0x1a31
+	.uleb128 0x9
+	.long	0x315
+	.long	0x1a63
+	.uleb128 0x4
+	.long	0x158a
+	.uleb128 0x4
+	.long	0x158a
+	.byte	0
+	.uleb128 0x7
+	.long	0x1a4f
+	.uleb128 0x9
+	.long	0x2e
+	.long	0x1a7c
+	.uleb128 0x4
+	.long	0x158a
+	.uleb128 0x4
+	.long	0x653
+	.byte	0
+	.uleb128 0x7
+	.long	0x1a68
+	.uleb128 0x9
+	.long	0x2e
+	.long	0x1a9a
+	.uleb128 0x4
+	.long	0x158a
+	.uleb128 0x4
+	.long	0x653
+	.uleb128 0x4
+	.long	0x1862
+	.byte	0
+	.uleb128 0x7
+	.long	0x1a81
+	.uleb128 0x9
+	.long	0x158a
+	.long	0x1ab8
+	.uleb128 0x4
+	.long	0x158a
+	.uleb128 0x4
+	.long	0x653
+	.uleb128 0x4
+	.long	0x1862
+	.byte	0
+	.uleb128 0x7
+	.long	0x1a9f
+	.uleb128 0x16
+	.long	0x1acd
+	.uleb128 0x4
+	.long	0x1acd
+	.uleb128 0x4
+	.long	0x158a
+	.byte	0
+	.uleb128 0x7
+	.long	0x653
+	.uleb128 0x7
+	.long	0x1abd
+	.uleb128 0x9
+	.long	0x2e
+	.long	0x1af0
+	.uleb128 0x4
+	.long	0x2c3
+	.uleb128 0x4
+	.long	0x158a
+	.uleb128 0x4
+	.long	0x1af0
+	.byte	0
+	.uleb128 0x7
+	.long	0x1af5
+	.uleb128 0x9
+	.long	0x2e
+	.long	0x1b09
+	.uleb128 0x4
+	.long	0x2c3
+	.uleb128 0x4
+	.long	0x653
+	.byte	0
+	.uleb128 0x7
+	.long	0x1ad7
+	.uleb128 0x9
+	.long	0x2e
+	.long	0x1b36
+	.uleb128 0x4
+	.long	0x2c3
+	.uleb128 0x4
+	.long	0x158a
+	.uleb128 0x4
+	.long	0x1af0
+	.uleb128 0x4
+	.long	0x80
+	.uleb128 0x4
+	.long	0x80
+	.uleb128 0x4
+	.long	0x80
+	.byte	0
+	.uleb128 0x7
+	.long	0x1b0e
+	.uleb128 0x9
+	.long	0x2e
+	.long	0x1b54
+	.uleb128 0x4
+	.long	0x3d2
+	.uleb128 0x4
+	.long	0x363
+	.uleb128 0x4
+	.long	0x158a
+	.byte	0
+	.uleb128 0x7
+	.long	0x1b3b
+	.uleb128 0x2a
+	.long	.LASF432
+	.byte	0xe
+	.byte	0x4f
+	.value	0x7cf
+	.long	0x1b66
+	.uleb128 0x7
+	.long	0x17d9
+	.uleb128 0xd
+	.long	.LASF420
+	.byte	0x10
+	.byte	0xe
+	.byte	0x52
+	.byte	0x10
+	.long	0x1b93
+	.uleb128 0x2
+	.long	.LASF364
+	.byte	0xe
+	.byte	0x52
+	.byte	0x26
+	.long	0xb2c
+	.byte	0
+	.uleb128 0x2
+	.long	.LASF90
+	.byte	0xe
+	.byte	0x52
+	.byte	0x43
+	.long	0x1b93
+	.byte	0x8
+	.byte	0
+	.uleb128 0x7
+	.long	0x1b6b
+	.uleb128 0xa
+	.long	.LASF421
+	.byte	0xe
+	.byte	0x52
+	.byte	0x4c
+	.long	0x1b93
+	.uleb128 0x7
+	.long	0xb2c
+	.uleb128 0xd
+	.long	.LASF422
+	.byte	0x10
+	.byte	0xe
+	.byte	0x53
+	.byte	0x10
+	.long	0x1bd1
+	.uleb128 0x2
+	.long	.LASF364
+	.byte	0xe
+	.byte	0x53
+	.byte	0x28
+	.long	0xd30
+	.byte	0
+	.uleb128 0x2
+	.long	.LASF90
+	.byte	0xe
+	.byte	0x53
+	.byte	0x46
+	.long	0x1bd1
+	.byte	0x8
+	.byte	0
+	.uleb128 0x7
+	.long	0x1ba9
+	.uleb128 0xa
+	.long	.LASF423
+	.byte	0xe
+	.byte	0x53
+	.byte	0x4f
+	.long	0x1bd1
+	.uleb128 0xd
+	.long	.LASF424
+	.byte	0x10
+	.byte	0xe
+	.byte	0x54
+	.byte	0x10
+	.long	0x1c0a
+	.uleb128 0x2
+	.long	.LASF364
+	.byte	0xe
+	.byte	0x54
+	.byte	0x26
+	.long	0xd46
+	.byte	0
+	.uleb128 0x2
+	.long	.LASF90
+	.byte	0xe
+	.byte	0x54
+	.byte	0x43
+	.long	0x1c0a
+	.byte	0x8
+	.byte	0
+	.uleb128 0x7
+	.long	0x1be2
+	.uleb128 0xa
+	.long	.LASF425
+	.byte	0xe
+	.byte	0x54
+	.byte	0x4c
+	.long	0x1c0a
+	.uleb128 0xd
+	.long	.LASF426
+	.byte	0x10
+	.byte	0xe
+	.byte	0x55
+	.byte	0x10
+	.long	0x1c43
+	.uleb128 0x2
+	.long	.LASF364
+	.byte	0xe
+	.byte	0x55
+	.byte	0x24
+	.long	0x145b
+	.byte	0
+	.uleb128 0x2
+	.long	.LASF90
+	.byte	0xe
+	.byte	0x55
+	.byte	0x40
+	.long	0x1c43
+	.byte	0x8
+	.byte	0
+	.uleb128 0x7
+	.long	0x1c1b
+	.uleb128 0xa
+	.long	.LASF427
+	.byte	0xe
+	.byte	0x55
+	.byte	0x49
+	.long	0x1c43
+	.uleb128 0xd
+	.long	.LASF428
+	.byte	0x10
+	.byte	0xe
+	.byte	0x57
+	.byte	0x10
+	.long	0x1c7c
+	.uleb128 0x2
+	.long	.LASF364
+	.byte	0xe
+	.byte	0x57
+	.byte	0x24
+	.long	0xa7f
+	.byte	0
+	.uleb128 0x2
+	.long	.LASF90
+	.byte	0xe
+	.byte	0x57
+	.byte	0x40
+	.long	0x1c7c
+	.byte	0x8
+	.byte	0
+	.uleb128 0x7
+	.long	0x1c54
+	.uleb128 0xa
+	.long	.LASF429
+	.byte	0xe
+	.byte	0x57
+	.byte	0x49
+	.long	0x1c7c
+	.uleb128 0x7
+	.long	0xa7f
+	.uleb128 0x7
+	.long	0xd5c
+	.uleb128 0x7
+	.long	0x2fb
+	.uleb128 0xd
+	.long	.LASF430
+	.byte	0x10
+	.byte	0xe
+	.byte	0x5d
+	.byte	0x10
+	.long	0x1cc4
+	.uleb128 0x2
+	.long	.LASF364
+	.byte	0xe
+	.byte	0x5d
+	.byte	0x28
+	.long	0x14b6
+	.byte	0
+	.uleb128 0x2
+	.long	.LASF90
+	.byte	0xe
+	.byte	0x5d
+	.byte	0x46
+	.long	0x1cc4
+	.byte	0x8
+	.byte	0
+	.uleb128 0x7
+	.long	0x1c9c
+	.uleb128 0xa
+	.long	.LASF431
+	.byte	0xe
+	.byte	0x5d
+	.byte	0x4f
+	.long	0x1cc4
+	.uleb128 0x14
+	.long	0x356
+	.long	0x1ce5
+	.uleb128 0x15
+	.long	0x4a
+	.byte	0x9
+	.byte	0
+	.uleb128 0x20
+	.long	.LASF433
+	.byte	0xc
+	.byte	0x13
+	.byte	0xf
+	.long	0x50e
+	.uleb128 0xa
+	.long	.LASF434
+	.byte	0xd
+	.byte	0xe
+	.byte	0x11
+	.long	0x349
+	.uleb128 0xa
+	.long	.LASF435
+	.byte	0xd
+	.byte	0xf
+	.byte	0x11
+	.long	0x349
+	.uleb128 0xa
+	.long	.LASF436
+	.byte	0xd
+	.byte	0x11
+	.byte	0x11
+	.long	0x1d15
+	.uleb128 0x7
+	.long	0x1d1a
+	.uleb128 0x9
+	.long	0x322
+	.long	0x1d29
+	.uleb128 0x4
+	.long	0x1cf1
+	.byte	0
+	.uleb128 0xa
+	.long	.LASF437
+	.byte	0xd
+	.byte	0x12
+	.byte	0x11
+	.long	0x1d35
+	.uleb128 0x7
+	.long	0x1d3a
+	.uleb128 0x9
+	.long	0x315
+	.long	0x1d4e
+	.uleb128 0x4
+	.long	0x1cf1
+	.uleb128 0x4
+	.long	0x1cf1
+	.byte	0
+	.uleb128 0xd
+	.long	.LASF438
+	.byte	0x20
+	.byte	0xd
+	.byte	0x1a
+	.byte	0x8
+	.long	0x1d90
+	.uleb128 0x12
+	.string	"key"
+	.byte	0xd
+	.byte	0x1b
+	.byte	0x9
+	.long	0x1cf1
+	.byte	0
+	.uleb128 0x12
+	.string	"elt"
+	.byte	0xd
+	.byte	0x1c
+	.byte	0x9
+	.long	0x1cfd
+	.byte	0x8
+	.uleb128 0x2
+	.long	.LASF193
+	.byte	0xd
+	.byte	0x1d
+	.byte	0x7
+	.long	0x322
+	.byte	0x10
+	.uleb128 0x2
+	.long	.LASF439
+	.byte	0xd
+	.byte	0x1e
+	.byte	0x12
+	.long	0x1d90
+	.byte	0x18
+	.byte	0
+	.uleb128 0x7
+	.long	0x1d4e
+	.uleb128 0x7
+	.long	0x1d90
+	.uleb128 0x7
+	.long	0x38a
+	.uleb128 0xd
+	.long	.LASF440
+	.byte	0x8
+	.byte	0xf
+	.byte	0x2e
+	.byte	0x10
+	.long	0x1dba
+	.uleb128 0x2
+	.long	.LASF94
+	.byte	0xf
+	.byte	0x2e
+	.byte	0x24
+	.long	0x583
+	.byte	0
+	.byte	0
+	.uleb128 0xa
+	.long	.LASF441
+	.byte	0xf
+	.byte	0x2e
+	.byte	0x2e
+	.long	0x1dc6
+	.uleb128 0x7
+	.long	0x1d9f
+	.uleb128 0x21
+	.long	.LASF525
+	.long	0x43
+	.byte	0x10
+	.byte	0x16
+	.long	0x1fc7
+	.uleb128 0x8
+	.long	.LASF442
+	.byte	0
+	.uleb128 0x8
+	.long	.LASF443
+	.byte	0
+	.uleb128 0x8
+	.long	.LASF444
+	.byte	0
+	.uleb128 0x8
+	.long	.LASF445
+	.byte	0x1
+	.uleb128 0x8
+	.long	.LASF446
+	.byte	0x2
+	.uleb128 0x8
+	.long	.LASF447
+	.byte	0x3
+	.uleb128 0x8
+	.long	.LASF448
+	.byte	0x3
+	.uleb128 0x8
+	.long	.LASF449
+	.byte	0x3
+	.uleb128 0x8
+	.long	.LASF450
+	.byte	0x4
+	.uleb128 0x8
+	.long	.LASF451
+	.byte	0x4
+	.uleb128 0x8
+	.long	.LASF452
+	.byte	0x4
+	.uleb128 0x8
+	.long	.LASF453
+	.byte	0x5
+	.uleb128 0x8
+	.long	.LASF454
+	.byte	0x6
+	.uleb128 0x8
+	.long	.LASF455
+	.byte	0x7
+	.uleb128 0x8
+	.long	.LASF456
+	.byte	0x7
+	.uleb128 0x8
+	.long	.LASF457
+	.byte	0x7
+	.uleb128 0x8
+	.long	.LASF458
+	.byte	0x8
+	.uleb128 0x8
+	.long	.LASF459
+	.byte	0x9
+	.uleb128 0x8
+	.long	.LASF460
+	.byte	0xa
+	.uleb128 0x8
+	.long	.LASF461
+	.byte	0xb
+	.uleb128 0x8
+	.long	.LASF462
+	.byte	0xc
+	.uleb128 0x8
+	.long	.LASF463
+	.byte	0xd
+	.uleb128 0x8
+	.long	.LASF464
+	.byte	0xe
+	.uleb128 0x8
+	.long	.LASF465
+	.byte	0xf
+	.uleb128 0x8
+	.long	.LASF466
+	.byte	0x10
+	.uleb128 0x8
+	.long	.LASF467
+	.byte	0x11
+	.uleb128 0x8
+	.long	.LASF468
+	.byte	0x12
+	.uleb128 0x8
+	.long	.LASF469
+	.byte	0x13
+	.uleb128 0x8
+	.long	.LASF470
+	.byte	0x14
+	.uleb128 0x8
+	.long	.LASF471
+	.byte	0x15
+	.uleb128 0x8
+	.long	.LASF472
+	.byte	0x16
+	.uleb128 0x8
+	.long	.LASF473
+	.byte	0x17
+	.uleb128 0x8
+	.long	.LASF474
+	.byte	0x18
+	.uleb128 0x8
+	.long	.LASF475
+	.byte	0x19
+	.uleb128 0x8
+	.long	.LASF476
+	.byte	0x1a
+	.uleb128 0x8
+	.long	.LASF477
+	.byte	0x1b
+	.uleb128 0x8
+	.long	.LASF478
+	.byte	0x1c
+	.uleb128 0x8
+	.long	.LASF479
+	.byte	0x1d
+	.uleb128 0x8
+	.long	.LASF480
+	.byte	0x1e
+	.uleb128 0x8
+	.long	.LASF481
+	.byte	0x1f
+	.uleb128 0x8
+	.long	.LASF482
+	.byte	0x20
+	.uleb128 0x8
+	.long	.LASF483
+	.byte	0x21
+	.uleb128 0x8
+	.long	.LASF484
+	.byte	0x22
+	.uleb128 0x8
+	.long	.LASF485
+	.byte	0x23
+	.uleb128 0x8
+	.long	.LASF486
+	.byte	0x24
+	.uleb128 0x8
+	.long	.LASF487
+	.byte	0x25
+	.uleb128 0x8
+	.long	.LASF488
+	.byte	0x26
+	.uleb128 0x8
+	.long	.LASF489
+	.byte	0x27
+	.uleb128 0x8
+	.long	.LASF490
+	.byte	0x28
+	.uleb128 0x8
+	.long	.LASF491
+	.byte	0x29
+	.uleb128 0x8
+	.long	.LASF492
+	.byte	0x2a
+	.uleb128 0x8
+	.long	.LASF493
+	.byte	0x2b
+	.uleb128 0x8
+	.long	.LASF494
+	.byte	0x2c
+	.uleb128 0x8
+	.long	.LASF495
+	.byte	0x2d
+	.uleb128 0x8
+	.long	.LASF496
+	.byte	0x2e
+	.uleb128 0x8
+	.long	.LASF497
+	.byte	0x2f
+	.uleb128 0x8
+	.long	.LASF498
+	.byte	0x30
+	.uleb128 0x8
+	.long	.LASF499
+	.byte	0x31
+	.uleb128 0x8
+	.long	.LASF500
+	.byte	0x32
+	.uleb128 0x8
+	.long	.LASF501
+	.byte	0x33
+	.uleb128 0x8
+	.long	.LASF502
+	.byte	0x34
+	.uleb128 0x8
+	.long	.LASF503
+	.byte	0x35
+	.uleb128 0x8
+	.long	.LASF504
+	.byte	0x36
+	.uleb128 0x8
+	.long	.LASF505
+	.byte	0x37
+	.uleb128 0x8
+	.long	.LASF506
+	.byte	0x38
+	.uleb128 0x8
+	.long	.LASF507
+	.byte	0x39
+	.uleb128 0x8
+	.long	.LASF508
+	.byte	0x3a
+	.uleb128 0x8
+	.long	.LASF509
+	.byte	0x3b
+	.uleb128 0x8
+	.long	.LASF510
+	.byte	0x3c
+	.uleb128 0x8
+	.long	.LASF511
+	.byte	0x3d
+	.uleb128 0x8
+	.long	.LASF512
+	.byte	0x3e
+	.uleb128 0x8
+	.long	.LASF513
+	.byte	0x3f
+	.uleb128 0x8
+	.long	.LASF514
+	.byte	0x40
+	.uleb128 0x8
+	.long	.LASF515
+	.byte	0x41
+	.uleb128 0x8
+	.long	.LASF516
+	.byte	0x42
+	.uleb128 0x8
+	.long	.LASF517
+	.byte	0x43
+	.uleb128 0x8
+	.long	.LASF518
+	.byte	0x44
+	.uleb128 0x8
+	.long	.LASF519
+	.byte	0x45
+	.uleb128 0x8
+	.long	.LASF520
+	.byte	0x46
+	.uleb128 0x8
+	.long	.LASF521
+	.byte	0x47
+	.uleb128 0x8
+	.long	.LASF522
+	.byte	0x48
+	.uleb128 0x8
+	.long	.LASF523
+	.byte	0x48
+	.byte	0
+	.uleb128 0xa
+	.long	.LASF524
+	.byte	0x10
+	.byte	0x75
+	.byte	0x17
+	.long	0x1dcb
+	.uleb128 0x21
+	.long	.LASF526
+	.long	0x43
+	.byte	0x10
+	.byte	0xdc
+	.long	0x2031
+	.uleb128 0x8
+	.long	.LASF527
+	.byte	0
+	.uleb128 0x8
+	.long	.LASF528
+	.byte	0x1
+	.uleb128 0x8
+	.long	.LASF529
+	.byte	0x2
+	.uleb128 0x8
+	.long	.LASF530
+	.byte	0x3
+	.uleb128 0x8
+	.long	.LASF531
+	.byte	0x4
+	.uleb128 0x8
+	.long	.LASF532
+	.byte	0x5
+	.uleb128 0x8
+	.long	.LASF533
+	.byte	0x6
+	.uleb128 0x8
+	.long	.LASF534
+	.byte	0x7
+	.uleb128 0x8
+	.long	.LASF535
+	.byte	0x8
+	.uleb128 0x8
+	.long	.LASF536
+	.byte	0x9
+	.uleb128 0x8
+	.long	.LASF537
+	.byte	0xa
+	.uleb128 0x8
+	.long	.LASF538
+	.byte	0xb
+	.uleb128 0x8
+	.long	.LASF539
+	.byte	0xc
+	.byte	0
+	.uleb128 0xa
+	.long	.LASF540
+	.byte	0x10
+	.byte	0xec
+	.byte	0x15
+	.long	0x1fd3
+	.uleb128 0x21
+	.long	.LASF541
+	.long	0x43
+	.byte	0x10
+	.byte	0xf2
+	.long	0x206b
+	.uleb128 0x8
+	.long	.LASF542
+	.byte	0
+	.uleb128 0x8
+	.long	.LASF543
+	.byte	0x1
+	.uleb128 0x8
+	.long	.LASF544
+	.byte	0x2
+	.uleb128 0x8
+	.long	.LASF545
+	.byte	0x3
+	.uleb128 0x8
+	.long	.LASF546
+	.byte	0x4
+	.byte	0
+	.uleb128 0xf
+	.long	.LASF547
+	.byte	0x10
+	.value	0x100
+	.byte	0xf
+	.long	0x2ee
+	.uleb128 0x6
+	.long	.LASF548
+	.byte	0x48
+	.byte	0x10
+	.value	0x11e
+	.long	0x2104
+	.uleb128 0x1
+	.long	.LASF549
+	.byte	0x10
+	.value	0x11f
+	.byte	0x6
+	.long	0x63f
+	.byte	0
+	.uleb128 0x1
+	.long	.LASF210
+	.byte	0x10
+	.value	0x120
+	.byte	0x7
+	.long	0x145b
+	.byte	0x8
+	.uleb128 0x1
+	.long	.LASF550
+	.byte	0x10
+	.value	0x121
+	.byte	0x6
+	.long	0x2e
+	.byte	0x10
+	.uleb128 0x1
+	.long	.LASF189
+	.byte	0x10
+	.value	0x122
+	.byte	0x7
+	.long	0xa7f
+	.byte	0x18
+	.uleb128 0x1
+	.long	.LASF200
+	.byte	0x10
+	.value	0x123
+	.byte	0x8
+	.long	0xb2c
+	.byte	0x20
+	.uleb128 0x1
+	.long	.LASF551
+	.byte	0x10
+	.value	0x124
+	.byte	0x8
+	.long	0x653
+	.byte	0x28
+	.uleb128 0x1
+	.long	.LASF552
+	.byte	0x10
+	.value	0x125
+	.byte	0xa
+	.long	0x206b
+	.byte	0x30
+	.uleb128 0x1
+	.long	.LASF553
+	.byte	0x10
+	.value	0x126
+	.byte	0x8
+	.long	0x14f8
+	.byte	0x38
+	.uleb128 0x1
+	.long	.LASF211
+	.byte	0x10
+	.value	0x127
+	.byte	0xb
+	.long	0x1c81
+	.byte	0x40
+	.byte	0
+	.uleb128 0xf
+	.long	.LASF554
+	.byte	0x10
+	.value	0x12a
+	.byte	0x19
+	.long	0x2111
+	.uleb128 0x7
+	.long	0x2078
+	.uleb128 0x22
+	.byte	0x8
+	.byte	0x10
+	.value	0x13a
+	.long	0x213a
+	.uleb128 0x5
+	.long	.LASF555
+	.byte	0x10
+	.value	0x13b
+	.byte	0x9
+	.long	0xcea
+	.uleb128 0x5
+	.long	.LASF556
+	.byte	0x10
+	.value	0x13c
+	.byte	0x9
+	.long	0xb2c
+	.byte	0
+	.uleb128 0x6
+	.long	.LASF108
+	.byte	0x28
+	.byte	0x10
+	.value	0x130
+	.long	0x21aa
+	.uleb128 0x3
+	.string	"tag"
+	.byte	0x10
+	.value	0x131
+	.byte	0x8
+	.long	0x2d4
+	.byte	0
+	.uleb128 0x3
+	.string	"use"
+	.byte	0x10
+	.value	0x132
+	.byte	0x8
+	.long	0x2d4
+	.byte	0x1
+	.uleb128 0x1
+	.long	.LASF202
+	.byte	0x10
+	.value	0x133
+	.byte	0x8
+	.long	0x2d4
+	.byte	0x2
+	.uleb128 0x1
+	.long	.LASF208
+	.byte	0x10
+	.value	0x135
+	.byte	0x9
+	.long	0x32f
+	.byte	0x8
+	.uleb128 0x3
+	.string	"pos"
+	.byte	0x10
+	.value	0x136
+	.byte	0xe
+	.long	0x553
+	.byte	0x10
+	.uleb128 0x1
+	.long	.LASF557
+	.byte	0x10
+	.value	0x138
+	.byte	0xa
+	.long	0x2104
+	.byte	0x18
+	.uleb128 0x1
+	.long	.LASF194
+	.byte	0x10
+	.value	0x13d
+	.byte	0x4
+	.long	0x2116
+	.byte	0x20
+	.byte	0
+	.uleb128 0x22
+	.byte	0x50
+	.byte	0x10
+	.value	0x142
+	.long	0x21e8
+	.uleb128 0x19
+	.string	"sym"
+	.byte	0x10
+	.value	0x143
+	.byte	0xa
+	.long	0x606
+	.uleb128 0x19
+	.string	"doc"
+	.byte	0x10
+	.value	0x144
+	.byte	0x7
+	.long	0x63f
+	.uleb128 0x19
+	.string	"str"
+	.byte	0x10
+	.value	0x145
+	.byte	0xa
+	.long	0x356
+	.uleb128 0x5
+	.long	.LASF209
+	.byte	0x10
+	.value	0x146
+	.byte	0x9
+	.long	0x21e8
+	.byte	0
+	.uleb128 0x14
+	.long	0x653
+	.long	0x21f8
+	.uleb128 0x15
+	.long	0x4a
+	.byte	0x9
+	.byte	0
+	.uleb128 0x6
+	.long	.LASF109
+	.byte	0x78
+	.byte	0x10
+	.value	0x140
+	.long	0x2222
+	.uleb128 0x3
+	.string	"hdr"
+	.byte	0x10
+	.value	0x141
+	.byte	0xf
+	.long	0x213a
+	.byte	0
+	.uleb128 0x1
+	.long	.LASF74
+	.byte	0x10
+	.value	0x147
+	.byte	0x4
+	.long	0x21aa
+	.byte	0x28
+	.byte	0
+	.uleb128 0x6
+	.long	.LASF110
+	.byte	0x30
+	.byte	0x10
+	.value	0x14e
+	.long	0x224c
+	.uleb128 0x3
+	.string	"hdr"
+	.byte	0x10
+	.value	0x14f
+	.byte	0xf
+	.long	0x213a
+	.byte	0
+	.uleb128 0x3
+	.string	"sym"
+	.byte	0x10
+	.value	0x150
+	.byte	0x9
+	.long	0x606
+	.byte	0x28
+	.byte	0
+	.uleb128 0x6
+	.long	.LASF111
+	.byte	0x30
+	.byte	0x10
+	.value	0x153
+	.long	0x2276
+	.uleb128 0x3
+	.string	"hdr"
+	.byte	0x10
+	.value	0x154
+	.byte	0xf
+	.long	0x213a
+	.byte	0
+	.uleb128 0x3
+	.string	"sym"
+	.byte	0x10
+	.value	0x155
+	.byte	0x9
+	.long	0x606
+	.byte	0x28
+	.byte	0
+	.uleb128 0x6
+	.long	.LASF112
+	.byte	0x30
+	.byte	0x10
+	.value	0x158
+	.long	0x22a0
+	.uleb128 0x3
+	.string	"hdr"
+	.byte	0x10
+	.value	0x159
+	.byte	0xf
+	.long	0x213a
+	.byte	0
+	.uleb128 0x3
+	.string	"sym"
+	.byte	0x10
+	.value	0x15a
+	.byte	0x9
+	.long	0x606
+	.byte	0x28
+	.byte	0
+	.uleb128 0x6
+	.long	.LASF113
+	.byte	0x30
+	.byte	0x10
+	.value	0x15d
+	.long	0x22ca
+	.uleb128 0x3
+	.string	"hdr"
+	.byte	0x10
+	.value	0x15e
+	.byte	0xf
+	.long	0x213a
+	.byte	0
+	.uleb128 0x3
+	.string	"doc"
+	.byte	0x10
+	.value	0x15f
+	.byte	0x6
+	.long	0x63f
+	.byte	0x28
+	.byte	0
+	.uleb128 0x6
+	.long	.LASF114
+	.byte	0x30
+	.byte	0x10
+	.value	0x162
+	.long	0x22f4
+	.uleb128 0x3
+	.string	"hdr"
+	.byte	0x10
+	.value	0x163
+	.byte	0xf
+	.long	0x213a
+	.byte	0
+	.uleb128 0x3
+	.string	"str"
+	.byte	0x10
+	.value	0x164
+	.byte	0x9
+	.long	0x356
+	.byte	0x28
+	.byte	0
+	.uleb128 0x6
+	.long	.LASF116
+	.byte	0x30
+	.byte	0x10
+	.value	0x167
+	.long	0x231e
+	.uleb128 0x3
+	.string	"hdr"
+	.byte	0x10
+	.value	0x168
+	.byte	0xf
+	.long	0x213a
+	.byte	0
+	.uleb128 0x3
+	.string	"str"
+	.byte	0x10
+	.value	0x169
+	.byte	0x9
+	.long	0x356
+	.byte	0x28
+	.byte	0
+	.uleb128 0x6
+	.long	.LASF115
+	.byte	0x30
+	.byte	0x10
+	.value	0x16c
+	.long	0x2348
+	.uleb128 0x3
+	.string	"hdr"
+	.byte	0x10
+	.value	0x16d
+	.byte	0xf
+	.long	0x213a
+	.byte	0
+	.uleb128 0x3
+	.string	"str"
+	.byte	0x10
+	.value	0x16e
+	.byte	0x9
+	.long	0x356
+	.byte	0x28
+	.byte	0
+	.uleb128 0x6
+	.long	.LASF117
+	.byte	0x38
+	.byte	0x10
+	.value	0x175
+	.long	0x2380
+	.uleb128 0x3
+	.string	"hdr"
+	.byte	0x10
+	.value	0x176
+	.byte	0xf
+	.long	0x213a
+	.byte	0
+	.uleb128 0x1
+	.long	.LASF558
+	.byte	0x10
+	.value	0x177
+	.byte	0x8
+	.long	0x653
+	.byte	0x28
+	.uleb128 0x1
+	.long	.LASF559
+	.byte	0x10
+	.value	0x178
+	.byte	0x8
+	.long	0x653
+	.byte	0x30
+	.byte	0
+	.uleb128 0x6
+	.long	.LASF118
+	.byte	0x78
+	.byte	0x10
+	.value	0x17b
+	.long	0x23aa
+	.uleb128 0x3
+	.string	"hdr"
+	.byte	0x10
+	.value	0x17c
+	.byte	0xf
+	.long	0x213a
+	.byte	0
+	.uleb128 0x1
+	.long	.LASF209
+	.byte	0x10
+	.value	0x17d
+	.byte	0x8
+	.long	0x21e8
+	.byte	0x28
+	.byte	0
+	.uleb128 0x6
+	.long	.LASF119
+	.byte	0x80
+	.byte	0x10
+	.value	0x180
+	.long	0x23e1
+	.uleb128 0x3
+	.string	"hdr"
+	.byte	0x10
+	.value	0x181
+	.byte	0xf
+	.long	0x213a
+	.byte	0
+	.uleb128 0x3
+	.string	"op"
+	.byte	0x10
+	.value	0x182
+	.byte	0x8
+	.long	0x653
+	.byte	0x28
+	.uleb128 0x1
+	.long	.LASF209
+	.byte	0x10
+	.value	0x183
+	.byte	0x8
+	.long	0x21e8
+	.byte	0x30
+	.byte	0
+	.uleb128 0x6
+	.long	.LASF120
+	.byte	0x30
+	.byte	0x10
+	.value	0x186
+	.long	0x240b
+	.uleb128 0x3
+	.string	"hdr"
+	.byte	0x10
+	.value	0x187
+	.byte	0xf
+	.long	0x213a
+	.byte	0
+	.uleb128 0x1
+	.long	.LASF560
+	.byte	0x10
+	.value	0x188
+	.byte	0x8
+	.long	0x653
+	.byte	0x28
+	.byte	0
+	.uleb128 0x6
+	.long	.LASF121
+	.byte	0x38
+	.byte	0x10
+	.value	0x18b
+	.long	0x2443
+	.uleb128 0x3
+	.string	"hdr"
+	.byte	0x10
+	.value	0x18c
+	.byte	0xf
+	.long	0x213a
+	.byte	0
+	.uleb128 0x3
+	.string	"lhs"
+	.byte	0x10
+	.value	0x18d
+	.byte	0x8
+	.long	0x653
+	.byte	0x28
+	.uleb128 0x3
+	.string	"rhs"
+	.byte	0x10
+	.value	0x18e
+	.byte	0x8
+	.long	0x653
+	.byte	0x30
+	.byte	0
+	.uleb128 0x6
+	.long	.LASF122
+	.byte	0x30
+	.byte	0x10
+	.value	0x191
+	.long	0x246d
+	.uleb128 0x3
+	.string	"hdr"
+	.byte	0x10
+	.value	0x192
+	.byte	0xf
+	.long	0x213a
+	.byte	0
+	.uleb128 0x1
+	.long	.LASF561
+	.byte	0x10
+	.value	0x193
+	.byte	0x8
+	.long	0x653
+	.byte	0x28
+	.byte	0
+	.uleb128 0x6
+	.long	.LASF123
+	.byte	0x30
+	.byte	0x10
+	.value	0x196
+	.long	0x2497
+	.uleb128 0x3
+	.string	"hdr"
+	.byte	0x10
+	.value	0x197
+	.byte	0xf
+	.long	0x213a
+	.byte	0
+	.uleb128 0x1
+	.long	.LASF562
+	.byte	0x10
+	.value	0x198
+	.byte	0x8
+	.long	0x653
+	.byte	0x28
+	.byte	0
+	.uleb128 0x6
+	.long	.LASF124
+	.byte	0x38
+	.byte	0x10
+	.value	0x19b
+	.long	0x24ce
+	.uleb128 0x3
+	.string	"hdr"
+	.byte	0x10
+	.value	0x19c
+	.byte	0xf
+	.long	0x213a
+	.byte	0
+	.uleb128 0x3
+	.string	"id"
+	.byte	0x10
+	.value	0x19d
+	.byte	0x8
+	.long	0x653
+	.byte	0x28
+	.uleb128 0x1
+	.long	.LASF194
+	.byte	0x10
+	.value	0x19e
+	.byte	0x8
+	.long	0x653
+	.byte	0x30
+	.byte	0
+	.uleb128 0x6
+	.long	.LASF131
+	.byte	0x30
+	.byte	0x10
+	.value	0x1a1
+	.long	0x24f8
+	.uleb128 0x3
+	.string	"hdr"
+	.byte	0x10
+	.value	0x1a2
+	.byte	0xf
+	.long	0x213a
+	.byte	0
+	.uleb128 0x1
+	.long	.LASF563
+	.byte	0x10
+	.value	0x1a3
+	.byte	0x8
+	.long	0x653
+	.byte	0x28
+	.byte	0
+	.uleb128 0x6
+	.long	.LASF132
+	.byte	0x38
+	.byte	0x10
+	.value	0x1a6
+	.long	0x2530
+	.uleb128 0x3
+	.string	"hdr"
+	.byte	0x10
+	.value	0x1a7
+	.byte	0xf
+	.long	0x213a
+	.byte	0
+	.uleb128 0x1
+	.long	.LASF563
+	.byte	0x10
+	.value	0x1a8
+	.byte	0x8
+	.long	0x653
+	.byte	0x28
+	.uleb128 0x3
+	.string	"doc"
+	.byte	0x10
+	.value	0x1a9
+	.byte	0x8
+	.long	0x653
+	.byte	0x30
+	.byte	0
+	.uleb128 0x6
+	.long	.LASF125
+	.byte	0x38
+	.byte	0x10
+	.value	0x1ac
+	.long	0x2568
+	.uleb128 0x3
+	.string	"hdr"
+	.byte	0x10
+	.value	0x1ad
+	.byte	0xf
+	.long	0x213a
+	.byte	0
+	.uleb128 0x1
+	.long	.LASF563
+	.byte	0x10
+	.value	0x1ae
+	.byte	0x8
+	.long	0x653
+	.byte	0x28
+	.uleb128 0x1
+	.long	.LASF194
+	.byte	0x10
+	.value	0x1af
+	.byte	0x8
+	.long	0x653
+	.byte	0x30
+	.byte	0
+	.uleb128 0x6
+	.long	.LASF126
+	.byte	0x80
+	.byte	0x10
+	.value	0x1b2
+	.long	0x25a0
+	.uleb128 0x3
+	.string	"hdr"
+	.byte	0x10
+	.value	0x1b3
+	.byte	0xf
+	.long	0x213a
+	.byte	0
+	.uleb128 0x1
+	.long	.LASF564
+	.byte	0x10
+	.value	0x1b4
+	.byte	0x8
+	.long	0x653
+	.byte	0x28
+	.uleb128 0x1
+	.long	.LASF565
+	.byte	0x10
+	.value	0x1b5
+	.byte	0x8
+	.long	0x21e8
+	.byte	0x30
+	.byte	0
+	.uleb128 0x6
+	.long	.LASF127
+	.byte	0x78
+	.byte	0x10
+	.value	0x1b8
+	.long	0x25ca
+	.uleb128 0x3
+	.string	"hdr"
+	.byte	0x10
+	.value	0x1b9
+	.byte	0xf
+	.long	0x213a
+	.byte	0
+	.uleb128 0x1
+	.long	.LASF209
+	.byte	0x10
+	.value	0x1ba
+	.byte	0x8
+	.long	0x21e8
+	.byte	0x28
+	.byte	0
+	.uleb128 0x6
+	.long	.LASF128
+	.byte	0x30
+	.byte	0x10
+	.value	0x1bd
+	.long	0x25f4
+	.uleb128 0x3
+	.string	"hdr"
+	.byte	0x10
+	.value	0x1be
+	.byte	0xf
+	.long	0x213a
+	.byte	0
+	.uleb128 0x1
+	.long	.LASF564
+	.byte	0x10
+	.value	0x1bf
+	.byte	0x8
+	.long	0x653
+	.byte	0x28
+	.byte	0
+	.uleb128 0x6
+	.long	.LASF129
+	.byte	0x38
+	.byte	0x10
+	.value	0x1c2
+	.long	0x262c
+	.uleb128 0x3
+	.string	"hdr"
+	.byte	0x10
+	.value	0x1c3
+	.byte	0xf
+	.long	0x213a
+	.byte	0
+	.uleb128 0x3
+	.string	"lhs"
+	.byte	0x10
+	.value	0x1c4
+	.byte	0x8
+	.long	0x653
+	.byte	0x28
+	.uleb128 0x3
+	.string	"rhs"
+	.byte	0x10
+	.value	0x1c5
+	.byte	0x8
+	.long	0x653
+	.byte	0x30
+	.byte	0
+	.uleb128 0x6
+	.long	.LASF130
+	.byte	0x30
+	.byte	0x10
+	.value	0x1c8
+	.long	0x2656
+	.uleb128 0x3
+	.string	"hdr"
+	.byte	0x10
+	.value	0x1c9
+	.byte	0xf
+	.long	0x213a
+	.byte	0
+	.uleb128 0x1
+	.long	.LASF564
+	.byte	0x10
+	.value	0x1ca
+	.byte	0x8
+	.long	0x653
+	.byte	0x28
+	.byte	0
+	.uleb128 0x6
+	.long	.LASF133
+	.byte	0x38
+	.byte	0x10
+	.value	0x1cd
+	.long	0x268e
+	.uleb128 0x3
+	.string	"hdr"
+	.byte	0x10
+	.value	0x1ce
+	.byte	0xf
+	.long	0x213a
+	.byte	0
+	.uleb128 0x1
+	.long	.LASF194
+	.byte	0x10
+	.value	0x1cf
+	.byte	0x8
+	.long	0x653
+	.byte	0x28
+	.uleb128 0x1
+	.long	.LASF566
+	.byte	0x10
+	.value	0x1d0
+	.byte	0x8
+	.long	0x653
+	.byte	0x30
+	.byte	0
+	.uleb128 0x6
+	.long	.LASF134
+	.byte	0x38
+	.byte	0x10
+	.value	0x1d3
+	.long	0x26c6
+	.uleb128 0x3
+	.string	"hdr"
+	.byte	0x10
+	.value	0x1d4
+	.byte	0xf
+	.long	0x213a
+	.byte	0
+	.uleb128 0x1
+	.long	.LASF560
+	.byte	0x10
+	.value	0x1d5
+	.byte	0x8
+	.long	0x653
+	.byte	0x28
+	.uleb128 0x1
+	.long	.LASF567
+	.byte	0x10
+	.value	0x1d6
+	.byte	0x8
+	.long	0x653
+	.byte	0x30
+	.byte	0
+	.uleb128 0x6
+	.long	.LASF135
+	.byte	0x40
+	.byte	0x10
+	.value	0x1d9
+	.long	0x270c
+	.uleb128 0x3
+	.string	"hdr"
+	.byte	0x10
+	.value	0x1da
+	.byte	0xf
+	.long	0x213a
+	.byte	0
+	.uleb128 0x1
+	.long	.LASF562
+	.byte	0x10
+	.value	0x1db
+	.byte	0x8
+	.long	0x653
+	.byte	0x28
+	.uleb128 0x1
+	.long	.LASF568
+	.byte	0x10
+	.value	0x1dc
+	.byte	0x8
+	.long	0x653
+	.byte	0x30
+	.uleb128 0x1
+	.long	.LASF569
+	.byte	0x10
+	.value	0x1dd
+	.byte	0x8
+	.long	0x653
+	.byte	0x38
+	.byte	0
+	.uleb128 0x6
+	.long	.LASF136
+	.byte	0x30
+	.byte	0x10
+	.value	0x1e0
+	.long	0x2736
+	.uleb128 0x3
+	.string	"hdr"
+	.byte	0x10
+	.value	0x1e1
+	.byte	0xf
+	.long	0x213a
+	.byte	0
+	.uleb128 0x1
+	.long	.LASF564
+	.byte	0x10
+	.value	0x1e2
+	.byte	0x8
+	.long	0x653
+	.byte	0x28
+	.byte	0
+	.uleb128 0x6
+	.long	.LASF137
+	.byte	0x30
+	.byte	0x10
+	.value	0x1e5
+	.long	0x2760
+	.uleb128 0x3
+	.string	"hdr"
+	.byte	0x10
+	.value	0x1e6
+	.byte	0xf
+	.long	0x213a
+	.byte	0
+	.uleb128 0x1
+	.long	.LASF570
+	.byte	0x10
+	.value	0x1e7
+	.byte	0x8
+	.long	0x653
+	.byte	0x28
+	.byte	0
+	.uleb128 0x6
+	.long	.LASF138
+	.byte	0x78
+	.byte	0x10
+	.value	0x1ea
+	.long	0x278a
+	.uleb128 0x3
+	.string	"hdr"
+	.byte	0x10
+	.value	0x1eb
+	.byte	0xf
+	.long	0x213a
+	.byte	0
+	.uleb128 0x1
+	.long	.LASF209
+	.byte	0x10
+	.value	0x1ec
+	.byte	0x8
+	.long	0x21e8
+	.byte	0x28
+	.byte	0
+	.uleb128 0x6
+	.long	.LASF139
+	.byte	0x40
+	.byte	0x10
+	.value	0x1ef
+	.long	0x27d0
+	.uleb128 0x3
+	.string	"hdr"
+	.byte	0x10
+	.value	0x1f0
+	.byte	0xf
+	.long	0x213a
+	.byte	0
+	.uleb128 0x3
+	.string	"lhs"
+	.byte	0x10
+	.value	0x1f1
+	.byte	0x8
+	.long	0x653
+	.byte	0x28
+	.uleb128 0x1
+	.long	.LASF571
+	.byte	0x10
+	.value	0x1f2
+	.byte	0x8
+	.long	0x653
+	.byte	0x30
+	.uleb128 0x1
+	.long	.LASF560
+	.byte	0x10
+	.value	0x1f3
+	.byte	0x8
+	.long	0x653
+	.byte	0x38
+	.byte	0
+	.uleb128 0x6
+	.long	.LASF140
+	.byte	0x38
+	.byte	0x10
+	.value	0x1f6
+	.long	0x2808
+	.uleb128 0x3
+	.string	"hdr"
+	.byte	0x10
+	.value	0x1f7
+	.byte	0xf
+	.long	0x213a
+	.byte	0
+	.uleb128 0x1
+	.long	.LASF562
+	.byte	0x10
+	.value	0x1f8
+	.byte	0x8
+	.long	0x653
+	.byte	0x28
+	.uleb128 0x1
+	.long	.LASF568
+	.byte	0x10
+	.value	0x1f9
+	.byte	0x8
+	.long	0x653
+	.byte	0x30
+	.byte	0
+	.uleb128 0x6
+	.long	.LASF141
+	.byte	0x38
+	.byte	0x10
+	.value	0x1fc
+	.long	0x2840
+	.uleb128 0x3
+	.string	"hdr"
+	.byte	0x10
+	.value	0x1fd
+	.byte	0xf
+	.long	0x213a
+	.byte	0
+	.uleb128 0x1
+	.long	.LASF562
+	.byte	0x10
+	.value	0x1fe
+	.byte	0x8
+	.long	0x653
+	.byte	0x28
+	.uleb128 0x1
+	.long	.LASF572
+	.byte	0x10
+	.value	0x1ff
+	.byte	0x8
+	.long	0x653
+	.byte	0x30
+	.byte	0
+	.uleb128 0x6
+	.long	.LASF142
+	.byte	0x78
+	.byte	0x10
+	.value	0x202
+	.long	0x286a
+	.uleb128 0x3
+	.string	"hdr"
+	.byte	0x10
+	.value	0x203
+	.byte	0xf
+	.long	0x213a
+	.byte	0
+	.uleb128 0x1
+	.long	.LASF209
+	.byte	0x10
+	.value	0x204
+	.byte	0x8
+	.long	0x21e8
+	.byte	0x28
+	.byte	0
+	.uleb128 0x6
+	.long	.LASF143
+	.byte	0x38
+	.byte	0x10
+	.value	0x207
+	.long	0x28a2
+	.uleb128 0x3
+	.string	"hdr"
+	.byte	0x10
+	.value	0x208
+	.byte	0xf
+	.long	0x213a
+	.byte	0
+	.uleb128 0x1
+	.long	.LASF98
+	.byte	0x10
+	.value	0x209
+	.byte	0x8
+	.long	0x653
+	.byte	0x28
+	.uleb128 0x1
+	.long	.LASF564
+	.byte	0x10
+	.value	0x20a
+	.byte	0x8
+	.long	0x653
+	.byte	0x30
+	.byte	0
+	.uleb128 0x6
+	.long	.LASF144
+	.byte	0x30
+	.byte	0x10
+	.value	0x20d
+	.long	0x28cc
+	.uleb128 0x3
+	.string	"hdr"
+	.byte	0x10
+	.value	0x20e
+	.byte	0xf
+	.long	0x213a
+	.byte	0
+	.uleb128 0x1
+	.long	.LASF561
+	.byte	0x10
+	.value	0x20f
+	.byte	0x8
+	.long	0x653
+	.byte	0x28
+	.byte	0
+	.uleb128 0x6
+	.long	.LASF145
+	.byte	0x38
+	.byte	0x10
+	.value	0x212
+	.long	0x2904
+	.uleb128 0x3
+	.string	"hdr"
+	.byte	0x10
+	.value	0x213
+	.byte	0xf
+	.long	0x213a
+	.byte	0
+	.uleb128 0x1
+	.long	.LASF563
+	.byte	0x10
+	.value	0x214
+	.byte	0x8
+	.long	0x653
+	.byte	0x28
+	.uleb128 0x1
+	.long	.LASF573
+	.byte	0x10
+	.value	0x215
+	.byte	0x8
+	.long	0x653
+	.byte	0x30
+	.byte	0
+	.uleb128 0x6
+	.long	.LASF146
+	.byte	0x30
+	.byte	0x10
+	.value	0x218
+	.long	0x292e
+	.uleb128 0x3
+	.string	"hdr"
+	.byte	0x10
+	.value	0x219
+	.byte	0xf
+	.long	0x213a
+	.byte	0
+	.uleb128 0x1
+	.long	.LASF194
+	.byte	0x10
+	.value	0x21a
+	.byte	0x8
+	.long	0x653
+	.byte	0x28
+	.byte	0
+	.uleb128 0x6
+	.long	.LASF147
+	.byte	0x30
+	.byte	0x10
+	.value	0x21d
+	.long	0x2958
+	.uleb128 0x3
+	.string	"hdr"
+	.byte	0x10
+	.value	0x21e
+	.byte	0xf
+	.long	0x213a
+	.byte	0
+	.uleb128 0x1
+	.long	.LASF563
+	.byte	0x10
+	.value	0x21f
+	.byte	0x8
+	.long	0x653
+	.byte	0x28
+	.byte	0
+	.uleb128 0x6
+	.long	.LASF148
+	.byte	0x40
+	.byte	0x10
+	.value	0x222
+	.long	0x299e
+	.uleb128 0x3
+	.string	"hdr"
+	.byte	0x10
+	.value	0x223
+	.byte	0xf
+	.long	0x213a
+	.byte	0
+	.uleb128 0x1
+	.long	.LASF560
+	.byte	0x10
+	.value	0x224
+	.byte	0x8
+	.long	0x653
+	.byte	0x28
+	.uleb128 0x1
+	.long	.LASF574
+	.byte	0x10
+	.value	0x225
+	.byte	0x8
+	.long	0x653
+	.byte	0x30
+	.uleb128 0x1
+	.long	.LASF575
+	.byte	0x10
+	.value	0x226
+	.byte	0x8
+	.long	0x653
+	.byte	0x38
+	.byte	0
+	.uleb128 0x6
+	.long	.LASF149
+	.byte	0x38
+	.byte	0x10
+	.value	0x229
+	.long	0x29d6
+	.uleb128 0x3
+	.string	"hdr"
+	.byte	0x10
+	.value	0x22a
+	.byte	0xf
+	.long	0x213a
+	.byte	0
+	.uleb128 0x1
+	.long	.LASF562
+	.byte	0x10
+	.value	0x22b
+	.byte	0x8
+	.long	0x653
+	.byte	0x28
+	.uleb128 0x1
+	.long	.LASF568
+	.byte	0x10
+	.value	0x22c
+	.byte	0x8
+	.long	0x653
+	.byte	0x30
+	.byte	0
+	.uleb128 0x6
+	.long	.LASF150
+	.byte	0x38
+	.byte	0x10
+	.value	0x22f
+	.long	0x2a0e
+	.uleb128 0x3
+	.string	"hdr"
+	.byte	0x10
+	.value	0x230
+	.byte	0xf
+	.long	0x213a
+	.byte	0
+	.uleb128 0x1
+	.long	.LASF562
+	.byte	0x10
+	.value	0x231
+	.byte	0x8
+	.long	0x653
+	.byte	0x28
+	.uleb128 0x1
+	.long	.LASF568
+	.byte	0x10
+	.value	0x232
+	.byte	0x8
+	.long	0x653
+	.byte	0x30
+	.byte	0
+	.uleb128 0x6
+	.long	.LASF151
+	.byte	0x30
+	.byte	0x10
+	.value	0x235
+	.long	0x2a38
+	.uleb128 0x3
+	.string	"hdr"
+	.byte	0x10
+	.value	0x236
+	.byte	0xf
+	.long	0x213a
+	.byte	0
+	.uleb128 0x1
+	.long	.LASF561
+	.byte	0x10
+	.value	0x237
+	.byte	0x8
+	.long	0x653
+	.byte	0x28
+	.byte	0
+	.uleb128 0x6
+	.long	.LASF152
+	.byte	0x38
+	.byte	0x10
+	.value	0x23a
+	.long	0x2a70
+	.uleb128 0x3
+	.string	"hdr"
+	.byte	0x10
+	.value	0x23b
+	.byte	0xf
+	.long	0x213a
+	.byte	0
+	.uleb128 0x1
+	.long	.LASF561
+	.byte	0x10
+	.value	0x23c
+	.byte	0x8
+	.long	0x653
+	.byte	0x28
+	.uleb128 0x1
+	.long	.LASF563
+	.byte	0x10
+	.value	0x23d
+	.byte	0x8
+	.long	0x653
+	.byte	0x30
+	.byte	0
+	.uleb128 0x6
+	.long	.LASF153
+	.byte	0x40
+	.byte	0x10
+	.value	0x240
+	.long	0x2ab6
+	.uleb128 0x3
+	.string	"hdr"
+	.byte	0x10
+	.value	0x241
+	.byte	0xf
+	.long	0x213a
+	.byte	0
+	.uleb128 0x1
+	.long	.LASF576
+	.byte	0x10
+	.value	0x242
+	.byte	0x8
+	.long	0x653
+	.byte	0x28
+	.uleb128 0x1
+	.long	.LASF577
+	.byte	0x10
+	.value	0x243
+	.byte	0x8
+	.long	0x653
+	.byte	0x30
+	.uleb128 0x1
+	.long	.LASF564
+	.byte	0x10
+	.value	0x244
+	.byte	0x8
+	.long	0x653
+	.byte	0x38
+	.byte	0
+	.uleb128 0x6
+	.long	.LASF154
+	.byte	0x38
+	.byte	0x10
+	.value	0x247
+	.long	0x2aee
+	.uleb128 0x3
+	.string	"hdr"
+	.byte	0x10
+	.value	0x248
+	.byte	0xf
+	.long	0x213a
+	.byte	0
+	.uleb128 0x1
+	.long	.LASF578
+	.byte	0x10
+	.value	0x249
+	.byte	0x8
+	.long	0x653
+	.byte	0x28
+	.uleb128 0x1
+	.long	.LASF563
+	.byte	0x10
+	.value	0x24a
+	.byte	0x8
+	.long	0x653
+	.byte	0x30
+	.byte	0
+	.uleb128 0x6
+	.long	.LASF155
+	.byte	0x78
+	.byte	0x10
+	.value	0x24d
+	.long	0x2b18
+	.uleb128 0x3
+	.string	"hdr"
+	.byte	0x10
+	.value	0x24e
+	.byte	0xf
+	.long	0x213a
+	.byte	0
+	.uleb128 0x1
+	.long	.LASF209
+	.byte	0x10
+	.value	0x24f
+	.byte	0x8
+	.long	0x21e8
+	.byte	0x28
+	.byte	0
+	.uleb128 0x6
+	.long	.LASF156
+	.byte	0x30
+	.byte	0x10
+	.value	0x252
+	.long	0x2b42
+	.uleb128 0x3
+	.string	"hdr"
+	.byte	0x10
+	.value	0x253
+	.byte	0xf
+	.long	0x213a
+	.byte	0
+	.uleb128 0x1
+	.long	.LASF563
+	.byte	0x10
+	.value	0x254
+	.byte	0x8
+	.long	0x653
+	.byte	0x28
+	.byte	0
+	.uleb128 0x6
+	.long	.LASF157
+	.byte	0x38
+	.byte	0x10
+	.value	0x257
+	.long	0x2b7a
+	.uleb128 0x3
+	.string	"hdr"
+	.byte	0x10
+	.value	0x258
+	.byte	0xf
+	.long	0x213a
+	.byte	0
+	.uleb128 0x3
+	.string	"lhs"
+	.byte	0x10
+	.value	0x259
+	.byte	0x8
+	.long	0x653
+	.byte	0x28
+	.uleb128 0x3
+	.string	"rhs"
+	.byte	0x10
+	.value	0x25a
+	.byte	0x8
+	.long	0x653
+	.byte	0x30
+	.byte	0
+	.uleb128 0x6
+	.long	.LASF158
+	.byte	0x38
+	.byte	0x10
+	.value	0x25d
+	.long	0x2bb2
+	.uleb128 0x3
+	.string	"hdr"
+	.byte	0x10
+	.value	0x25e
+	.byte	0xf
+	.long	0x213a
+	.byte	0
+	.uleb128 0x1
+	.long	.LASF576
+	.byte	0x10
+	.value	0x25f
+	.byte	0x8
+	.long	0x653
+	.byte	0x28
+	.uleb128 0x1
+	.long	.LASF564
+	.byte	0x10
+	.value	0x260
+	.byte	0x8
+	.long	0x653
+	.byte	0x30
+	.byte	0
+	.uleb128 0x6
+	.long	.LASF159
+	.byte	0x28
+	.byte	0x10
+	.value	0x263
+	.long	0x2bce
+	.uleb128 0x3
+	.string	"hdr"
+	.byte	0x10
+	.value	0x264
+	.byte	0xf
+	.long	0x213a
+	.byte	0
+	.byte	0
+	.uleb128 0x6
+	.long	.LASF160
+	.byte	0x30
+	.byte	0x10
+	.value	0x267
+	.long	0x2bf8
+	.uleb128 0x3
+	.string	"hdr"
+	.byte	0x10
+	.value	0x268
+	.byte	0xf
+	.long	0x213a
+	.byte	0
+	.uleb128 0x1
+	.long	.LASF563
+	.byte	0x10
+	.value	0x269
+	.byte	0x8
+	.long	0x653
+	.byte	0x28
+	.byte	0
+	.uleb128 0x6
+	.long	.LASF161
+	.byte	0x28
+	.byte	0x10
+	.value	0x26c
+	.long	0x2c14
+	.uleb128 0x3
+	.string	"hdr"
+	.byte	0x10
+	.value	0x26d
+	.byte	0xf
+	.long	0x213a
+	.byte	0
+	.byte	0
+	.uleb128 0x6
+	.long	.LASF162
+	.byte	0x78
+	.byte	0x10
+	.value	0x270
+	.long	0x2c3e
+	.uleb128 0x3
+	.string	"hdr"
+	.byte	0x10
+	.value	0x271
+	.byte	0xf
+	.long	0x213a
+	.byte	0
+	.uleb128 0x1
+	.long	.LASF209
+	.byte	0x10
+	.value	0x272
+	.byte	0x8
+	.long	0x21e8
+	.byte	0x28
+	.byte	0
+	.uleb128 0x6
+	.long	.LASF163
+	.byte	0x30
+	.byte	0x10
+	.value	0x275
+	.long	0x2c68
+	.uleb128 0x3
+	.string	"hdr"
+	.byte	0x10
+	.value	0x276
+	.byte	0xf
+	.long	0x213a
+	.byte	0
+	.uleb128 0x1
+	.long	.LASF563
+	.byte	0x10
+	.value	0x277
+	.byte	0x8
+	.long	0x653
+	.byte	0x28
+	.byte	0
+	.uleb128 0x6
+	.long	.LASF164
+	.byte	0x40
+	.byte	0x10
+	.value	0x27a
+	.long	0x2cae
+	.uleb128 0x3
+	.string	"hdr"
+	.byte	0x10
+	.value	0x27b
+	.byte	0xf
+	.long	0x213a
+	.byte	0
+	.uleb128 0x1
+	.long	.LASF576
+	.byte	0x10
+	.value	0x27c
+	.byte	0x8
+	.long	0x653
+	.byte	0x28
+	.uleb128 0x1
+	.long	.LASF577
+	.byte	0x10
+	.value	0x27d
+	.byte	0x8
+	.long	0x653
+	.byte	0x30
+	.uleb128 0x1
+	.long	.LASF564
+	.byte	0x10
+	.value	0x27e
+	.byte	0x8
+	.long	0x653
+	.byte	0x38
+	.byte	0
+	.uleb128 0x6
+	.long	.LASF165
+	.byte	0x38
+	.byte	0x10
+	.value	0x281
+	.long	0x2ce6
+	.uleb128 0x3
+	.string	"hdr"
+	.byte	0x10
+	.value	0x282
+	.byte	0xf
+	.long	0x213a
+	.byte	0
+	.uleb128 0x1
+	.long	.LASF563
+	.byte	0x10
+	.value	0x283
+	.byte	0x8
+	.long	0x653
+	.byte	0x28
+	.uleb128 0x1
+	.long	.LASF194
+	.byte	0x10
+	.value	0x284
+	.byte	0x8
+	.long	0x653
+	.byte	0x30
+	.byte	0
+	.uleb128 0x6
+	.long	.LASF166
+	.byte	0x38
+	.byte	0x10
+	.value	0x287
+	.long	0x2d1e
+	.uleb128 0x3
+	.string	"hdr"
+	.byte	0x10
+	.value	0x288
+	.byte	0xf
+	.long	0x213a
+	.byte	0
+	.uleb128 0x1
+	.long	.LASF562
+	.byte	0x10
+	.value	0x289
+	.byte	0x8
+	.long	0x653
+	.byte	0x28
+	.uleb128 0x1
+	.long	.LASF568
+	.byte	0x10
+	.value	0x28a
+	.byte	0x8
+	.long	0x653
+	.byte	0x30
+	.byte	0
+	.uleb128 0x6
+	.long	.LASF167
+	.byte	0x30
+	.byte	0x10
+	.value	0x28d
+	.long	0x2d48
+	.uleb128 0x3
+	.string	"hdr"
+	.byte	0x10
+	.value	0x28e
+	.byte	0xf
+	.long	0x213a
+	.byte	0
+	.uleb128 0x1
+	.long	.LASF563
+	.byte	0x10
+	.value	0x28f
+	.byte	0x8
+	.long	0x653
+	.byte	0x28
+	.byte	0
+	.uleb128 0x6
+	.long	.LASF168
+	.byte	0x30
+	.byte	0x10
+	.value	0x292
+	.long	0x2d72
+	.uleb128 0x3
+	.string	"hdr"
+	.byte	0x10
+	.value	0x293
+	.byte	0xf
+	.long	0x213a
+	.byte	0
+	.uleb128 0x1
+	.long	.LASF564
+	.byte	0x10
+	.value	0x294
+	.byte	0x8
+	.long	0x653
+	.byte	0x28
+	.byte	0
+	.uleb128 0x6
+	.long	.LASF169
+	.byte	0x80
+	.byte	0x10
+	.value	0x297
+	.long	0x2daa
+	.uleb128 0x3
+	.string	"hdr"
+	.byte	0x10
+	.value	0x298
+	.byte	0xf
+	.long	0x213a
+	.byte	0
+	.uleb128 0x1
+	.long	.LASF564
+	.byte	0x10
+	.value	0x299
+	.byte	0x8
+	.long	0x653
+	.byte	0x28
+	.uleb128 0x1
+	.long	.LASF565
+	.byte	0x10
+	.value	0x29a
+	.byte	0x8
+	.long	0x21e8
+	.byte	0x30
+	.byte	0
+	.uleb128 0x6
+	.long	.LASF170
+	.byte	0x38
+	.byte	0x10
+	.value	0x29d
+	.long	0x2de2
+	.uleb128 0x3
+	.string	"hdr"
+	.byte	0x10
+	.value	0x29e
+	.byte	0xf
+	.long	0x213a
+	.byte	0
+	.uleb128 0x1
+	.long	.LASF563
+	.byte	0x10
+	.value	0x29f
+	.byte	0x8
+	.long	0x653
+	.byte	0x28
+	.uleb128 0x1
+	.long	.LASF194
+	.byte	0x10
+	.value	0x2a0
+	.byte	0x8
+	.long	0x653
+	.byte	0x30
+	.byte	0
+	.uleb128 0x6
+	.long	.LASF171
+	.byte	0x38
+	.byte	0x10
+	.value	0x2a3
+	.long	0x2e1a
+	.uleb128 0x3
+	.string	"hdr"
+	.byte	0x10
+	.value	0x2a4
+	.byte	0xf
+	.long	0x213a
+	.byte	0
+	.uleb128 0x1
+	.long	.LASF563
+	.byte	0x10
+	.value	0x2a5
+	.byte	0x8
+	.long	0x653
+	.byte	0x28
+	.uleb128 0x1
+	.long	.LASF194
+	.byte	0x10
+	.value	0x2a6
+	.byte	0x8
+	.long	0x653
+	.byte	0x30
+	.byte	0
+	.uleb128 0x6
+	.long	.LASF172
+	.byte	0x30
+	.byte	0x10
+	.value	0x2a9
+	.long	0x2e44
+	.uleb128 0x3
+	.string	"hdr"
+	.byte	0x10
+	.value	0x2aa
+	.byte	0xf
+	.long	0x213a
+	.byte	0
+	.uleb128 0x1
+	.long	.LASF567
+	.byte	0x10
+	.value	0x2ab
+	.byte	0x8
+	.long	0x653
+	.byte	0x28
+	.byte	0
+	.uleb128 0x6
+	.long	.LASF173
+	.byte	0x38
+	.byte	0x10
+	.value	0x2ae
+	.long	0x2e7c
+	.uleb128 0x3
+	.string	"hdr"
+	.byte	0x10
+	.value	0x2af
+	.byte	0xf
+	.long	0x213a
+	.byte	0
+	.uleb128 0x1
+	.long	.LASF579
+	.byte	0x10
+	.value	0x2b0
+	.byte	0x8
+	.long	0x653
+	.byte	0x28
+	.uleb128 0x1
+	.long	.LASF580
+	.byte	0x10
+	.value	0x2b1
+	.byte	0x8
+	.long	0x653
+	.byte	0x30
+	.byte	0
+	.uleb128 0x6
+	.long	.LASF174
+	.byte	0x78
+	.byte	0x10
+	.value	0x2b4
+	.long	0x2ea6
+	.uleb128 0x3
+	.string	"hdr"
+	.byte	0x10
+	.value	0x2b5
+	.byte	0xf
+	.long	0x213a
+	.byte	0
+	.uleb128 0x1
+	.long	.LASF209
+	.byte	0x10
+	.value	0x2b6
+	.byte	0x8
+	.long	0x21e8
+	.byte	0x28
+	.byte	0
+	.uleb128 0x6
+	.long	.LASF175
+	.byte	0x30
+	.byte	0x10
+	.value	0x2b9
+	.long	0x2ed0
+	.uleb128 0x3
+	.string	"hdr"
+	.byte	0x10
+	.value	0x2ba
+	.byte	0xf
+	.long	0x213a
+	.byte	0
+	.uleb128 0x1
+	.long	.LASF581
+	.byte	0x10
+	.value	0x2bb
+	.byte	0x8
+	.long	0x653
+	.byte	0x28
+	.byte	0
+	.uleb128 0x6
+	.long	.LASF176
+	.byte	0x48
+	.byte	0x10
+	.value	0x2be
+	.long	0x2f23
+	.uleb128 0x3
+	.string	"hdr"
+	.byte	0x10
+	.value	0x2bf
+	.byte	0xf
+	.long	0x213a
+	.byte	0
+	.uleb128 0x1
+	.long	.LASF563
+	.byte	0x10
+	.value	0x2c0
+	.byte	0x8
+	.long	0x653
+	.byte	0x28
+	.uleb128 0x3
+	.string	"id"
+	.byte	0x10
+	.value	0x2c1
+	.byte	0x8
+	.long	0x653
+	.byte	0x30
+	.uleb128 0x1
+	.long	.LASF566
+	.byte	0x10
+	.value	0x2c2
+	.byte	0x8
+	.long	0x653
+	.byte	0x38
+	.uleb128 0x1
+	.long	.LASF582
+	.byte	0x10
+	.value	0x2c3
+	.byte	0x8
+	.long	0x653
+	.byte	0x40
+	.byte	0
+	.uleb128 0x6
+	.long	.LASF177
+	.byte	0x38
+	.byte	0x10
+	.value	0x2c6
+	.long	0x2f5b
+	.uleb128 0x3
+	.string	"hdr"
+	.byte	0x10
+	.value	0x2c7
+	.byte	0xf
+	.long	0x213a
+	.byte	0
+	.uleb128 0x1
+	.long	.LASF578
+	.byte	0x10
+	.value	0x2c8
+	.byte	0x8
+	.long	0x653
+	.byte	0x28
+	.uleb128 0x1
+	.long	.LASF563
+	.byte	0x10
+	.value	0x2c9
+	.byte	0x8
+	.long	0x653
+	.byte	0x30
+	.byte	0
+	.uleb128 0x6
+	.long	.LASF178
+	.byte	0x30
+	.byte	0x10
+	.value	0x2cc
+	.long	0x2f85
+	.uleb128 0x3
+	.string	"hdr"
+	.byte	0x10
+	.value	0x2cd
+	.byte	0xf
+	.long	0x213a
+	.byte	0
+	.uleb128 0x1
+	.long	.LASF560
+	.byte	0x10
+	.value	0x2ce
+	.byte	0x8
+	.long	0x653
+	.byte	0x28
+	.byte	0
+	.uleb128 0x6
+	.long	.LASF179
+	.byte	0x38
+	.byte	0x10
+	.value	0x2d1
+	.long	0x2fbd
+	.uleb128 0x3
+	.string	"hdr"
+	.byte	0x10
+	.value	0x2d2
+	.byte	0xf
+	.long	0x213a
+	.byte	0
+	.uleb128 0x1
+	.long	.LASF558
+	.byte	0x10
+	.value	0x2d3
+	.byte	0x8
+	.long	0x653
+	.byte	0x28
+	.uleb128 0x1
+	.long	.LASF583
+	.byte	0x10
+	.value	0x2d4
+	.byte	0x8
+	.long	0x653
+	.byte	0x30
+	.byte	0
+	.uleb128 0x6
+	.long	.LASF180
+	.byte	0x30
+	.byte	0x10
+	.value	0x2d7
+	.long	0x2fe7
+	.uleb128 0x3
+	.string	"hdr"
+	.byte	0x10
+	.value	0x2d8
+	.byte	0xf
+	.long	0x213a
+	.byte	0
+	.uleb128 0x1
+	.long	.LASF567
+	.byte	0x10
+	.value	0x2d9
+	.byte	0x8
+	.long	0x653
+	.byte	0x28
+	.byte	0
+	.uleb128 0x22
+	.byte	0x8
+	.byte	0x15
+	.value	0x1fd
+	.long	0x3073
+	.uleb128 0x19
+	.string	"opt"
+	.byte	0x15
+	.value	0x1fe
+	.byte	0xb
+	.long	0x1494
+	.uleb128 0x5
+	.long	.LASF584
+	.byte	0x15
+	.value	0x1ff
+	.byte	0x8
+	.long	0x315
+	.uleb128 0x5
+	.long	.LASF585
+	.byte	0x15
+	.value	0x200
+	.byte	0x8
+	.long	0x315
+	.uleb128 0x19
+	.string	"sym"
+	.byte	0x15
+	.value	0x201
+	.byte	0xa
+	.long	0x606
+	.uleb128 0x5
+	.long	.LASF586
+	.byte	0x15
+	.value	0x202
+	.byte	0x8
+	.long	0x315
+	.uleb128 0x5
+	.long	.LASF587
+	.byte	0x15
+	.value	0x203
+	.byte	0x8
+	.long	0x2e
+	.uleb128 0x5
+	.long	.LASF588
+	.byte	0x15
+	.value	0x204
+	.byte	0xf
+	.long	0x1cc9
+	.uleb128 0x5
+	.long	.LASF589
+	.byte	0x15
+	.value	0x205
+	.byte	0xb
+	.long	0x14cc
+	.uleb128 0x5
+	.long	.LASF590
+	.byte	0x15
+	.value	0x206
+	.byte	0x19
+	.long	0x14e2
+	.uleb128 0x5
+	.long	.LASF591
+	.byte	0x15
+	.value	0x208
+	.byte	0xc
+	.long	0x150e
+	.byte	0
+	.uleb128 0x6
+	.long	.LASF592
+	.byte	0x30
+	.byte	0x15
+	.value	0x1f8
+	.long	0x30f1
+	.uleb128 0x3
+	.string	"tag"
+	.byte	0x15
+	.value	0x1f9
+	.byte	0x8
+	.long	0x2d4
+	.byte	0
+	.uleb128 0x1
+	.long	.LASF593
+	.byte	0x15
+	.value	0x1fa
+	.byte	0x8
+	.long	0x2d4
+	.byte	0x1
+	.uleb128 0x1
+	.long	.LASF594
+	.byte	0x15
+	.value	0x1fb
+	.byte	0x8
+	.long	0x2d4
+	.byte	0x2
+	.uleb128 0x3
+	.string	"pos"
+	.byte	0x15
+	.value	0x1fc
+	.byte	0x9
+	.long	0x50e
+	.byte	0x8
+	.uleb128 0x1
+	.long	.LASF97
+	.byte	0x15
+	.value	0x20a
+	.byte	0x4
+	.long	0x2fe7
+	.byte	0x10
+	.uleb128 0x1
+	.long	.LASF595
+	.byte	0x15
+	.value	0x20b
+	.byte	0x6
+	.long	0x2e
+	.byte	0x18
+	.uleb128 0x1
+	.long	.LASF189
+	.byte	0x15
+	.value	0x20c
+	.byte	0x7
+	.long	0xa7f
+	.byte	0x20
+	.uleb128 0x1
+	.long	.LASF208
+	.byte	0x15
+	.value	0x20d
+	.byte	0x9
+	.long	0x32f
+	.byte	0x28
+	.byte	0
+	.uleb128 0x22
+	.byte	0x8
+	.byte	0x15
+	.value	0x212
+	.long	0x313c
+	.uleb128 0x5
+	.long	.LASF596
+	.byte	0x15
+	.value	0x213
+	.byte	0x8
+	.long	0xd5c
+	.uleb128 0x5
+	.long	.LASF74
+	.byte	0x15
+	.value	0x214
+	.byte	0x8
+	.long	0x2fb
+	.uleb128 0x19
+	.string	"str"
+	.byte	0x15
+	.value	0x215
+	.byte	0xa
+	.long	0x356
+	.uleb128 0x5
+	.long	.LASF102
+	.byte	0x15
+	.value	0x216
+	.byte	0x8
+	.long	0x5f0
+	.uleb128 0x5
+	.long	.LASF597
+	.byte	0x15
+	.value	0x217
+	.byte	0xa
+	.long	0x370
+	.byte	0
+	.uleb128 0x6
+	.long	.LASF239
+	.byte	0x80
+	.byte	0x15
+	.value	0x210
+	.long	0x3166
+	.uleb128 0x3
+	.string	"hdr"
+	.byte	0x15
+	.value	0x211
+	.byte	0x11
+	.long	0x3073
+	.byte	0
+	.uleb128 0x1
+	.long	.LASF209
+	.byte	0x15
+	.value	0x218
+	.byte	0x4
+	.long	0x3166
+	.byte	0x30
+	.byte	0
+	.uleb128 0x14
+	.long	0x30f1
+	.long	0x3176
+	.uleb128 0x15
+	.long	0x4a
+	.byte	0x9
+	.byte	0
+	.uleb128 0x6
+	.long	.LASF240
+	.byte	0x30
+	.byte	0x15
+	.value	0x21e
+	.long	0x3192
+	.uleb128 0x3
+	.string	"hdr"
+	.byte	0x15
+	.value	0x21f
+	.byte	0x11
+	.long	0x3073
+	.byte	0
+	.byte	0
+	.uleb128 0x6
+	.long	.LASF241
+	.byte	0x38
+	.byte	0x15
+	.value	0x225
+	.long	0x31bc
+	.uleb128 0x3
+	.string	"hdr"
+	.byte	0x15
+	.value	0x226
+	.byte	0x11
+	.long	0x3073
+	.byte	0
+	.uleb128 0x1
+	.long	.LASF598
+	.byte	0x15
+	.value	0x227
+	.byte	0x7
+	.long	0x2fb
+	.byte	0x30
+	.byte	0
+	.uleb128 0x6
+	.long	.LASF242
+	.byte	0x38
+	.byte	0x15
+	.value	0x22d
+	.long	0x31e6
+	.uleb128 0x3
+	.string	"hdr"
+	.byte	0x15
+	.value	0x22e
+	.byte	0x11
+	.long	0x3073
+	.byte	0
+	.uleb128 0x1
+	.long	.LASF599
+	.byte	0x15
+	.value	0x22f
+	.byte	0x7
+	.long	0x2fb
+	.byte	0x30
+	.byte	0
+	.uleb128 0x6
+	.long	.LASF243
+	.byte	0x38
+	.byte	0x15
+	.value	0x235
+	.long	0x3210
+	.uleb128 0x3
+	.string	"hdr"
+	.byte	0x15
+	.value	0x236
+	.byte	0x11
+	.long	0x3073
+	.byte	0
+	.uleb128 0x1
+	.long	.LASF600
+	.byte	0x15
+	.value	0x237
+	.byte	0x7
+	.long	0x2fb
+	.byte	0x30
+	.byte	0
+	.uleb128 0x6
+	.long	.LASF244
+	.byte	0x38
+	.byte	0x15
+	.value	0x23d
+	.long	0x323a
+	.uleb128 0x3
+	.string	"hdr"
+	.byte	0x15
+	.value	0x23e
+	.byte	0x11
+	.long	0x3073
+	.byte	0
+	.uleb128 0x1
+	.long	.LASF601
+	.byte	0x15
+	.value	0x23f
+	.byte	0x7
+	.long	0x2fb
+	.byte	0x30
+	.byte	0
+	.uleb128 0x6
+	.long	.LASF245
+	.byte	0x38
+	.byte	0x15
+	.value	0x245
+	.long	0x3264
+	.uleb128 0x3
+	.string	"hdr"
+	.byte	0x15
+	.value	0x246
+	.byte	0x11
+	.long	0x3073
+	.byte	0
+	.uleb128 0x1
+	.long	.LASF602
+	.byte	0x15
+	.value	0x247
+	.byte	0x7
+	.long	0x2fb
+	.byte	0x30
+	.byte	0
+	.uleb128 0x6
+	.long	.LASF246
+	.byte	0x38
+	.byte	0x15
+	.value	0x24d
+	.long	0x328e
+	.uleb128 0x3
+	.string	"hdr"
+	.byte	0x15
+	.value	0x24e
+	.byte	0x11
+	.long	0x3073
+	.byte	0
+	.uleb128 0x1
+	.long	.LASF603
+	.byte	0x15
+	.value	0x24f
+	.byte	0x7
+	.long	0x5f0
+	.byte	0x30
+	.byte	0
+	.uleb128 0x6
+	.long	.LASF247
+	.byte	0x38
+	.byte	0x15
+	.value	0x255
+	.long	0x32b8
+	.uleb128 0x3
+	.string	"hdr"
+	.byte	0x15
+	.value	0x256
+	.byte	0x11
+	.long	0x3073
+	.byte	0
+	.uleb128 0x1
+	.long	.LASF604
+	.byte	0x15
+	.value	0x257
+	.byte	0x9
+	.long	0x370
+	.byte	0x30
+	.byte	0
+	.uleb128 0x6
+	.long	.LASF248
+	.byte	0x38
+	.byte	0x15
+	.value	0x25d
+	.long	0x32e2
+	.uleb128 0x3
+	.string	"hdr"
+	.byte	0x15
+	.value	0x25e
+	.byte	0x11
+	.long	0x3073
+	.byte	0
+	.uleb128 0x1
+	.long	.LASF605
+	.byte	0x15
+	.value	0x25f
+	.byte	0x9
+	.long	0x37d
+	.byte	0x30
+	.byte	0
+	.uleb128 0x6
+	.long	.LASF249
+	.byte	0x38
+	.byte	0x15
+	.value	0x262
+	.long	0x330c
+	.uleb128 0x3
+	.string	"hdr"
+	.byte	0x15
+	.value	0x263
+	.byte	0x11
+	.long	0x3073
+	.byte	0
+	.uleb128 0x1
+	.long	.LASF74
+	.byte	0x15
+	.value	0x264
+	.byte	0x7
+	.long	0x2fb
+	.byte	0x30
+	.byte	0
+	.uleb128 0x6
+	.long	.LASF250
+	.byte	0x40
+	.byte	0x15
+	.value	0x267
+	.long	0x3336
+	.uleb128 0x3
+	.string	"hdr"
+	.byte	0x15
+	.value	0x268
+	.byte	0x11
+	.long	0x3073
+	.byte	0
+	.uleb128 0x1
+	.long	.LASF74
+	.byte	0x15
+	.value	0x269
+	.byte	0x7
+	.long	0x3336
+	.byte	0x30
+	.byte	0
+	.uleb128 0x14
+	.long	0x2fb
+	.long	0x3346
+	.uleb128 0x15
+	.long	0x4a
+	.byte	0x1
+	.byte	0
+	.uleb128 0x6
+	.long	.LASF251
+	.byte	0x88
+	.byte	0x15
+	.value	0x26c
+	.long	0x337e
+	.uleb128 0x3
+	.string	"hdr"
+	.byte	0x15
+	.value	0x26d
+	.byte	0x11
+	.long	0x3073
+	.byte	0
+	.uleb128 0x1
+	.long	.LASF606
+	.byte	0x15
+	.value	0x26e
+	.byte	0x7
+	.long	0x2fb
+	.byte	0x30
+	.uleb128 0x1
+	.long	.LASF607
+	.byte	0x15
+	.value	0x26f
+	.byte	0x7
+	.long	0x337e
+	.byte	0x38
+	.byte	0
+	.uleb128 0x14
+	.long	0x2fb
+	.long	0x338e
+	.uleb128 0x15
+	.long	0x4a
+	.byte	0x9
+	.byte	0
+	.uleb128 0x6
+	.long	.LASF252
+	.byte	0x88
+	.byte	0x15
+	.value	0x274
+	.long	0x33c6
+	.uleb128 0x3
+	.string	"hdr"
+	.byte	0x15
+	.value	0x275
+	.byte	0x11
+	.long	0x3073
+	.byte	0
+	.uleb128 0x1
+	.long	.LASF608
+	.byte	0x15
+	.value	0x276
+	.byte	0x7
+	.long	0x2fb
+	.byte	0x30
+	.uleb128 0x1
+	.long	.LASF607
+	.byte	0x15
+	.value	0x277
+	.byte	0x7
+	.long	0x33c6
+	.byte	0x38
+	.byte	0
+	.uleb128 0x14
+	.long	0xd5c
+	.long	0x33d6
+	.uleb128 0x15
+	.long	0x4a
+	.byte	0x9
+	.byte	0
+	.uleb128 0x6
+	.long	.LASF253
+	.byte	0x48
+	.byte	0x15
+	.value	0x27a
+	.long	0x341c
+	.uleb128 0x3
+	.string	"hdr"
+	.byte	0x15
+	.value	0x27b
+	.byte	0x11
+	.long	0x3073
+	.byte	0
+	.uleb128 0x1
+	.long	.LASF609
+	.byte	0x15
+	.value	0x27c
+	.byte	0x7
+	.long	0x2fb
+	.byte	0x30
+	.uleb128 0x3
+	.string	"fmt"
+	.byte	0x15
+	.value	0x27d
+	.byte	0x7
+	.long	0xd5c
+	.byte	0x38
+	.uleb128 0x1
+	.long	.LASF610
+	.byte	0x15
+	.value	0x27e
+	.byte	0x7
+	.long	0xd5c
+	.byte	0x40
+	.byte	0
+	.uleb128 0x6
+	.long	.LASF254
+	.byte	0x98
+	.byte	0x15
+	.value	0x28d
+	.long	0x34ee
+	.uleb128 0x3
+	.string	"hdr"
+	.byte	0x15
+	.value	0x28e
+	.byte	0x11
+	.long	0x3073
+	.byte	0
+	.uleb128 0x1
+	.long	.LASF611
+	.byte	0x15
+	.value	0x28f
+	.byte	0x7
+	.long	0x2fb
+	.byte	0x30
+	.uleb128 0x1
+	.long	.LASF612
+	.byte	0x15
+	.value	0x290
+	.byte	0x7
+	.long	0x2fb
+	.byte	0x38
+	.uleb128 0x1
+	.long	.LASF613
+	.byte	0x15
+	.value	0x291
+	.byte	0x7
+	.long	0x2fb
+	.byte	0x40
+	.uleb128 0x1
+	.long	.LASF608
+	.byte	0x15
+	.value	0x292
+	.byte	0x7
+	.long	0x2fb
+	.byte	0x48
+	.uleb128 0x1
+	.long	.LASF614
+	.byte	0x15
+	.value	0x293
+	.byte	0x7
+	.long	0x2fb
+	.byte	0x50
+	.uleb128 0x1
+	.long	.LASF615
+	.byte	0x15
+	.value	0x295
+	.byte	0x7
+	.long	0x2fb
+	.byte	0x58
+	.uleb128 0x1
+	.long	.LASF616
+	.byte	0x15
+	.value	0x296
+	.byte	0x7
+	.long	0x2fb
+	.byte	0x60
+	.uleb128 0x1
+	.long	.LASF617
+	.byte	0x15
+	.value	0x297
+	.byte	0x7
+	.long	0x2fb
+	.byte	0x68
+	.uleb128 0x1
+	.long	.LASF618
+	.byte	0x15
+	.value	0x29c
+	.byte	0x7
+	.long	0xd5c
+	.byte	0x70
+	.uleb128 0x1
+	.long	.LASF619
+	.byte	0x15
+	.value	0x29e
+	.byte	0x7
+	.long	0xd5c
+	.byte	0x78
+	.uleb128 0x1
+	.long	.LASF620
+	.byte	0x15
+	.value	0x29f
+	.byte	0x7
+	.long	0xd5c
+	.byte	0x80
+	.uleb128 0x1
+	.long	.LASF621
+	.byte	0x15
+	.value	0x2a0
+	.byte	0x7
+	.long	0xd5c
+	.byte	0x88
+	.uleb128 0x1
+	.long	.LASF564
+	.byte	0x15
+	.value	0x2a1
+	.byte	0x7
+	.long	0xd5c
+	.byte	0x90
+	.byte	0
+	.uleb128 0x6
+	.long	.LASF255
+	.byte	0x40
+	.byte	0x15
+	.value	0x2a6
+	.long	0x3526
+	.uleb128 0x3
+	.string	"hdr"
+	.byte	0x15
+	.value	0x2a7
+	.byte	0x11
+	.long	0x3073
+	.byte	0
+	.uleb128 0x3
+	.string	"env"
+	.byte	0x15
+	.value	0x2a8
+	.byte	0x7
+	.long	0xd5c
+	.byte	0x30
+	.uleb128 0x1
+	.long	.LASF622
+	.byte	0x15
+	.value	0x2a9
+	.byte	0x7
+	.long	0xd5c
+	.byte	0x38
+	.byte	0
+	.uleb128 0x6
+	.long	.LASF257
+	.byte	0x60
+	.byte	0x15
+	.value	0x2b4
+	.long	0x3595
+	.uleb128 0x3
+	.string	"hdr"
+	.byte	0x15
+	.value	0x2b5
+	.byte	0x11
+	.long	0x3073
+	.byte	0
+	.uleb128 0x1
+	.long	.LASF194
+	.byte	0x15
+	.value	0x2b6
+	.byte	0x7
+	.long	0x2fb
+	.byte	0x30
+	.uleb128 0x3
+	.string	"id"
+	.byte	0x15
+	.value	0x2b7
+	.byte	0x9
+	.long	0x356
+	.byte	0x38
+	.uleb128 0x1
+	.long	.LASF577
+	.byte	0x15
+	.value	0x2b8
+	.byte	0x7
+	.long	0x2fb
+	.byte	0x40
+	.uleb128 0x1
+	.long	.LASF608
+	.byte	0x15
+	.value	0x2b9
+	.byte	0x7
+	.long	0x2fb
+	.byte	0x48
+	.uleb128 0x3
+	.string	"dir"
+	.byte	0x15
+	.value	0x2ba
+	.byte	0x7
+	.long	0x2fb
+	.byte	0x50
+	.uleb128 0x1
+	.long	.LASF623
+	.byte	0x15
+	.value	0x2bb
+	.byte	0x7
+	.long	0x2fb
+	.byte	0x58
+	.byte	0
+	.uleb128 0x6
+	.long	.LASF256
+	.byte	0x50
+	.byte	0x15
+	.value	0x2c1
+	.long	0x35e8
+	.uleb128 0x3
+	.string	"hdr"
+	.byte	0x15
+	.value	0x2c2
+	.byte	0x11
+	.long	0x3073
+	.byte	0
+	.uleb128 0x1
+	.long	.LASF194
+	.byte	0x15
+	.value	0x2c3
+	.byte	0x7
+	.long	0x2fb
+	.byte	0x30
+	.uleb128 0x3
+	.string	"id"
+	.byte	0x15
+	.value	0x2c4
+	.byte	0x9
+	.long	0x356
+	.byte	0x38
+	.uleb128 0x1
+	.long	.LASF624
+	.byte	0x15
+	.value	0x2c5
+	.byte	0x7
+	.long	0x2fb
+	.byte	0x40
+	.uleb128 0x1
+	.long	.LASF608
+	.byte	0x15
+	.value	0x2c6
+	.byte	0x7
+	.long	0x2fb
+	.byte	0x48
+	.byte	0
+	.uleb128 0x6
+	.long	.LASF258
+	.byte	0x88
+	.byte	0x15
+	.value	0x2cd
+	.long	0x3620
+	.uleb128 0x3
+	.string	"hdr"
+	.byte	0x15
+	.value	0x2ce
+	.byte	0x11
+	.long	0x3073
+	.byte	0
+	.uleb128 0x1
+	.long	.LASF625
+	.byte	0x15
+	.value	0x2cf
+	.byte	0x7
+	.long	0x2fb
+	.byte	0x30
+	.uleb128 0x1
+	.long	.LASF209
+	.byte	0x15
+	.value	0x2d0
+	.byte	0x7
+	.long	0x33c6
+	.byte	0x38
+	.byte	0
+	.uleb128 0x6
+	.long	.LASF259
+	.byte	0x80
+	.byte	0x15
+	.value	0x2d7
+	.long	0x364a
+	.uleb128 0x3
+	.string	"hdr"
+	.byte	0x15
+	.value	0x2d8
+	.byte	0x11
+	.long	0x3073
+	.byte	0
+	.uleb128 0x1
+	.long	.LASF209
+	.byte	0x15
+	.value	0x2d9
+	.byte	0x7
+	.long	0x337e
+	.byte	0x30
+	.byte	0
+	.uleb128 0x6
+	.long	.LASF260
+	.byte	0x80
+	.byte	0x15
+	.value	0x2de
+	.long	0x3674
+	.uleb128 0x3
+	.string	"hdr"
+	.byte	0x15
+	.value	0x2df
+	.byte	0x11
+	.long	0x3073
+	.byte	0
+	.uleb128 0x1
+	.long	.LASF209
+	.byte	0x15
+	.value	0x2e0
+	.byte	0x7
+	.long	0x337e
+	.byte	0x30
+	.byte	0
+	.uleb128 0x6
+	.long	.LASF261
+	.byte	0x80
+	.byte	0x15
+	.value	0x2e5
+	.long	0x369e
+	.uleb128 0x3
+	.string	"hdr"
+	.byte	0x15
+	.value	0x2e6
+	.byte	0x11
+	.long	0x3073
+	.byte	0
+	.uleb128 0x1
+	.long	.LASF209
+	.byte	0x15
+	.value	0x2e7
+	.byte	0x7
+	.long	0x33c6
+	.byte	0x30
+	.byte	0
+	.uleb128 0x6
+	.long	.LASF262
+	.byte	0x40
+	.byte	0x15
+	.value	0x2ed
+	.long	0x36d6
+	.uleb128 0x3
+	.string	"hdr"
+	.byte	0x15
+	.value	0x2ee
+	.byte	0x11
+	.long	0x3073
+	.byte	0
+	.uleb128 0x3
+	.string	"lhs"
+	.byte	0x15
+	.value	0x2ef
+	.byte	0x7
+	.long	0xd5c
+	.byte	0x30
+	.uleb128 0x3
+	.string	"rhs"
+	.byte	0x15
+	.value	0x2f0
+	.byte	0x7
+	.long	0xd5c
+	.byte	0x38
+	.byte	0
+	.uleb128 0x6
+	.long	.LASF263
+	.byte	0x80
+	.byte	0x15
+	.value	0x2f3
+	.long	0x3700
+	.uleb128 0x3
+	.string	"hdr"
+	.byte	0x15
+	.value	0x2f4
+	.byte	0x11
+	.long	0x3073
+	.byte	0
+	.uleb128 0x1
+	.long	.LASF209
+	.byte	0x15
+	.value	0x2f5
+	.byte	0x7
+	.long	0x33c6
+	.byte	0x30
+	.byte	0
+	.uleb128 0x6
+	.long	.LASF264
+	.byte	0x38
+	.byte	0x15
+	.value	0x2fa
+	.long	0x372a
+	.uleb128 0x3
+	.string	"hdr"
+	.byte	0x15
+	.value	0x2fb
+	.byte	0x11
+	.long	0x3073
+	.byte	0
+	.uleb128 0x1
+	.long	.LASF626
+	.byte	0x15
+	.value	0x2fc
+	.byte	0x7
+	.long	0x2fb
+	.byte	0x30
+	.byte	0
+	.uleb128 0x6
+	.long	.LASF265
+	.byte	0x38
+	.byte	0x15
+	.value	0x303
+	.long	0x3754
+	.uleb128 0x3
+	.string	"hdr"
+	.byte	0x15
+	.value	0x304
+	.byte	0x11
+	.long	0x3073
+	.byte	0
+	.uleb128 0x1
+	.long	.LASF626
+	.byte	0x15
+	.value	0x305
+	.byte	0x7
+	.long	0x2fb
+	.byte	0x30
+	.byte	0
+	.uleb128 0x6
+	.long	.LASF266
+	.byte	0x40
+	.byte	0x15
+	.value	0x30b
+	.long	0x378c
+	.uleb128 0x3
+	.string	"hdr"
+	.byte	0x15
+	.value	0x30c
+	.byte	0x11
+	.long	0x3073
+	.byte	0
+	.uleb128 0x1
+	.long	.LASF627
+	.byte	0x15
+	.value	0x30d
+	.byte	0x7
+	.long	0x2fb
+	.byte	0x30
+	.uleb128 0x1
+	.long	.LASF626
+	.byte	0x15
+	.value	0x30e
+	.byte	0x7
+	.long	0x2fb
+	.byte	0x38
+	.byte	0
+	.uleb128 0x6
+	.long	.LASF267
+	.byte	0x38
+	.byte	0x15
+	.value	0x313
+	.long	0x37b6
+	.uleb128 0x3
+	.string	"hdr"
+	.byte	0x15
+	.value	0x314
+	.byte	0x11
+	.long	0x3073
+	.byte	0
+	.uleb128 0x1
+	.long	.LASF626
+	.byte	0x15
+	.value	0x315
+	.byte	0x7
+	.long	0x2fb
+	.byte	0x30
+	.byte	0
+	.uleb128 0x6
+	.long	.LASF269
+	.byte	0x38
+	.byte	0x15
+	.value	0x31a
+	.long	0x37e0
+	.uleb128 0x3
+	.string	"hdr"
+	.byte	0x15
+	.value	0x31b
+	.byte	0x11
+	.long	0x3073
+	.byte	0
+	.uleb128 0x1
+	.long	.LASF626
+	.byte	0x15
+	.value	0x31c
+	.byte	0x7
+	.long	0x2fb
+	.byte	0x30
+	.byte	0
+	.uleb128 0x6
+	.long	.LASF268
+	.byte	0x38
+	.byte	0x15
+	.value	0x321
+	.long	0x380a
+	.uleb128 0x3
+	.string	"hdr"
+	.byte	0x15
+	.value	0x322
+	.byte	0x11
+	.long	0x3073
+	.byte	0
+	.uleb128 0x1
+	.long	.LASF626
+	.byte	0x15
+	.value	0x323
+	.byte	0x7
+	.long	0x2fb
+	.byte	0x30
+	.byte	0
+	.uleb128 0x6
+	.long	.LASF270
+	.byte	0x38
+	.byte	0x15
+	.value	0x328
+	.long	0x3834
+	.uleb128 0x3
+	.string	"hdr"
+	.byte	0x15
+	.value	0x329
+	.byte	0x11
+	.long	0x3073
+	.byte	0
+	.uleb128 0x1
+	.long	.LASF627
+	.byte	0x15
+	.value	0x32a
+	.byte	0x7
+	.long	0x2fb
+	.byte	0x30
+	.byte	0
+	.uleb128 0x6
+	.long	.LASF271
+	.byte	0x40
+	.byte	0x15
+	.value	0x32f
+	.long	0x386c
+	.uleb128 0x3
+	.string	"hdr"
+	.byte	0x15
+	.value	0x330
+	.byte	0x11
+	.long	0x3073
+	.byte	0
+	.uleb128 0x1
+	.long	.LASF627
+	.byte	0x15
+	.value	0x331
+	.byte	0x7
+	.long	0x2fb
+	.byte	0x30
+	.uleb128 0x3
+	.string	"env"
+	.byte	0x15
+	.value	0x332
+	.byte	0x7
+	.long	0xd5c
+	.byte	0x38
+	.byte	0
+	.uleb128 0x6
+	.long	.LASF272
+	.byte	0x40
+	.byte	0x15
+	.value	0x337
+	.long	0x38a4
+	.uleb128 0x3
+	.string	"hdr"
+	.byte	0x15
+	.value	0x338
+	.byte	0x11
+	.long	0x3073
+	.byte	0
+	.uleb128 0x3
+	.string	"idx"
+	.byte	0x15
+	.value	0x339
+	.byte	0x7
+	.long	0x2fb
+	.byte	0x30
+	.uleb128 0x1
+	.long	.LASF622
+	.byte	0x15
+	.value	0x33a
+	.byte	0x7
+	.long	0xd5c
+	.byte	0x38
+	.byte	0
+	.uleb128 0x6
+	.long	.LASF273
+	.byte	0x38
+	.byte	0x15
+	.value	0x33f
+	.long	0x38ce
+	.uleb128 0x3
+	.string	"hdr"
+	.byte	0x15
+	.value	0x340
+	.byte	0x11
+	.long	0x3073
+	.byte	0
+	.uleb128 0x1
+	.long	.LASF561
+	.byte	0x15
+	.value	0x341
+	.byte	0x7
+	.long	0x2fb
+	.byte	0x30
+	.byte	0
+	.uleb128 0x6
+	.long	.LASF274
+	.byte	0x38
+	.byte	0x15
+	.value	0x346
+	.long	0x38f8
+	.uleb128 0x3
+	.string	"hdr"
+	.byte	0x15
+	.value	0x347
+	.byte	0x11
+	.long	0x3073
+	.byte	0
+	.uleb128 0x3
+	.string	"val"
+	.byte	0x15
+	.value	0x348
+	.byte	0x7
+	.long	0xd5c
+	.byte	0x30
+	.byte	0
+	.uleb128 0x6
+	.long	.LASF275
+	.byte	0x38
+	.byte	0x15
+	.value	0x34d
+	.long	0x3922
+	.uleb128 0x3
+	.string	"hdr"
+	.byte	0x15
+	.value	0x34e
+	.byte	0x11
+	.long	0x3073
+	.byte	0
+	.uleb128 0x1
+	.long	.LASF622
+	.byte	0x15
+	.value	0x34f
+	.byte	0x7
+	.long	0xd5c
+	.byte	0x30
+	.byte	0
+	.uleb128 0x6
+	.long	.LASF276
+	.byte	0x38
+	.byte	0x15
+	.value	0x354
+	.long	0x394c
+	.uleb128 0x3
+	.string	"hdr"
+	.byte	0x15
+	.value	0x355
+	.byte	0x11
+	.long	0x3073
+	.byte	0
+	.uleb128 0x3
+	.string	"env"
+	.byte	0x15
+	.value	0x356
+	.byte	0x7
+	.long	0xd5c
+	.byte	0x30
+	.byte	0
+	.uleb128 0x6
+	.long	.LASF277
+	.byte	0x38
+	.byte	0x15
+	.value	0x35b
+	.long	0x3976
+	.uleb128 0x3
+	.string	"hdr"
+	.byte	0x15
+	.value	0x35c
+	.byte	0x11
+	.long	0x3073
+	.byte	0
+	.uleb128 0x3
+	.string	"loc"
+	.byte	0x15
+	.value	0x35d
+	.byte	0x7
+	.long	0xd5c
+	.byte	0x30
+	.byte	0
+	.uleb128 0x6
+	.long	.LASF278
+	.byte	0x38
+	.byte	0x15
+	.value	0x362
+	.long	0x39a0
+	.uleb128 0x3
+	.string	"hdr"
+	.byte	0x15
+	.value	0x363
+	.byte	0x11
+	.long	0x3073
+	.byte	0
+	.uleb128 0x3
+	.string	"env"
+	.byte	0x15
+	.value	0x364
+	.byte	0x7
+	.long	0xd5c
+	.byte	0x30
+	.byte	0
+	.uleb128 0x6
+	.long	.LASF279
+	.byte	0x38
+	.byte	0x15
+	.value	0x369
+	.long	0x39ca
+	.uleb128 0x3
+	.string	"hdr"
+	.byte	0x15
+	.value	0x36a
+	.byte	0x11
+	.long	0x3073
+	.byte	0
+	.uleb128 0x3
+	.string	"env"
+	.byte	0x15
+	.value	0x36b
+	.byte	0x7
+	.long	0xd5c
+	.byte	0x30
+	.byte	0
+	.uleb128 0x6
+	.long	.LASF280
+	.byte	0x48
+	.byte	0x15
+	.value	0x370
+	.long	0x3a10
+	.uleb128 0x3
+	.string	"hdr"
+	.byte	0x15
+	.value	0x371
+	.byte	0x11
+	.long	0x3073
+	.byte	0
+	.uleb128 0x1
+	.long	.LASF606
+	.byte	0x15
+	.value	0x372
+	.byte	0x7
+	.long	0x2fb
+	.byte	0x30
+	.uleb128 0x1
+	.long	.LASF626
+	.byte	0x15
+	.value	0x373
+	.byte	0x7
+	.long	0xd5c
+	.byte	0x38
+	.uleb128 0x1
+	.long	.LASF563
+	.byte	0x15
+	.value	0x374
+	.byte	0x7
+	.long	0xd5c
+	.byte	0x40
+	.byte	0
+	.uleb128 0x6
+	.long	.LASF295
+	.byte	0x40
+	.byte	0x15
+	.value	0x379
+	.long	0x3a48
+	.uleb128 0x3
+	.string	"hdr"
+	.byte	0x15
+	.value	0x37a
+	.byte	0x11
+	.long	0x3073
+	.byte	0
+	.uleb128 0x1
+	.long	.LASF208
+	.byte	0x15
+	.value	0x37b
+	.byte	0x7
+	.long	0x2fb
+	.byte	0x30
+	.uleb128 0x3
+	.string	"fmt"
+	.byte	0x15
+	.value	0x37c
+	.byte	0x7
+	.long	0xd5c
+	.byte	0x38
+	.byte	0
+	.uleb128 0x6
+	.long	.LASF282
+	.byte	0x48
+	.byte	0x15
+	.value	0x382
+	.long	0x3a8e
+	.uleb128 0x3
+	.string	"hdr"
+	.byte	0x15
+	.value	0x383
+	.byte	0x11
+	.long	0x3073
+	.byte	0
+	.uleb128 0x1
+	.long	.LASF628
+	.byte	0x15
+	.value	0x384
+	.byte	0x7
+	.long	0x2fb
+	.byte	0x30
+	.uleb128 0x3
+	.string	"fmt"
+	.byte	0x15
+	.value	0x385
+	.byte	0x7
+	.long	0xd5c
+	.byte	0x38
+	.uleb128 0x1
+	.long	.LASF74
+	.byte	0x15
+	.value	0x386
+	.byte	0x7
+	.long	0xd5c
+	.byte	0x40
+	.byte	0
+	.uleb128 0x6
+	.long	.LASF307
+	.byte	0x38
+	.byte	0x15
+	.value	0x38c
+	.long	0x3ab8
+	.uleb128 0x3
+	.string	"hdr"
+	.byte	0x15
+	.value	0x38d
+	.byte	0x11
+	.long	0x3073
+	.byte	0
+	.uleb128 0x3
+	.string	"fmt"
+	.byte	0x15
+	.value	0x38e
+	.byte	0x7
+	.long	0xd5c
+	.byte	0x30
+	.byte	0
+	.uleb128 0x6
+	.long	.LASF281
+	.byte	0x48
+	.byte	0x15
+	.value	0x394
+	.long	0x3afe
+	.uleb128 0x3
+	.string	"hdr"
+	.byte	0x15
+	.value	0x395
+	.byte	0x11
+	.long	0x3073
+	.byte	0
+	.uleb128 0x1
+	.long	.LASF608
+	.byte	0x15
+	.value	0x396
+	.byte	0x7
+	.long	0x2fb
+	.byte	0x30
+	.uleb128 0x1
+	.long	.LASF563
+	.byte	0x15
+	.value	0x397
+	.byte	0x7
+	.long	0xd5c
+	.byte	0x38
+	.uleb128 0x1
+	.long	.LASF628
+	.byte	0x15
+	.value	0x398
+	.byte	0x7
+	.long	0x2fb
+	.byte	0x40
+	.byte	0
+	.uleb128 0x6
+	.long	.LASF283
+	.byte	0x48
+	.byte	0x15
+	.value	0x39d
+	.long	0x3b44
+	.uleb128 0x3
+	.string	"hdr"
+	.byte	0x15
+	.value	0x39e
+	.byte	0x11
+	.long	0x3073
+	.byte	0
+	.uleb128 0x1
+	.long	.LASF608
+	.byte	0x15
+	.value	0x39f
+	.byte	0x7
+	.long	0x2fb
+	.byte	0x30
+	.uleb128 0x1
+	.long	.LASF563
+	.byte	0x15
+	.value	0x3a0
+	.byte	0x7
+	.long	0xd5c
+	.byte	0x38
+	.uleb128 0x1
+	.long	.LASF628
+	.byte	0x15
+	.value	0x3a1
+	.byte	0x7
+	.long	0x2fb
+	.byte	0x40
+	.byte	0
+	.uleb128 0x6
+	.long	.LASF284
+	.byte	0x50
+	.byte	0x15
+	.value	0x3a6
+	.long	0x3b98
+	.uleb128 0x3
+	.string	"hdr"
+	.byte	0x15
+	.value	0x3a7
+	.byte	0x11
+	.long	0x3073
+	.byte	0
+	.uleb128 0x1
+	.long	.LASF608
+	.byte	0x15
+	.value	0x3a8
+	.byte	0x7
+	.long	0x2fb
+	.byte	0x30
+	.uleb128 0x1
+	.long	.LASF563
+	.byte	0x15
+	.value	0x3a9
+	.byte	0x7
+	.long	0xd5c
+	.byte	0x38
+	.uleb128 0x1
+	.long	.LASF626
+	.byte	0x15
+	.value	0x3aa
+	.byte	0x7
+	.long	0xd5c
+	.byte	0x40
+	.uleb128 0x1
+	.long	.LASF628
+	.byte	0x15
+	.value	0x3ab
+	.byte	0x7
+	.long	0x2fb
+	.byte	0x48
+	.byte	0
+	.uleb128 0x6
+	.long	.LASF285
+	.byte	0x50
+	.byte	0x15
+	.value	0x3b0
+	.long	0x3bec
+	.uleb128 0x3
+	.string	"hdr"
+	.byte	0x15
+	.value	0x3b1
+	.byte	0x11
+	.long	0x3073
+	.byte	0
+	.uleb128 0x3
+	.string	"env"
+	.byte	0x15
+	.value	0x3b2
+	.byte	0x7
+	.long	0x2fb
+	.byte	0x30
+	.uleb128 0x3
+	.string	"ref"
+	.byte	0x15
+	.value	0x3b3
+	.byte	0x7
+	.long	0xd5c
+	.byte	0x38
+	.uleb128 0x1
+	.long	.LASF627
+	.byte	0x15
+	.value	0x3b4
+	.byte	0x7
+	.long	0x2fb
+	.byte	0x40
+	.uleb128 0x3
+	.string	"lex"
+	.byte	0x15
+	.value	0x3b5
+	.byte	0x7
+	.long	0x2fb
+	.byte	0x48
+	.byte	0
+	.uleb128 0x6
+	.long	.LASF286
+	.byte	0x38
+	.byte	0x15
+	.value	0x3bb
+	.long	0x3c16
+	.uleb128 0x3
+	.string	"hdr"
+	.byte	0x15
+	.value	0x3bc
+	.byte	0x11
+	.long	0x3073
+	.byte	0
+	.uleb128 0x1
+	.long	.LASF629
+	.byte	0x15
+	.value	0x3bd
+	.byte	0x7
+	.long	0x2fb
+	.byte	0x30
+	.byte	0
+	.uleb128 0x6
+	.long	.LASF287
+	.byte	0x38
+	.byte	0x15
+	.value	0x3c3
+	.long	0x3c40
+	.uleb128 0x3
+	.string	"hdr"
+	.byte	0x15
+	.value	0x3c4
+	.byte	0x11
+	.long	0x3073
+	.byte	0
+	.uleb128 0x3
+	.string	"str"
+	.byte	0x15
+	.value	0x3c5
+	.byte	0x9
+	.long	0x356
+	.byte	0x30
+	.byte	0
+	.uleb128 0x6
+	.long	.LASF288
+	.byte	0x30
+	.byte	0x15
+	.value	0x3cb
+	.long	0x3c5c
+	.uleb128 0x3
+	.string	"hdr"
+	.byte	0x15
+	.value	0x3cc
+	.byte	0x11
+	.long	0x3073
+	.byte	0
+	.byte	0
+	.uleb128 0x6
+	.long	.LASF289
+	.byte	0x40
+	.byte	0x15
+	.value	0x3d1
+	.long	0x3c94
+	.uleb128 0x3
+	.string	"hdr"
+	.byte	0x15
+	.value	0x3d2
+	.byte	0x11
+	.long	0x3073
+	.byte	0
+	.uleb128 0x3
+	.string	"lhs"
+	.byte	0x15
+	.value	0x3d3
+	.byte	0x7
+	.long	0xd5c
+	.byte	0x30
+	.uleb128 0x3
+	.string	"rhs"
+	.byte	0x15
+	.value	0x3d4
+	.byte	0x7
+	.long	0xd5c
+	.byte	0x38
+	.byte	0
+	.uleb128 0x6
+	.long	.LASF290
+	.byte	0x40
+	.byte	0x15
+	.value	0x3d9
+	.long	0x3ccc
+	.uleb128 0x3
+	.string	"hdr"
+	.byte	0x15
+	.value	0x3da
+	.byte	0x11
+	.long	0x3073
+	.byte	0
+	.uleb128 0x1
+	.long	.LASF560
+	.byte	0x15
+	.value	0x3db
+	.byte	0x7
+	.long	0xd5c
+	.byte	0x30
+	.uleb128 0x1
+	.long	.LASF561
+	.byte	0x15
+	.value	0x3dc
+	.byte	0x7
+	.long	0x2fb
+	.byte	0x38
+	.byte	0
+	.uleb128 0x6
+	.long	.LASF291
+	.byte	0x80
+	.byte	0x15
+	.value	0x3e1
+	.long	0x3cf6
+	.uleb128 0x3
+	.string	"hdr"
+	.byte	0x15
+	.value	0x3e2
+	.byte	0x11
+	.long	0x3073
+	.byte	0
+	.uleb128 0x1
+	.long	.LASF209
+	.byte	0x15
+	.value	0x3e3
+	.byte	0x7
+	.long	0x33c6
+	.byte	0x30
+	.byte	0
+	.uleb128 0x6
+	.long	.LASF293
+	.byte	0x40
+	.byte	0x15
+	.value	0x3e8
+	.long	0x3d2e
+	.uleb128 0x3
+	.string	"hdr"
+	.byte	0x15
+	.value	0x3e9
+	.byte	0x11
+	.long	0x3073
+	.byte	0
+	.uleb128 0x1
+	.long	.LASF630
+	.byte	0x15
+	.value	0x3ea
+	.byte	0x7
+	.long	0x2fb
+	.byte	0x30
+	.uleb128 0x1
+	.long	.LASF615
+	.byte	0x15
+	.value	0x3eb
+	.byte	0x7
+	.long	0xd5c
+	.byte	0x38
+	.byte	0
+	.uleb128 0x6
+	.long	.LASF294
+	.byte	0x38
+	.byte	0x15
+	.value	0x3f0
+	.long	0x3d58
+	.uleb128 0x3
+	.string	"hdr"
+	.byte	0x15
+	.value	0x3f1
+	.byte	0x11
+	.long	0x3073
+	.byte	0
+	.uleb128 0x1
+	.long	.LASF608
+	.byte	0x15
+	.value	0x3f2
+	.byte	0x7
+	.long	0x2fb
+	.byte	0x30
+	.byte	0
+	.uleb128 0x6
+	.long	.LASF296
+	.byte	0x40
+	.byte	0x15
+	.value	0x3f7
+	.long	0x3d90
+	.uleb128 0x3
+	.string	"hdr"
+	.byte	0x15
+	.value	0x3f8
+	.byte	0x11
+	.long	0x3073
+	.byte	0
+	.uleb128 0x1
+	.long	.LASF608
+	.byte	0x15
+	.value	0x3f9
+	.byte	0x7
+	.long	0x2fb
+	.byte	0x30
+	.uleb128 0x1
+	.long	.LASF615
+	.byte	0x15
+	.value	0x3fa
+	.byte	0x7
+	.long	0xd5c
+	.byte	0x38
+	.byte	0
+	.uleb128 0x6
+	.long	.LASF297
+	.byte	0x40
+	.byte	0x15
+	.value	0x3ff
+	.long	0x3dc8
+	.uleb128 0x3
+	.string	"hdr"
+	.byte	0x15
+	.value	0x400
+	.byte	0x11
+	.long	0x3073
+	.byte	0
+	.uleb128 0x1
+	.long	.LASF194
+	.byte	0x15
+	.value	0x401
+	.byte	0x7
+	.long	0x2fb
+	.byte	0x30
+	.uleb128 0x1
+	.long	.LASF563
+	.byte	0x15
+	.value	0x402
+	.byte	0x7
+	.long	0xd5c
+	.byte	0x38
+	.byte	0
+	.uleb128 0x6
+	.long	.LASF298
+	.byte	0x98
+	.byte	0x15
+	.value	0x408
+	.long	0x3e1b
+	.uleb128 0x3
+	.string	"hdr"
+	.byte	0x15
+	.value	0x409
+	.byte	0x11
+	.long	0x3073
+	.byte	0
+	.uleb128 0x1
+	.long	.LASF623
+	.byte	0x15
+	.value	0x40a
+	.byte	0x7
+	.long	0x2fb
+	.byte	0x30
+	.uleb128 0x1
+	.long	.LASF194
+	.byte	0x15
+	.value	0x40b
+	.byte	0x7
+	.long	0x2fb
+	.byte	0x38
+	.uleb128 0x3
+	.string	"op"
+	.byte	0x15
+	.value	0x40c
+	.byte	0x7
+	.long	0xd5c
+	.byte	0x40
+	.uleb128 0x1
+	.long	.LASF209
+	.byte	0x15
+	.value	0x40d
+	.byte	0x7
+	.long	0x33c6
+	.byte	0x48
+	.byte	0
+	.uleb128 0x6
+	.long	.LASF299
+	.byte	0x88
+	.byte	0x15
+	.value	0x418
+	.long	0x3e52
+	.uleb128 0x3
+	.string	"hdr"
+	.byte	0x15
+	.value	0x419
+	.byte	0x11
+	.long	0x3073
+	.byte	0
+	.uleb128 0x3
+	.string	"op"
+	.byte	0x15
+	.value	0x41a
+	.byte	0x7
+	.long	0x2fb
+	.byte	0x30
+	.uleb128 0x1
+	.long	.LASF209
+	.byte	0x15
+	.value	0x41b
+	.byte	0x7
+	.long	0x33c6
+	.byte	0x38
+	.byte	0
+	.uleb128 0x6
+	.long	.LASF300
+	.byte	0x90
+	.byte	0x15
+	.value	0x421
+	.long	0x3e97
+	.uleb128 0x3
+	.string	"hdr"
+	.byte	0x15
+	.value	0x422
+	.byte	0x11
+	.long	0x3073
+	.byte	0
+	.uleb128 0x1
+	.long	.LASF194
+	.byte	0x15
+	.value	0x423
+	.byte	0x7
+	.long	0x2fb
+	.byte	0x30
+	.uleb128 0x3
+	.string	"op"
+	.byte	0x15
+	.value	0x424
+	.byte	0x7
+	.long	0xd5c
+	.byte	0x38
+	.uleb128 0x1
+	.long	.LASF209
+	.byte	0x15
+	.value	0x425
+	.byte	0x7
+	.long	0x33c6
+	.byte	0x40
+	.byte	0
+	.uleb128 0x6
+	.long	.LASF301
+	.byte	0x98
+	.byte	0x15
+	.value	0x42d
+	.long	0x3eea
+	.uleb128 0x3
+	.string	"hdr"
+	.byte	0x15
+	.value	0x42e
+	.byte	0x11
+	.long	0x3073
+	.byte	0
+	.uleb128 0x1
+	.long	.LASF194
+	.byte	0x15
+	.value	0x42f
+	.byte	0x7
+	.long	0x2fb
+	.byte	0x30
+	.uleb128 0x3
+	.string	"op"
+	.byte	0x15
+	.value	0x430
+	.byte	0x7
+	.long	0xd5c
+	.byte	0x38
+	.uleb128 0x3
+	.string	"env"
+	.byte	0x15
+	.value	0x431
+	.byte	0x7
+	.long	0xd5c
+	.byte	0x40
+	.uleb128 0x1
+	.long	.LASF209
+	.byte	0x15
+	.value	0x432
+	.byte	0x7
+	.long	0x33c6
+	.byte	0x48
+	.byte	0
+	.uleb128 0x6
+	.long	.LASF302
+	.byte	0x50
+	.byte	0x15
+	.value	0x438
+	.long	0x3f3e
+	.uleb128 0x3
+	.string	"hdr"
+	.byte	0x15
+	.value	0x439
+	.byte	0x11
+	.long	0x3073
+	.byte	0
+	.uleb128 0x1
+	.long	.LASF631
+	.byte	0x15
+	.value	0x43a
+	.byte	0x7
+	.long	0xd5c
+	.byte	0x30
+	.uleb128 0x3
+	.string	"fmt"
+	.byte	0x15
+	.value	0x43b
+	.byte	0x7
+	.long	0x2fb
+	.byte	0x38
+	.uleb128 0x1
+	.long	.LASF632
+	.byte	0x15
+	.value	0x43c
+	.byte	0x7
+	.long	0x2fb
+	.byte	0x40
+	.uleb128 0x1
+	.long	.LASF633
+	.byte	0x15
+	.value	0x43d
+	.byte	0x7
+	.long	0xd5c
+	.byte	0x48
+	.byte	0
+	.uleb128 0x6
+	.long	.LASF303
+	.byte	0x58
+	.byte	0x15
+	.value	0x443
+	.long	0x3fa0
+	.uleb128 0x3
+	.string	"hdr"
+	.byte	0x15
+	.value	0x444
+	.byte	0x11
+	.long	0x3073
+	.byte	0
+	.uleb128 0x1
+	.long	.LASF622
+	.byte	0x15
+	.value	0x445
+	.byte	0x7
+	.long	0xd5c
+	.byte	0x30
+	.uleb128 0x3
+	.string	"env"
+	.byte	0x15
+	.value	0x446
+	.byte	0x7
+	.long	0xd5c
+	.byte	0x38
+	.uleb128 0x3
+	.string	"fmt"
+	.byte	0x15
+	.value	0x447
+	.byte	0x7
+	.long	0x2fb
+	.byte	0x40
+	.uleb128 0x1
+	.long	.LASF632
+	.byte	0x15
+	.value	0x448
+	.byte	0x7
+	.long	0x2fb
+	.byte	0x48
+	.uleb128 0x1
+	.long	.LASF633
+	.byte	0x15
+	.value	0x449
+	.byte	0x7
+	.long	0xd5c
+	.byte	0x50
+	.byte	0
+	.uleb128 0x6
+	.long	.LASF292
+	.byte	0x88
+	.byte	0x15
+	.value	0x44f
+	.long	0x3fd7
+	.uleb128 0x3
+	.string	"hdr"
+	.byte	0x15
+	.value	0x450
+	.byte	0x11
+	.long	0x3073
+	.byte	0
+	.uleb128 0x3
+	.string	"op"
+	.byte	0x15
+	.value	0x451
+	.byte	0x7
+	.long	0xd5c
+	.byte	0x30
+	.uleb128 0x1
+	.long	.LASF209
+	.byte	0x15
+	.value	0x452
+	.byte	0x7
+	.long	0x337e
+	.byte	0x38
+	.byte	0
+	.uleb128 0x6
+	.long	.LASF309
+	.byte	0x40
+	.byte	0x15
+	.value	0x457
+	.long	0x400f
+	.uleb128 0x3
+	.string	"hdr"
+	.byte	0x15
+	.value	0x458
+	.byte	0x11
+	.long	0x3073
+	.byte	0
+	.uleb128 0x1
+	.long	.LASF342
+	.byte	0x15
+	.value	0x459
+	.byte	0x7
+	.long	0xd5c
+	.byte	0x30
+	.uleb128 0x1
+	.long	.LASF634
+	.byte	0x15
+	.value	0x45a
+	.byte	0x7
+	.long	0xd5c
+	.byte	0x38
+	.byte	0
+	.uleb128 0x6
+	.long	.LASF304
+	.byte	0x40
+	.byte	0x15
+	.value	0x461
+	.long	0x4047
+	.uleb128 0x3
+	.string	"hdr"
+	.byte	0x15
+	.value	0x462
+	.byte	0x11
+	.long	0x3073
+	.byte	0
+	.uleb128 0x1
+	.long	.LASF608
+	.byte	0x15
+	.value	0x463
+	.byte	0x7
+	.long	0x2fb
+	.byte	0x30
+	.uleb128 0x1
+	.long	.LASF226
+	.byte	0x15
+	.value	0x464
+	.byte	0x7
+	.long	0xd5c
+	.byte	0x38
+	.byte	0
+	.uleb128 0x6
+	.long	.LASF305
+	.byte	0x30
+	.byte	0x15
+	.value	0x469
+	.long	0x4063
+	.uleb128 0x3
+	.string	"hdr"
+	.byte	0x15
+	.value	0x46a
+	.byte	0x11
+	.long	0x3073
+	.byte	0
+	.byte	0
+	.uleb128 0x6
+	.long	.LASF306
+	.byte	0x40
+	.byte	0x15
+	.value	0x46f
+	.long	0x409b
+	.uleb128 0x3
+	.string	"hdr"
+	.byte	0x15
+	.value	0x470
+	.byte	0x11
+	.long	0x3073
+	.byte	0
+	.uleb128 0x1
+	.long	.LASF608
+	.byte	0x15
+	.value	0x471
+	.byte	0x7
+	.long	0x2fb
+	.byte	0x30
+	.uleb128 0x1
+	.long	.LASF567
+	.byte	0x15
+	.value	0x472
+	.byte	0x7
+	.long	0xd5c
+	.byte	0x38
+	.byte	0
+	.uleb128 0x6
+	.long	.LASF308
+	.byte	0x80
+	.byte	0x15
+	.value	0x476
+	.long	0x40c5
+	.uleb128 0x3
+	.string	"hdr"
+	.byte	0x15
+	.value	0x477
+	.byte	0x11
+	.long	0x3073
+	.byte	0
+	.uleb128 0x1
+	.long	.LASF209
+	.byte	0x15
+	.value	0x478
+	.byte	0x7
+	.long	0x33c6
+	.byte	0x30
+	.byte	0
+	.uleb128 0x6
+	.long	.LASF310
+	.byte	0x38
+	.byte	0x15
+	.value	0x47b
+	.long	0x40ef
+	.uleb128 0x3
+	.string	"hdr"
+	.byte	0x15
+	.value	0x47c
+	.byte	0x11
+	.long	0x3073
+	.byte	0
+	.uleb128 0x1
+	.long	.LASF635
+	.byte	0x15
+	.value	0x47d
+	.byte	0x7
+	.long	0xd5c
+	.byte	0x30
+	.byte	0
+	.uleb128 0x6
+	.long	.LASF311
+	.byte	0x38
+	.byte	0x15
+	.value	0x482
+	.long	0x4119
+	.uleb128 0x3
+	.string	"hdr"
+	.byte	0x15
+	.value	0x483
+	.byte	0x11
+	.long	0x3073
+	.byte	0
+	.uleb128 0x1
+	.long	.LASF635
+	.byte	0x15
+	.value	0x484
+	.byte	0x7
+	.long	0xd5c
+	.byte	0x30
+	.byte	0
+	.uleb128 0x6
+	.long	.LASF312
+	.byte	0x38
+	.byte	0x15
+	.value	0x489
+	.long	0x4143
+	.uleb128 0x3
+	.string	"hdr"
+	.byte	0x15
+	.value	0x48a
+	.byte	0x11
+	.long	0x3073
+	.byte	0
+	.uleb128 0x1
+	.long	.LASF561
+	.byte	0x15
+	.value	0x48b
+	.byte	0x7
+	.long	0x2fb
+	.byte	0x30
+	.byte	0
+	.uleb128 0x6
+	.long	.LASF313
+	.byte	0x40
+	.byte	0x15
+	.value	0x490
+	.long	0x417b
+	.uleb128 0x3
+	.string	"hdr"
+	.byte	0x15
+	.value	0x491
+	.byte	0x11
+	.long	0x3073
+	.byte	0
+	.uleb128 0x3
+	.string	"tag"
+	.byte	0x15
+	.value	0x492
+	.byte	0x7
+	.long	0xd5c
+	.byte	0x30
+	.uleb128 0x3
+	.string	"val"
+	.byte	0x15
+	.value	0x493
+	.byte	0x7
+	.long	0xd5c
+	.byte	0x38
+	.byte	0
+	.uleb128 0x6
+	.long	.LASF314
+	.byte	0x40
+	.byte	0x15
+	.value	0x498
+	.long	0x41b3
+	.uleb128 0x3
+	.string	"hdr"
+	.byte	0x15
+	.value	0x499
+	.byte	0x11
+	.long	0x3073
+	.byte	0
+	.uleb128 0x3
+	.string	"ref"
+	.byte	0x15
+	.value	0x49a
+	.byte	0x7
+	.long	0xd5c
+	.byte	0x30
+	.uleb128 0x1
+	.long	.LASF563
+	.byte	0x15
+	.value	0x49b
+	.byte	0x7
+	.long	0xd5c
+	.byte	0x38
+	.byte	0
+	.uleb128 0x6
+	.long	.LASF315
+	.byte	0x48
+	.byte	0x15
+	.value	0x4a0
+	.long	0x41f9
+	.uleb128 0x3
+	.string	"hdr"
+	.byte	0x15
+	.value	0x4a1
+	.byte	0x11
+	.long	0x3073
+	.byte	0
+	.uleb128 0x3
+	.string	"val"
+	.byte	0x15
+	.value	0x4a2
+	.byte	0x7
+	.long	0xd5c
+	.byte	0x30
+	.uleb128 0x1
+	.long	.LASF563
+	.byte	0x15
+	.value	0x4a3
+	.byte	0x7
+	.long	0xd5c
+	.byte	0x38
+	.uleb128 0x1
+	.long	.LASF636
+	.byte	0x15
+	.value	0x4a4
+	.byte	0x7
+	.long	0xd5c
+	.byte	0x40
+	.byte	0
+	.uleb128 0x6
+	.long	.LASF316
+	.byte	0x38
+	.byte	0x15
+	.value	0x4a9
+	.long	0x4223
+	.uleb128 0x3
+	.string	"hdr"
+	.byte	0x15
+	.value	0x4aa
+	.byte	0x11
+	.long	0x3073
+	.byte	0
+	.uleb128 0x1
+	.long	.LASF567
+	.byte	0x15
+	.value	0x4ab
+	.byte	0x7
+	.long	0xd5c
+	.byte	0x30
+	.byte	0
+	.uleb128 0xd
+	.long	.LASF637
+	.byte	0x10
+	.byte	0x18
+	.byte	0x14
+	.byte	0x10
+	.long	0x424b
+	.uleb128 0x2
+	.long	.LASF364
+	.byte	0x18
+	.byte	0x14
+	.byte	0x28
+	.long	0x356
+	.byte	0
+	.uleb128 0x2
+	.long	.LASF90
+	.byte	0x18
+	.byte	0x14
+	.byte	0x46
+	.long	0x424b
+	.byte	0x8
+	.byte	0
+	.uleb128 0x7
+	.long	0x4223
+	.uleb128 0xa
+	.long	.LASF638
+	.byte	0x18
+	.byte	0x14
+	.byte	0x4f
+	.long	0x424b
+	.uleb128 0x25
+	.long	.LASF639
+	.value	0x140
+	.byte	0x18
+	.byte	0x14
+	.byte	0x62
+	.long	0x449f
+	.uleb128 0x2
+	.long	.LASF382
+	.byte	0x18
+	.byte	0x14
+	.byte	0x86
+	.long	0x44b8
+	.byte	0
+	.uleb128 0x2
+	.long	.LASF383
+	.byte	0x18
+	.byte	0x14
+	.byte	0xaf
+	.long	0x44cc
+	.byte	0x8
+	.uleb128 0x2
+	.long	.LASF384
+	.byte	0x18
+	.byte	0x14
+	.byte	0xd1
+	.long	0x44e1
+	.byte	0x10
+	.uleb128 0x2
+	.long	.LASF385
+	.byte	0x18
+	.byte	0x14
+	.byte	0xf2
+	.long	0x44f5
+	.byte	0x18
+	.uleb128 0xb
+	.long	.LASF386
+	.byte	0x18
+	.byte	0x14
+	.value	0x116
+	.long	0x450a
+	.byte	0x20
+	.uleb128 0xb
+	.long	.LASF387
+	.byte	0x18
+	.byte	0x14
+	.value	0x136
+	.long	0x4541
+	.byte	0x28
+	.uleb128 0xb
+	.long	.LASF388
+	.byte	0x18
+	.byte	0x14
+	.value	0x17c
+	.long	0x4564
+	.byte	0x30
+	.uleb128 0xb
+	.long	.LASF389
+	.byte	0x18
+	.byte	0x14
+	.value	0x1c7
+	.long	0x4578
+	.byte	0x38
+	.uleb128 0xb
+	.long	.LASF390
+	.byte	0x18
+	.byte	0x14
+	.value	0x1e6
+	.long	0x4588
+	.byte	0x40
+	.uleb128 0xb
+	.long	.LASF391
+	.byte	0x18
+	.byte	0x14
+	.value	0x207
+	.long	0x45a1
+	.byte	0x48
+	.uleb128 0xb
+	.long	.LASF392
+	.byte	0x18
+	.byte	0x14
+	.value	0x230
+	.long	0x45c6
+	.byte	0x50
+	.uleb128 0xb
+	.long	.LASF393
+	.byte	0x18
+	.byte	0x14
+	.value	0x26a
+	.long	0x45e4
+	.byte	0x58
+	.uleb128 0xb
+	.long	.LASF394
+	.byte	0x18
+	.byte	0x14
+	.value	0x2b4
+	.long	0x4616
+	.byte	0x60
+	.uleb128 0x1f
+	.string	"Elt"
+	.byte	0x18
+	.byte	0x14
+	.value	0x2fc
+	.long	0x462f
+	.byte	0x68
+	.uleb128 0xb
+	.long	.LASF395
+	.byte	0x18
+	.byte	0x14
+	.value	0x324
+	.long	0x4648
+	.byte	0x70
+	.uleb128 0xb
+	.long	.LASF396
+	.byte	0x18
+	.byte	0x14
+	.value	0x34d
+	.long	0x4578
+	.byte	0x78
+	.uleb128 0xb
+	.long	.LASF397
+	.byte	0x18
+	.byte	0x14
+	.value	0x36e
+	.long	0x465c
+	.byte	0x80
+	.uleb128 0xb
+	.long	.LASF398
+	.byte	0x18
+	.byte	0x14
+	.value	0x38c
+	.long	0x4675
+	.byte	0x88
+	.uleb128 0xb
+	.long	.LASF399
+	.byte	0x18
+	.byte	0x14
+	.value	0x3b3
+	.long	0x4675
+	.byte	0x90
+	.uleb128 0xb
+	.long	.LASF400
+	.byte	0x18
+	.byte	0x14
+	.value	0x3db
+	.long	0x4675
+	.byte	0x98
+	.uleb128 0xb
+	.long	.LASF401
+	.byte	0x18
+	.byte	0x14
+	.value	0x408
+	.long	0x4578
+	.byte	0xa0
+	.uleb128 0xb
+	.long	.LASF402
+	.byte	0x18
+	.byte	0x14
+	.value	0x429
+	.long	0x45a1
+	.byte	0xa8
+	.uleb128 0xb
+	.long	.LASF403
+	.byte	0x18
+	.byte	0x14
+	.value	0x458
+	.long	0x46a2
+	.byte	0xb0
+	.uleb128 0xb
+	.long	.LASF404
+	.byte	0x18
+	.byte	0x14
+	.value	0x493
+	.long	0x46c0
+	.byte	0xb8
+	.uleb128 0x1f
+	.string	"Map"
+	.byte	0x18
+	.byte	0x14
+	.value	0x4dc
+	.long	0x46d9
+	.byte	0xc0
+	.uleb128 0xb
+	.long	.LASF405
+	.byte	0x18
+	.byte	0x14
+	.value	0x511
+	.long	0x46d9
+	.byte	0xc8
+	.uleb128 0xb
+	.long	.LASF406
+	.byte	0x18
+	.byte	0x14
+	.value	0x547
+	.long	0x4578
+	.byte	0xd0
+	.uleb128 0xb
+	.long	.LASF407
+	.byte	0x18
+	.byte	0x14
+	.value	0x56b
+	.long	0x4578
+	.byte	0xd8
+	.uleb128 0xb
+	.long	.LASF408
+	.byte	0x18
+	.byte	0x14
+	.value	0x590
+	.long	0x45a1
+	.byte	0xe0
+	.uleb128 0xb
+	.long	.LASF409
+	.byte	0x18
+	.byte	0x14
+	.value	0x5bf
+	.long	0x45a1
+	.byte	0xe8
+	.uleb128 0xb
+	.long	.LASF410
+	.byte	0x18
+	.byte	0x14
+	.value	0x5e9
+	.long	0x46f2
+	.byte	0xf0
+	.uleb128 0xb
+	.long	.LASF411
+	.byte	0x18
+	.byte	0x14
+	.value	0x60c
+	.long	0x4710
+	.byte	0xf8
+	.uleb128 0x10
+	.long	.LASF412
+	.byte	0x18
+	.byte	0x14
+	.value	0x64c
+	.long	0x4729
+	.value	0x100
+	.uleb128 0x10
+	.long	.LASF413
+	.byte	0x18
+	.byte	0x14
+	.value	0x67a
+	.long	0x4742
+	.value	0x108
+	.uleb128 0x10
+	.long	.LASF414
+	.byte	0x18
+	.byte	0x14
+	.value	0x69c
+	.long	0x4760
+	.value	0x110
+	.uleb128 0x10
+	.long	.LASF415
+	.byte	0x18
+	.byte	0x14
+	.value	0x6e4
+	.long	0x477e
+	.value	0x118
+	.uleb128 0x10
+	.long	.LASF416
+	.byte	0x18
+	.byte	0x14
+	.value	0x725
+	.long	0x4798
+	.value	0x120
+	.uleb128 0x10
+	.long	.LASF417
+	.byte	0x18
+	.byte	0x14
+	.value	0x74f
+	.long	0x47cf
+	.value	0x128
+	.uleb128 0x10
+	.long	.LASF418
+	.byte	0x18
+	.byte	0x14
+	.value	0x78e
+	.long	0x47fc
+	.value	0x130
+	.uleb128 0x10
+	.long	.LASF419
+	.byte	0x18
+	.byte	0x14
+	.value	0x7e6
+	.long	0x481a
+	.value	0x138
+	.byte	0
+	.uleb128 0x24
+	.long	0x425c
+	.uleb128 0x9
+	.long	0x4250
+	.long	0x44b8
+	.uleb128 0x4
+	.long	0x356
+	.uleb128 0x4
+	.long	0x4250
+	.byte	0
+	.uleb128 0x7
+	.long	0x44a4
+	.uleb128 0x9
+	.long	0x4250
+	.long	0x44cc
+	.uleb128 0x4
+	.long	0x356
+	.byte	0
+	.uleb128 0x7
+	.long	0x44bd
+	.uleb128 0x9
+	.long	0x4250
+	.long	0x44e1
+	.uleb128 0x4
+	.long	0x2e
+	.uleb128 0x18
+	.byte	0
+	.uleb128 0x7
+	.long	0x44d1
+	.uleb128 0x9
+	.long	0x4250
+	.long	0x44f5
+	.uleb128 0x4
+	.long	0x4d8
+	.byte	0
+	.uleb128 0x7
+	.long	0x44e6
+	.uleb128 0x9
+	.long	0x4250
+	.long	0x450a
+	.uleb128 0x4
+	.long	0x356
+	.uleb128 0x18
+	.byte	0
+	.uleb128 0x7
+	.long	0x44fa
+	.uleb128 0x9
+	.long	0x315
+	.long	0x4528
+	.uleb128 0x4
+	.long	0x4250
+	.uleb128 0x4
+	.long	0x4250
+	.uleb128 0x4
+	.long	0x4528
+	.byte	0
+	.uleb128 0x7
+	.long	0x452d
+	.uleb128 0x9
+	.long	0x315
+	.long	0x4541
+	.uleb128 0x4
+	.long	0x356
+	.uleb128 0x4
+	.long	0x356
+	.byte	0
+	.uleb128 0x7
+	.long	0x450f
+	.uleb128 0x9
+	.long	0x356
+	.long	0x4564
+	.uleb128 0x4
+	.long	0x4250
+	.uleb128 0x4
+	.long	0x356
+	.uleb128 0x4
+	.long	0x4528
+	.uleb128 0x4
+	.long	0x4dd
+	.byte	0
+	.uleb128 0x7
+	.long	0x4546
+	.uleb128 0x9
+	.long	0x4250
+	.long	0x4578
+	.uleb128 0x4
+	.long	0x4250
+	.byte	0
+	.uleb128 0x7
+	.long	0x4569
+	.uleb128 0x16
+	.long	0x4588
+	.uleb128 0x4
+	.long	0x4250
+	.byte	0
+	.uleb128 0x7
+	.long	0x457d
+	.uleb128 0x9
+	.long	0x4250
+	.long	0x45a1
+	.uleb128 0x4
+	.long	0x4250
+	.uleb128 0x4
+	.long	0x4250
+	.byte	0
+	.uleb128 0x7
+	.long	0x458d
+	.uleb128 0x16
+	.long	0x45b6
+	.uleb128 0x4
+	.long	0x4250
+	.uleb128 0x4
+	.long	0x45b6
+	.byte	0
+	.uleb128 0x7
+	.long	0x45bb
+	.uleb128 0x16
+	.long	0x45c6
+	.uleb128 0x4
+	.long	0x356
+	.byte	0
+	.uleb128 0x7
+	.long	0x45a6
+	.uleb128 0x9
+	.long	0x4250
+	.long	0x45e4
+	.uleb128 0x4
+	.long	0x4250
+	.uleb128 0x4
+	.long	0x4250
+	.uleb128 0x4
+	.long	0x45b6
+	.byte	0
+	.uleb128 0x7
+	.long	0x45cb
+	.uleb128 0x9
+	.long	0x4250
+	.long	0x4602
+	.uleb128 0x4
+	.long	0x4250
+	.uleb128 0x4
+	.long	0x45b6
+	.uleb128 0x4
+	.long	0x4602
+	.byte	0
+	.uleb128 0x7
+	.long	0x4607
+	.uleb128 0x9
+	.long	0x315
+	.long	0x4616
+	.uleb128 0x4
+	.long	0x356
+	.byte	0
+	.uleb128 0x7
+	.long	0x45e9
+	.uleb128 0x9
+	.long	0x356
+	.long	0x462f
+	.uleb128 0x4
+	.long	0x4250
+	.uleb128 0x4
+	.long	0x32f
+	.byte	0
+	.uleb128 0x7
+	.long	0x461b
+	.uleb128 0x9
+	.long	0x4250
+	.long	0x4648
+	.uleb128 0x4
+	.long	0x4250
+	.uleb128 0x4
+	.long	0x32f
+	.byte	0
+	.uleb128 0x7
+	.long	0x4634
+	.uleb128 0x9
+	.long	0x32f
+	.long	0x465c
+	.uleb128 0x4
+	.long	0x4250
+	.byte	0
+	.uleb128 0x7
+	.long	0x464d
+	.uleb128 0x9
+	.long	0x315
+	.long	0x4675
+	.uleb128 0x4
+	.long	0x4250
+	.uleb128 0x4
+	.long	0x32f
+	.byte	0
+	.uleb128 0x7
+	.long	0x4661
+	.uleb128 0x9
+	.long	0x4250
+	.long	0x468e
+	.uleb128 0x4
+	.long	0x4250
+	.uleb128 0x4
+	.long	0x468e
+	.byte	0
+	.uleb128 0x7
+	.long	0x4693
+	.uleb128 0x9
+	.long	0x356
+	.long	0x46a2
+	.uleb128 0x4
+	.long	0x356
+	.byte	0
+	.uleb128 0x7
+	.long	0x467a
+	.uleb128 0x9
+	.long	0x4250
+	.long	0x46c0
+	.uleb128 0x4
+	.long	0x4250
+	.uleb128 0x4
+	.long	0x4250
+	.uleb128 0x4
+	.long	0x468e
+	.byte	0
+	.uleb128 0x7
+	.long	0x46a7
+	.uleb128 0x9
+	.long	0x4250
+	.long	0x46d9
+	.uleb128 0x4
+	.long	0x468e
+	.uleb128 0x4
+	.long	0x4250
+	.byte	0
+	.uleb128 0x7
+	.long	0x46c5
+	.uleb128 0x9
+	.long	0x315
+	.long	0x46f2
+	.uleb128 0x4
+	.long	0x4250
+	.uleb128 0x4
+	.long	0x356
+	.byte	0
+	.uleb128 0x7
+	.long	0x46de
+	.uleb128 0x9
+	.long	0x315
+	.long	0x4710
+	.uleb128 0x4
+	.long	0x4250
+	.uleb128 0x4
+	.long	0x356
+	.uleb128 0x4
+	.long	0x4528
+	.byte	0
+	.uleb128 0x7
+	.long	0x46f7
+	.uleb128 0x9
+	.long	0x315
+	.long	0x4729
+	.uleb128 0x4
+	.long	0x4250
+	.uleb128 0x4
+	.long	0x4250
+	.byte	0
+	.uleb128 0x7
+	.long	0x4715
+	.uleb128 0x9
+	.long	0x2e
+	.long	0x4742
+	.uleb128 0x4
+	.long	0x4250
+	.uleb128 0x4
+	.long	0x356
+	.byte	0
+	.uleb128 0x7
+	.long	0x472e
+	.uleb128 0x9
+	.long	0x2e
+	.long	0x4760
+	.uleb128 0x4
+	.long	0x4250
+	.uleb128 0x4
+	.long	0x356
+	.uleb128 0x4
+	.long	0x4528
+	.byte	0
+	.uleb128 0x7
+	.long	0x4747
+	.uleb128 0x9
+	.long	0x4250
+	.long	0x477e
+	.uleb128 0x4
+	.long	0x4250
+	.uleb128 0x4
+	.long	0x356
+	.uleb128 0x4
+	.long	0x4528
+	.byte	0
+	.uleb128 0x7
+	.long	0x4765
+	.uleb128 0x16
+	.long	0x4793
+	.uleb128 0x4
+	.long	0x4793
+	.uleb128 0x4
+	.long	0x4250
+	.byte	0
+	.uleb128 0x7
+	.long	0x356
+	.uleb128 0x7
+	.long	0x4783
+	.uleb128 0x9
+	.long	0x2e
+	.long	0x47b6
+	.uleb128 0x4
+	.long	0x2c3
+	.uleb128 0x4
+	.long	0x4250
+	.uleb128 0x4
+	.long	0x47b6
+	.byte	0
+	.uleb128 0x7
+	.long	0x47bb
+	.uleb128 0x9
+	.long	0x2e
+	.long	0x47cf
+	.uleb128 0x4
+	.long	0x2c3
+	.uleb128 0x4
+	.long	0x356
+	.byte	0
+	.uleb128 0x7
+	.long	0x479d
+	.uleb128 0x9
+	.long	0x2e
+	.long	0x47fc
+	.uleb128 0x4
+	.long	0x2c3
+	.uleb128 0x4
+	.long	0x4250
+	.uleb128 0x4
+	.long	0x47b6
+	.uleb128 0x4
+	.long	0x80
+	.uleb128 0x4
+	.long	0x80
+	.uleb128 0x4
+	.long	0x80
+	.byte	0
+	.uleb128 0x7
+	.long	0x47d4
+	.uleb128 0x9
+	.long	0x2e
+	.long	0x481a
+	.uleb128 0x4
+	.long	0x3d2
+	.uleb128 0x4
+	.long	0x363
+	.uleb128 0x4
+	.long	0x4250
+	.byte	0
+	.uleb128 0x7
+	.long	0x4801
+	.uleb128 0x2a
+	.long	.LASF640
+	.byte	0x18
+	.byte	0x14
+	.value	0x83b
+	.long	0x482c
+	.uleb128 0x7
+	.long	0x449f
+	.uleb128 0x20
+	.long	.LASF641
+	.byte	0x19
+	.byte	0x27
+	.byte	0xe
+	.long	0x2c3
+	.uleb128 0xd
+	.long	.LASF642
+	.byte	0x18
+	.byte	0x16
+	.byte	0x33
+	.byte	0x8
+	.long	0x4872
+	.uleb128 0x2
+	.long	.LASF317
+	.byte	0x16
+	.byte	0x34
+	.byte	0x8
+	.long	0x2d4
+	.byte	0
+	.uleb128 0x2
+	.long	.LASF324
+	.byte	0x16
+	.byte	0x35
+	.byte	0x9
+	.long	0x33c
+	.byte	0x8
+	.uleb128 0x2
+	.long	.LASF643
+	.byte	0x16
+	.byte	0x36
+	.byte	0x9
+	.long	0x33c
+	.byte	0x10
+	.byte	0
+	.uleb128 0x25
+	.long	.LASF644
+	.value	0x228
+	.byte	0x16
+	.byte	0x53
+	.byte	0x8
+	.long	0x48d0
+	.uleb128 0x2
+	.long	.LASF645
+	.byte	0x16
+	.byte	0x54
+	.byte	0x9
+	.long	0x2e1
+	.byte	0
+	.uleb128 0x2
+	.long	.LASF646
+	.byte	0x16
+	.byte	0x55
+	.byte	0x8
+	.long	0x2ee
+	.byte	0x8
+	.uleb128 0x2
+	.long	.LASF647
+	.byte	0x16
+	.byte	0x56
+	.byte	0x8
+	.long	0x2ee
+	.byte	0x10
+	.uleb128 0x2
+	.long	.LASF648
+	.byte	0x16
+	.byte	0x57
+	.byte	0x9
+	.long	0x2e1
+	.byte	0x18
+	.uleb128 0x2
+	.long	.LASF649
+	.byte	0x16
+	.byte	0x59
+	.byte	0x11
+	.long	0x48d0
+	.byte	0x20
+	.uleb128 0x36
+	.long	.LASF650
+	.byte	0x16
+	.byte	0x5a
+	.byte	0x9
+	.long	0x48e0
+	.value	0x200
+	.byte	0
+	.uleb128 0x14
+	.long	0x483d
+	.long	0x48e0
+	.uleb128 0x15
+	.long	0x4a
+	.byte	0x13
+	.byte	0
+	.uleb128 0x14
+	.long	0x2e1
+	.long	0x48f0
+	.uleb128 0x15
+	.long	0x4a
+	.byte	0x13
+	.byte	0
+	.uleb128 0x7
+	.long	0x2ee
+	.uleb128 0x7
+	.long	0x2e1
+	.uleb128 0xd
+	.long	.LASF651
+	.byte	0x18
+	.byte	0x1a
+	.byte	0x7
+	.byte	0x10
+	.long	0x492f
+	.uleb128 0x2
+	.long	.LASF210
+	.byte	0x1a
+	.byte	0x8
+	.byte	0x7
+	.long	0x145b
+	.byte	0
+	.uleb128 0x2
+	.long	.LASF652
+	.byte	0x1a
+	.byte	0x9
+	.byte	0xc
+	.long	0x158a
+	.byte	0x8
+	.uleb128 0x2
+	.long	.LASF653
+	.byte	0x1a
+	.byte	0xa
+	.byte	0xa
+	.long	0xa3d
+	.byte	0x10
+	.byte	0
+	.uleb128 0xa
+	.long	.LASF654
+	.byte	0x1a
+	.byte	0xb
+	.byte	0x4
+	.long	0x493b
+	.uleb128 0x7
+	.long	0x48fa
+	.uleb128 0xd
+	.long	.LASF655
+	.byte	0x10
+	.byte	0x1a
+	.byte	0xd
+	.byte	0x10
+	.long	0x4968
+	.uleb128 0x2
+	.long	.LASF364
+	.byte	0x1a
+	.byte	0xd
+	.byte	0x2e
+	.long	0x492f
+	.byte	0
+	.uleb128 0x2
+	.long	.LASF90
+	.byte	0x1a
+	.byte	0xd
+	.byte	0x4f
+	.long	0x4968
+	.byte	0x8
+	.byte	0
+	.uleb128 0x7
+	.long	0x4940
+	.uleb128 0xa
+	.long	.LASF656
+	.byte	0x1a
+	.byte	0xd
+	.byte	0x58
+	.long	0x4968
+	.uleb128 0xd
+	.long	.LASF657
+	.byte	0x18
+	.byte	0x1a
+	.byte	0xf
+	.byte	0x10
+	.long	0x49ae
+	.uleb128 0x2
+	.long	.LASF658
+	.byte	0x1a
+	.byte	0x10
+	.byte	0x7
+	.long	0x315
+	.byte	0
+	.uleb128 0x2
+	.long	.LASF223
+	.byte	0x1a
+	.byte	0x11
+	.byte	0x10
+	.long	0x496d
+	.byte	0x8
+	.uleb128 0x2
+	.long	.LASF653
+	.byte	0x1a
+	.byte	0x12
+	.byte	0xa
+	.long	0xa3d
+	.byte	0x10
+	.byte	0
+	.uleb128 0xa
+	.long	.LASF659
+	.byte	0x1a
+	.byte	0x13
+	.byte	0x4
+	.long	0x49ba
+	.uleb128 0x7
+	.long	0x4979
+	.uleb128 0xd
+	.long	.LASF660
+	.byte	0x10
+	.byte	0x1b
+	.byte	0xc
+	.byte	0x10
+	.long	0x49e7
+	.uleb128 0x2
+	.long	.LASF661
+	.byte	0x1b
+	.byte	0xd
+	.byte	0xd
+	.long	0x1dba
+	.byte	0
+	.uleb128 0x2
+	.long	.LASF214
+	.byte	0x1b
+	.byte	0xe
+	.byte	0xb
+	.long	0x1c81
+	.byte	0x8
+	.byte	0
+	.uleb128 0xa
+	.long	.LASF660
+	.byte	0x1b
+	.byte	0xf
+	.byte	0x4
+	.long	0x49f3
+	.uleb128 0x7
+	.long	0x49bf
+	.uleb128 0x21
+	.long	.LASF662
+	.long	0x43
+	.byte	0x13
+	.byte	0x1a
+	.long	0x4b16
+	.uleb128 0x8
+	.long	.LASF663
+	.byte	0
+	.uleb128 0x8
+	.long	.LASF664
+	.byte	0
+	.uleb128 0x8
+	.long	.LASF665
+	.byte	0
+	.uleb128 0x8
+	.long	.LASF666
+	.byte	0x1
+	.uleb128 0x8
+	.long	.LASF667
+	.byte	0x2
+	.uleb128 0x8
+	.long	.LASF668
+	.byte	0x3
+	.uleb128 0x8
+	.long	.LASF669
+	.byte	0x4
+	.uleb128 0x8
+	.long	.LASF670
+	.byte	0x5
+	.uleb128 0x8
+	.long	.LASF671
+	.byte	0x6
+	.uleb128 0x8
+	.long	.LASF672
+	.byte	0x6
+	.uleb128 0x8
+	.long	.LASF673
+	.byte	0x6
+	.uleb128 0x8
+	.long	.LASF674
+	.byte	0x7
+	.uleb128 0x8
+	.long	.LASF675
+	.byte	0x8
+	.uleb128 0x8
+	.long	.LASF676
+	.byte	0x8
+	.uleb128 0x8
+	.long	.LASF677
+	.byte	0x8
+	.uleb128 0x8
+	.long	.LASF678
+	.byte	0x9
+	.uleb128 0x8
+	.long	.LASF679
+	.byte	0xa
+	.uleb128 0x8
+	.long	.LASF680
+	.byte	0xb
+	.uleb128 0x8
+	.long	.LASF681
+	.byte	0xc
+	.uleb128 0x8
+	.long	.LASF682
+	.byte	0xd
+	.uleb128 0x8
+	.long	.LASF683
+	.byte	0xe
+	.uleb128 0x8
+	.long	.LASF684
+	.byte	0xf
+	.uleb128 0x8
+	.long	.LASF685
+	.byte	0x10
+	.uleb128 0x8
+	.long	.LASF686
+	.byte	0x11
+	.uleb128 0x8
+	.long	.LASF687
+	.byte	0x12
+	.uleb128 0x8
+	.long	.LASF688
+	.byte	0x13
+	.uleb128 0x8
+	.long	.LASF689
+	.byte	0x14
+	.uleb128 0x8
+	.long	.LASF690
+	.byte	0x15
+	.uleb128 0x8
+	.long	.LASF691
+	.byte	0x16
+	.uleb128 0x8
+	.long	.LASF692
+	.byte	0x17
+	.uleb128 0x8
+	.long	.LASF693
+	.byte	0x18
+	.uleb128 0x8
+	.long	.LASF694
+	.byte	0x19
+	.uleb128 0x8
+	.long	.LASF695
+	.byte	0x1a
+	.uleb128 0x8
+	.long	.LASF696
+	.byte	0x1b
+	.uleb128 0x8
+	.long	.LASF697
+	.byte	0x1c
+	.uleb128 0x8
+	.long	.LASF698
+	.byte	0x1d
+	.uleb128 0x8
+	.long	.LASF699
+	.byte	0x1e
+	.uleb128 0x8
+	.long	.LASF700
+	.byte	0x1f
+	.uleb128 0x8
+	.long	.LASF701
+	.byte	0x20
+	.uleb128 0x8
+	.long	.LASF702
+	.byte	0x21
+	.uleb128 0x8
+	.long	.LASF703
+	.byte	0x22
+	.uleb128 0x8
+	.long	.LASF704
+	.byte	0x23
+	.uleb128 0x8
+	.long	.LASF705
+	.byte	0x24
+	.uleb128 0x8
+	.long	.LASF706
+	.byte	0x25
+	.uleb128 0x8
+	.long	.LASF707
+	.byte	0x25
+	.byte	0
+	.uleb128 0x7
+	.long	0x32f
+	.uleb128 0x37
+	.long	.LASF708
+	.byte	0x13
+	.value	0x1c1
+	.byte	0xe
+	.long	0xb2c
+	.uleb128 0xa
+	.long	.LASF709
+	.byte	0x17
+	.byte	0x16
+	.byte	0x1b
+	.long	0x4b34
+	.uleb128 0x7
+	.long	0x4b39
+	.uleb128 0xd
+	.long	.LASF710
+	.byte	0xb0
+	.byte	0x17
+	.byte	0x1a
+	.byte	0x8
+	.long	0x4c98
+	.uleb128 0x2
+	.long	.LASF711
+	.byte	0x17
+	.byte	0x1b
+	.byte	0x8
+	.long	0x2d4
+	.byte	0
+	.uleb128 0x2
+	.long	.LASF712
+	.byte	0x17
+	.byte	0x1c
+	.byte	0x8
+	.long	0x2d4
+	.byte	0x1
+	.uleb128 0x2
+	.long	.LASF713
+	.byte	0x17
+	.byte	0x1d
+	.byte	0x8
+	.long	0x2d4
+	.byte	0x2
+	.uleb128 0x2
+	.long	.LASF714
+	.byte	0x17
+	.byte	0x1e
+	.byte	0x8
+	.long	0x2d4
+	.byte	0x3
+	.uleb128 0x2
+	.long	.LASF715
+	.byte	0x17
+	.byte	0x1f
+	.byte	0x8
+	.long	0x2d4
+	.byte	0x4
+	.uleb128 0x12
+	.string	"tf"
+	.byte	0x17
+	.byte	0x20
+	.byte	0x8
+	.long	0xb2c
+	.byte	0x8
+	.uleb128 0x2
+	.long	.LASF716
+	.byte	0x17
+	.byte	0x21
+	.byte	0x8
+	.long	0xd46
+	.byte	0x10
+	.uleb128 0x2
+	.long	.LASF717
+	.byte	0x17
+	.byte	0x22
+	.byte	0x8
+	.long	0xd46
+	.byte	0x18
+	.uleb128 0x2
+	.long	.LASF718
+	.byte	0x17
+	.byte	0x23
+	.byte	0x8
+	.long	0xd46
+	.byte	0x20
+	.uleb128 0x2
+	.long	.LASF222
+	.byte	0x17
+	.byte	0x24
+	.byte	0xc
+	.long	0x1c0f
+	.byte	0x28
+	.uleb128 0x2
+	.long	.LASF719
+	.byte	0x17
+	.byte	0x25
+	.byte	0xc
+	.long	0x158a
+	.byte	0x30
+	.uleb128 0x2
+	.long	.LASF720
+	.byte	0x17
+	.byte	0x26
+	.byte	0xc
+	.long	0x158a
+	.byte	0x38
+	.uleb128 0x2
+	.long	.LASF721
+	.byte	0x17
+	.byte	0x27
+	.byte	0xd
+	.long	0x1551
+	.byte	0x40
+	.uleb128 0x2
+	.long	.LASF722
+	.byte	0x17
+	.byte	0x28
+	.byte	0x10
+	.long	0x4cc5
+	.byte	0x48
+	.uleb128 0x2
+	.long	.LASF723
+	.byte	0x17
+	.byte	0x29
+	.byte	0x10
+	.long	0x4cc5
+	.byte	0x50
+	.uleb128 0x2
+	.long	.LASF724
+	.byte	0x17
+	.byte	0x2a
+	.byte	0x9
+	.long	0x32f
+	.byte	0x58
+	.uleb128 0x2
+	.long	.LASF725
+	.byte	0x17
+	.byte	0x2b
+	.byte	0x9
+	.long	0x32f
+	.byte	0x60
+	.uleb128 0x2
+	.long	.LASF726
+	.byte	0x17
+	.byte	0x2c
+	.byte	0x10
+	.long	0x4cc5
+	.byte	0x68
+	.uleb128 0x2
+	.long	.LASF727
+	.byte	0x17
+	.byte	0x2d
+	.byte	0x10
+	.long	0x4cc5
+	.byte	0x70
+	.uleb128 0x2
+	.long	.LASF728
+	.byte	0x17
+	.byte	0x2e
+	.byte	0x9
+	.long	0x32f
+	.byte	0x78
+	.uleb128 0x2
+	.long	.LASF729
+	.byte	0x17
+	.byte	0x2f
+	.byte	0x9
+	.long	0x32f
+	.byte	0x80
+	.uleb128 0x2
+	.long	.LASF730
+	.byte	0x17
+	.byte	0x30
+	.byte	0x7
+	.long	0x315
+	.byte	0x88
+	.uleb128 0x2
+	.long	.LASF731
+	.byte	0x17
+	.byte	0x31
+	.byte	0x10
+	.long	0x4cc5
+	.byte	0x90
+	.uleb128 0x2
+	.long	.LASF732
+	.byte	0x17
+	.byte	0x32
+	.byte	0x9
+	.long	0x32f
+	.byte	0x98
+	.uleb128 0x2
+	.long	.LASF733
+	.byte	0x17
+	.byte	0x33
+	.byte	0x7
+	.long	0x315
+	.byte	0xa0
+	.uleb128 0x2
+	.long	.LASF734
+	.byte	0x17
+	.byte	0x34
+	.byte	0xc
+	.long	0x4b28
+	.byte	0xa8
+	.byte	0
+	.uleb128 0xd
+	.long	.LASF735
+	.byte	0x10
+	.byte	0x17
+	.byte	0x18
+	.byte	0x10
+	.long	0x4cc0
+	.uleb128 0x2
+	.long	.LASF364
+	.byte	0x17
+	.byte	0x18
+	.byte	0x2e
+	.long	0x4b28
+	.byte	0
+	.uleb128 0x2
+	.long	.LASF90
+	.byte	0x17
+	.byte	0x18
+	.byte	0x4f
+	.long	0x4cc0
+	.byte	0x8
+	.byte	0
+	.uleb128 0x7
+	.long	0x4c98
+	.uleb128 0xa
+	.long	.LASF736
+	.byte	0x17
+	.byte	0x18
+	.byte	0x58
+	.long	0x4cc0
+	.uleb128 0x38
+	.byte	0x10
+	.byte	0x17
+	.byte	0x4c
+	.byte	0x2
+	.long	0x4cf5
+	.uleb128 0x2
+	.long	.LASF652
+	.byte	0x17
+	.byte	0x4d
+	.byte	0x11
+	.long	0x4cc5
+	.byte	0
+	.uleb128 0x2
+	.long	.LASF94
+	.byte	0x17
+	.byte	0x4e
+	.byte	0x9
+	.long	0x583
+	.byte	0x8
+	.byte	0
+	.uleb128 0x20
+	.long	.LASF737
+	.byte	0x1
+	.byte	0xba
+	.byte	0xc
+	.long	0x2e
+	.uleb128 0x20
+	.long	.LASF738
+	.byte	0x1
+	.byte	0xbb
+	.byte	0xc
+	.long	0x2e
+	.uleb128 0x17
+	.long	.LASF739
+	.byte	0x1c
+	.byte	0x28
+	.byte	0xc
+	.long	0x2e
+	.long	0x4d24
+	.uleb128 0x4
+	.long	0x2cf
+	.uleb128 0x18
+	.byte	0
+	.uleb128 0x1c
+	.long	.LASF740
+	.byte	0x13
+	.value	0x262
+	.byte	0xe
+	.long	0xb2c
+	.long	0x4d3c
+	.uleb128 0x4
+	.long	0x32f
+	.uleb128 0x18
+	.byte	0
+	.uleb128 0x1a
+	.long	.LASF741
+	.byte	0x1d
+	.byte	0xa
+	.byte	0x6
+	.long	0x4d53
+	.uleb128 0x4
+	.long	0x356
+	.uleb128 0x4
+	.long	0x2e
+	.byte	0
+	.uleb128 0x1a
+	.long	.LASF742
+	.byte	0x1e
+	.byte	0xe
+	.byte	0xd
+	.long	0x4d6f
+	.uleb128 0x4
+	.long	0x145b
+	.uleb128 0x4
+	.long	0x653
+	.uleb128 0x4
+	.long	0xb2c
+	.byte	0
+	.uleb128 0x17
+	.long	.LASF743
+	.byte	0x1f
+	.byte	0x2f
+	.byte	0xd
+	.long	0x315
+	.long	0x4d8a
+	.uleb128 0x4
+	.long	0xb2c
+	.uleb128 0x4
+	.long	0xb2c
+	.byte	0
+	.uleb128 0x1c
+	.long	.LASF744
+	.byte	0x13
+	.value	0x2fd
+	.byte	0xe
+	.long	0xb2c
+	.long	0x4da6
+	.uleb128 0x4
+	.long	0xb2c
+	.uleb128 0x4
+	.long	0x32f
+	.byte	0
+	.uleb128 0x1a
+	.long	.LASF745
+	.byte	0x1d
+	.byte	0xc
+	.byte	0x6
+	.long	0x4dbd
+	.uleb128 0x4
+	.long	0x356
+	.uleb128 0x4
+	.long	0x315
+	.byte	0
+	.uleb128 0x23
+	.long	.LASF759
+	.byte	0x1b
+	.uleb128 0x1a
+	.long	.LASF746
+	.byte	0x1d
+	.byte	0x8
+	.byte	0x6
+	.long	0x4ddf
+	.uleb128 0x4
+	.long	0x356
+	.uleb128 0x4
+	.long	0x2e
+	.uleb128 0x4
+	.long	0x2e
+	.byte	0
+	.uleb128 0x17
+	.long	.LASF747
+	.byte	0x14
+	.byte	0x20
+	.byte	0xc
+	.long	0x2e
+	.long	0x4df5
+	.uleb128 0x4
+	.long	0xcea
+	.byte	0
+	.uleb128 0x1a
+	.long	.LASF748
+	.byte	0x20
+	.byte	0xe
+	.byte	0xd
+	.long	0x4e11
+	.uleb128 0x4
+	.long	0x145b
+	.uleb128 0x4
+	.long	0x653
+	.uleb128 0x4
+	.long	0xb2c
+	.byte	0
+	.uleb128 0x1c
+	.long	.LASF749
+	.byte	0x13
+	.value	0x2ca
+	.byte	0xe
+	.long	0xb2c
+	.long	0x4e28
+	.uleb128 0x4
+	.long	0xb2c
+	.byte	0
+	.uleb128 0x17
+	.long	.LASF750
+	.byte	0x21
+	.byte	0x41
+	.byte	0x7
+	.long	0x653
+	.long	0x4e3e
+	.uleb128 0x4
+	.long	0x356
+	.byte	0
+	.uleb128 0x17
+	.long	.LASF751
+	.byte	0x1c
+	.byte	0x26
+	.byte	0xc
+	.long	0x2e
+	.long	0x4e5a
+	.uleb128 0x4
+	.long	0x2c3
+	.uleb128 0x4
+	.long	0x2cf
+	.uleb128 0x18
+	.byte	0
+	.uleb128 0x1c
+	.long	.LASF752
+	.byte	0x12
+	.value	0x138
+	.byte	0xe
+	.long	0xb2c
+	.long	0x4e71
+	.uleb128 0x4
+	.long	0xa7f
+	.byte	0
+	.uleb128 0x17
+	.long	.LASF753
+	.byte	0x21
+	.byte	0x48
+	.byte	0x6
+	.long	0xa7f
+	.long	0x4e8c
+	.uleb128 0x4
+	.long	0x145b
+	.uleb128 0x4
+	.long	0x356
+	.byte	0
+	.uleb128 0x17
+	.long	.LASF754
+	.byte	0x22
+	.byte	0x4b
+	.byte	0xe
+	.long	0xb2c
+	.long	0x4ea7
+	.uleb128 0x4
+	.long	0x145b
+	.uleb128 0x4
+	.long	0x653
+	.byte	0
+	.uleb128 0x39
+	.string	"id"
+	.byte	0x21
+	.byte	0x39
+	.byte	0xe
+	.long	0x653
+	.long	0x4ebc
+	.uleb128 0x4
+	.long	0x356
+	.byte	0
+	.uleb128 0x17
+	.long	.LASF755
+	.byte	0x22
+	.byte	0x16
+	.byte	0xe
+	.long	0xb2c
+	.long	0x4ed7
+	.uleb128 0x4
+	.long	0x145b
+	.uleb128 0x4
+	.long	0x653
+	.byte	0
+	.uleb128 0x1a
+	.long	.LASF756
+	.byte	0x23
+	.byte	0xe
+	.byte	0xd
+	.long	0x4eee
+	.uleb128 0x4
+	.long	0x145b
+	.uleb128 0x4
+	.long	0x653
+	.byte	0
+	.uleb128 0x1c
+	.long	.LASF757
+	.byte	0x10
+	.value	0x3ce
+	.byte	0xc
+	.long	0x2e
+	.long	0x4f05
+	.uleb128 0x4
+	.long	0x653
+	.byte	0
+	.uleb128 0x17
+	.long	.LASF758
+	.byte	0x24
+	.byte	0xe
+	.byte	0xe
+	.long	0x653
+	.long	0x4f20
+	.uleb128 0x4
+	.long	0x653
+	.uleb128 0x4
+	.long	0x2031
+	.byte	0
+	.uleb128 0x3a
+	.long	.LASF803
+	.byte	0x17
+	.byte	0x85
+	.byte	0xd
+	.long	0x145b
+	.uleb128 0x23
+	.long	.LASF760
+	.byte	0x1a
+	.uleb128 0x1c
+	.long	.LASF761
+	.byte	0x10
+	.value	0x3b9
+	.byte	0xe
+	.long	0x653
+	.long	0x4f53
+	.uleb128 0x4
+	.long	0x1fc7
+	.uleb128 0x4
+	.long	0x50e
+	.uleb128 0x4
+	.long	0x158a
+	.byte	0
+	.uleb128 0x3b
+	.long	.LASF762
+	.byte	0x21
+	.byte	0x45
+	.byte	0x7
+	.long	0x653
+	.long	0x4f65
+	.uleb128 0x18
+	.byte	0
+	.uleb128 0x17
+	.long	.LASF763
+	.byte	0x21
+	.byte	0x42
+	.byte	0xb
+	.long	0x158a
+	.long	0x4f7b
+	.uleb128 0x4
+	.long	0x4250
+	.byte	0
+	.uleb128 0x23
+	.long	.LASF764
+	.byte	0x19
+	.uleb128 0x1a
+	.long	.LASF765
+	.byte	0x1d
+	.byte	0x15
+	.byte	0x6
+	.long	0x4f98
+	.uleb128 0x4
+	.long	0x80
+	.uleb128 0x4
+	.long	0x4f98
+	.byte	0
+	.uleb128 0x7
+	.long	0x4f9d
+	.uleb128 0x3c
+	.uleb128 0x23
+	.long	.LASF766
+	.byte	0x18
+	.uleb128 0x2b
+	.long	.LASF775
+	.value	0x13c
+	.quad	.LFB7
+	.quad	.LFE7-.LFB7
+	.uleb128 0x1
+	.byte	0x9c
+	.long	0x504e
+	.uleb128 0xe
+	.long	.LASF767
+	.value	0x13e
+	.byte	0x9
+	.long	0x356
+	.uleb128 0x2
+	.byte	0x91
+	.sleb128 -40
+	.uleb128 0xe
+	.long	.LASF768
+	.value	0x13f
+	.byte	0x9
+	.long	0x356
+	.uleb128 0x2
+	.byte	0x91
+	.sleb128 -48
+	.uleb128 0xe
+	.long	.LASF769
+	.value	0x140
+	.byte	0x9
+	.long	0x356
+	.uleb128 0x2
+	.byte	0x91
+	.sleb128 -56
+	.uleb128 0xe
+	.long	.LASF770
+	.value	0x141
+	.byte	0x9
+	.long	0x356
+	.uleb128 0x2
+	.byte	0x91
+	.sleb128 -64
+	.uleb128 0xe
+	.long	.LASF771
+	.value	0x143
+	.byte	0xd
+	.long	0x4250
+	.uleb128 0x3
+	.byte	0x91
+	.sleb128 -72
+	.uleb128 0xe
+	.long	.LASF772
+	.value	0x144
+	.byte	0xc
+	.long	0x158a
+	.uleb128 0x3
+	.byte	0x91
+	.sleb128 -80
+	.uleb128 0xe
+	.long	.LASF773
+	.value	0x145
+	.byte	0x8
+	.long	0x653
+	.uleb128 0x3
+	.byte	0x91
+	.sleb128 -88
+	.uleb128 0xe
+	.long	.LASF210
+	.value	0x147
+	.byte	0x7
+	.long	0x145b
+	.uleb128 0x3
+	.byte	0x91
+	.sleb128 -96
+	.uleb128 0xe
+	.long	.LASF774
+	.value	0x149
+	.byte	0x8
+	.long	0x653
+	.uleb128 0x3
+	.byte	0x91
+	.sleb128 -104
+	.byte	0
+	.uleb128 0x2b
+	.long	.LASF776
+	.value	0x107
+	.quad	.LFB6
+	.quad	.LFE6-.LFB6
+	.uleb128 0x1
+	.byte	0x9c
+	.long	0x5108
+	.uleb128 0xe
+	.long	.LASF767
+	.value	0x109
+	.byte	0x9
+	.long	0x356
+	.uleb128 0x2
+	.byte	0x91
+	.sleb128 -40
+	.uleb128 0xe
+	.long	.LASF768
+	.value	0x10a
+	.byte	0x9
+	.long	0x356
+	.uleb128 0x2
+	.byte	0x91
+	.sleb128 -48
+	.uleb128 0xe
+	.long	.LASF777
+	.value	0x10b
+	.byte	0x9
+	.long	0x356
+	.uleb128 0x2
+	.byte	0x91
+	.sleb128 -56
+	.uleb128 0xe
+	.long	.LASF778
+	.value	0x10c
+	.byte	0x9
+	.long	0x356
+	.uleb128 0x2
+	.byte	0x91
+	.sleb128 -64
+	.uleb128 0xe
+	.long	.LASF779
+	.value	0x10d
+	.byte	0x9
+	.long	0x356
+	.uleb128 0x3
+	.byte	0x91
+	.sleb128 -72
+	.uleb128 0xe
+	.long	.LASF771
+	.value	0x10f
+	.byte	0xd
+	.long	0x4250
+	.uleb128 0x3
+	.byte	0x91
+	.sleb128 -80
+	.uleb128 0xe
+	.long	.LASF772
+	.value	0x110
+	.byte	0xc
+	.long	0x158a
+	.uleb128 0x3
+	.byte	0x91
+	.sleb128 -88
+	.uleb128 0xe
+	.long	.LASF773
+	.value	0x111
+	.byte	0x8
+	.long	0x653
+	.uleb128 0x3
+	.byte	0x91
+	.sleb128 -96
+	.uleb128 0xe
+	.long	.LASF780
+	.value	0x113
+	.byte	0x8
+	.long	0x653
+	.uleb128 0x3
+	.byte	0x91
+	.sleb128 -104
+	.uleb128 0xe
+	.long	.LASF210
+	.value	0x114
+	.byte	0x7
+	.long	0x145b
+	.uleb128 0x3
+	.byte	0x91
+	.sleb128 -112
+	.byte	0
+	.uleb128 0x1d
+	.long	.LASF781
+	.byte	0xe3
+	.quad	.LFB5
+	.quad	.LFE5-.LFB5
+	.uleb128 0x1
+	.byte	0x9c
+	.long	0x51b7
+	.uleb128 0xc
+	.long	.LASF767
+	.byte	0xe5
+	.byte	0x9
+	.long	0x356
+	.uleb128 0x2
+	.byte	0x91
+	.sleb128 -40
+	.uleb128 0xc
+	.long	.LASF768
+	.byte	0xe6
+	.byte	0x9
+	.long	0x356
+	.uleb128 0x2
+	.byte	0x91
+	.sleb128 -48
+	.uleb128 0xc
+	.long	.LASF777
+	.byte	0xe7
+	.byte	0x9
+	.long	0x356
+	.uleb128 0x2
+	.byte	0x91
+	.sleb128 -56
+	.uleb128 0xc
+	.long	.LASF778
+	.byte	0xe8
+	.byte	0x9
+	.long	0x356
+	.uleb128 0x2
+	.byte	0x91
+	.sleb128 -64
+	.uleb128 0xc
+	.long	.LASF779
+	.byte	0xe9
+	.byte	0x9
+	.long	0x356
+	.uleb128 0x3
+	.byte	0x91
+	.sleb128 -72
+	.uleb128 0xc
+	.long	.LASF771
+	.byte	0xeb
+	.byte	0xd
+	.long	0x4250
+	.uleb128 0x3
+	.byte	0x91
+	.sleb128 -80
+	.uleb128 0xc
+	.long	.LASF772
+	.byte	0xec
+	.byte	0xc
+	.long	0x158a
+	.uleb128 0x3
+	.byte	0x91
+	.sleb128 -88
+	.uleb128 0xc
+	.long	.LASF773
+	.byte	0xed
+	.byte	0x8
+	.long	0x653
+	.uleb128 0x3
+	.byte	0x91
+	.sleb128 -96
+	.uleb128 0xc
+	.long	.LASF780
+	.byte	0xef
+	.byte	0x8
+	.long	0x653
+	.uleb128 0x3
+	.byte	0x91
+	.sleb128 -104
+	.uleb128 0xc
+	.long	.LASF210
+	.byte	0xf0
+	.byte	0x7
+	.long	0x145b
+	.uleb128 0x3
+	.byte	0x91
+	.sleb128 -112
+	.byte	0
+	.uleb128 0x1d
+	.long	.LASF782
+	.byte	0xbe
+	.quad	.LFB4
+	.quad	.LFE4-.LFB4
+	.uleb128 0x1
+	.byte	0x9c
+	.long	0x5266
+	.uleb128 0xc
+	.long	.LASF767
+	.byte	0xc0
+	.byte	0x9
+	.long	0x356
+	.uleb128 0x2
+	.byte	0x91
+	.sleb128 -40
+	.uleb128 0xc
+	.long	.LASF768
+	.byte	0xc1
+	.byte	0x9
+	.long	0x356
+	.uleb128 0x2
+	.byte	0x91
+	.sleb128 -48
+	.uleb128 0xc
+	.long	.LASF783
+	.byte	0xc2
+	.byte	0x9
+	.long	0x356
+	.uleb128 0x2
+	.byte	0x91
+	.sleb128 -56
+	.uleb128 0xc
+	.long	.LASF784
+	.byte	0xc3
+	.byte	0x9
+	.long	0x356
+	.uleb128 0x2
+	.byte	0x91
+	.sleb128 -64
+	.uleb128 0xc
+	.long	.LASF785
+	.byte	0xc4
+	.byte	0x9
+	.long	0x356
+	.uleb128 0x3
+	.byte	0x91
+	.sleb128 -72
+	.uleb128 0xc
+	.long	.LASF771
+	.byte	0xc6
+	.byte	0xd
+	.long	0x4250
+	.uleb128 0x3
+	.byte	0x91
+	.sleb128 -80
+	.uleb128 0xc
+	.long	.LASF772
+	.byte	0xc7
+	.byte	0xc
+	.long	0x158a
+	.uleb128 0x3
+	.byte	0x91
+	.sleb128 -88
+	.uleb128 0xc
+	.long	.LASF773
+	.byte	0xc8
+	.byte	0x8
+	.long	0x653
+	.uleb128 0x3
+	.byte	0x91
+	.sleb128 -96
+	.uleb128 0xc
+	.long	.LASF780
+	.byte	0xca
+	.byte	0x8
+	.long	0x653
+	.uleb128 0x3
+	.byte	0x91
+	.sleb128 -104
+	.uleb128 0xc
+	.long	.LASF210
+	.byte	0xcb
+	.byte	0x7
+	.long	0x145b
+	.uleb128 0x3
+	.byte	0x91
+	.sleb128 -112
+	.byte	0
+	.uleb128 0x1d
+	.long	.LASF786
+	.byte	0x97
+	.quad	.LFB3
+	.quad	.LFE3-.LFB3
+	.uleb128 0x1
+	.byte	0x9c
+	.long	0x5306
+	.uleb128 0xc
+	.long	.LASF767
+	.byte	0x99
+	.byte	0x9
+	.long	0x356
+	.uleb128 0x2
+	.byte	0x91
+	.sleb128 -40
+	.uleb128 0xc
+	.long	.LASF787
+	.byte	0x9a
+	.byte	0x9
+	.long	0x356
+	.uleb128 0x2
+	.byte	0x91
+	.sleb128 -48
+	.uleb128 0xc
+	.long	.LASF768
+	.byte	0x9b
+	.byte	0x9
+	.long	0x356
+	.uleb128 0x2
+	.byte	0x91
+	.sleb128 -56
+	.uleb128 0xc
+	.long	.LASF788
+	.byte	0x9c
+	.byte	0x9
+	.long	0x356
+	.uleb128 0x2
+	.byte	0x91
+	.sleb128 -64
+	.uleb128 0xc
+	.long	.LASF771
+	.byte	0x9e
+	.byte	0xd
+	.long	0x4250
+	.uleb128 0x3
+	.byte	0x91
+	.sleb128 -72
+	.uleb128 0xc
+	.long	.LASF772
+	.byte	0x9f
+	.byte	0xc
+	.long	0x158a
+	.uleb128 0x3
+	.byte	0x91
+	.sleb128 -80
+	.uleb128 0xc
+	.long	.LASF773
+	.byte	0xa0
+	.byte	0x8
+	.long	0x653
+	.uleb128 0x3
+	.byte	0x91
+	.sleb128 -88
+	.uleb128 0xc
+	.long	.LASF210
+	.byte	0xa2
+	.byte	0x7
+	.long	0x145b
+	.uleb128 0x3
+	.byte	0x91
+	.sleb128 -96
+	.uleb128 0xc
+	.long	.LASF789
+	.byte	0xa4
+	.byte	0x8
+	.long	0x653
+	.uleb128 0x3
+	.byte	0x91
+	.sleb128 -104
+	.byte	0
+	.uleb128 0x1d
+	.long	.LASF790
+	.byte	0x68
+	.quad	.LFB2
+	.quad	.LFE2-.LFB2
+	.uleb128 0x1
+	.byte	0x9c
+	.long	0x53fa
+	.uleb128 0xc
+	.long	.LASF767
+	.byte	0x6a
+	.byte	0x9
+	.long	0x356
+	.uleb128 0x2
+	.byte	0x91
+	.sleb128 -40
+	.uleb128 0xc
+	.long	.LASF787
+	.byte	0x6b
+	.byte	0x9
+	.long	0x356
+	.uleb128 0x2
+	.byte	0x91
+	.sleb128 -48
+	.uleb128 0xc
+	.long	.LASF768
+	.byte	0x6c
+	.byte	0x9
+	.long	0x356
+	.uleb128 0x2
+	.byte	0x91
+	.sleb128 -56
+	.uleb128 0xc
+	.long	.LASF791
+	.byte	0x6d
+	.byte	0x9
+	.long	0x356
+	.uleb128 0x2
+	.byte	0x91
+	.sleb128 -64
+	.uleb128 0xc
+	.long	.LASF792
+	.byte	0x6e
+	.byte	0x9
+	.long	0x356
+	.uleb128 0x3
+	.byte	0x91
+	.sleb128 -72
+	.uleb128 0xc
+	.long	.LASF793
+	.byte	0x6f
+	.byte	0x9
+	.long	0x356
+	.uleb128 0x3
+	.byte	0x91
+	.sleb128 -80
+	.uleb128 0xc
+	.long	.LASF771
+	.byte	0x71
+	.byte	0xd
+	.long	0x4250
+	.uleb128 0x3
+	.byte	0x91
+	.sleb128 -88
+	.uleb128 0xc
+	.long	.LASF772
+	.byte	0x72
+	.byte	0xc
+	.long	0x158a
+	.uleb128 0x3
+	.byte	0x91
+	.sleb128 -96
+	.uleb128 0xc
+	.long	.LASF773
+	.byte	0x73
+	.byte	0x8
+	.long	0x653
+	.uleb128 0x3
+	.byte	0x91
+	.sleb128 -104
+	.uleb128 0xc
+	.long	.LASF210
+	.byte	0x75
+	.byte	0x7
+	.long	0x145b
+	.uleb128 0x3
+	.byte	0x91
+	.sleb128 -112
+	.uleb128 0x1b
+	.string	"D"
+	.byte	0x77
+	.byte	0x8
+	.long	0xb2c
+	.uleb128 0x3
+	.byte	0x91
+	.sleb128 -120
+	.uleb128 0x1b
+	.string	"E"
+	.byte	0x77
+	.byte	0xb
+	.long	0xb2c
+	.uleb128 0x3
+	.byte	0x91
+	.sleb128 -128
+	.uleb128 0x1b
+	.string	"yTF"
+	.byte	0x77
+	.byte	0xe
+	.long	0xb2c
+	.uleb128 0x3
+	.byte	0x91
+	.sleb128 -152
+	.uleb128 0x1b
+	.string	"y"
+	.byte	0x78
+	.byte	0x7
+	.long	0xa7f
+	.uleb128 0x3
+	.byte	0x91
+	.sleb128 -144
+	.uleb128 0xc
+	.long	.LASF794
+	.byte	0x7a
+	.byte	0x8
+	.long	0x653
+	.uleb128 0x3
+	.byte	0x91
+	.sleb128 -136
+	.byte	0
+	.uleb128 0x1d
+	.long	.LASF795
+	.byte	0x2c
+	.quad	.LFB1
+	.quad	.LFE1-.LFB1
+	.uleb128 0x1
+	.byte	0x9c
+	.long	0x54ee
+	.uleb128 0xc
+	.long	.LASF767
+	.byte	0x2e
+	.byte	0x9
+	.long	0x356
+	.uleb128 0x2
+	.byte	0x91
+	.sleb128 -40
+	.uleb128 0xc
+	.long	.LASF787
+	.byte	0x2f
+	.byte	0x9
+	.long	0x356
+	.uleb128 0x2
+	.byte	0x91
+	.sleb128 -48
+	.uleb128 0xc
+	.long	.LASF768
+	.byte	0x30
+	.byte	0x9
+	.long	0x356
+	.uleb128 0x2
+	.byte	0x91
+	.sleb128 -56
+	.uleb128 0xc
+	.long	.LASF770
+	.byte	0x31
+	.byte	0x9
+	.long	0x356
+	.uleb128 0x2
+	.byte	0x91
+	.sleb128 -64
+	.uleb128 0xc
+	.long	.LASF771
+	.byte	0x33
+	.byte	0xd
+	.long	0x4250
+	.uleb128 0x3
+	.byte	0x91
+	.sleb128 -72
+	.uleb128 0xc
+	.long	.LASF772
+	.byte	0x34
+	.byte	0xc
+	.long	0x158a
+	.uleb128 0x3
+	.byte	0x91
+	.sleb128 -80
+	.uleb128 0xc
+	.long	.LASF773
+	.byte	0x35
+	.byte	0x8
+	.long	0x653
+	.uleb128 0x3
+	.byte	0x91
+	.sleb128 -88
+	.uleb128 0xc
+	.long	.LASF210
+	.byte	0x37
+	.byte	0x7
+	.long	0x145b
+	.uleb128 0x3
+	.byte	0x91
+	.sleb128 -96
+	.uleb128 0x1b
+	.string	"D"
+	.byte	0x39
+	.byte	0x8
+	.long	0xb2c
+	.uleb128 0x3
+	.byte	0x91
+	.sleb128 -104
+	.uleb128 0x1b
+	.string	"E"
+	.byte	0x39
+	.byte	0xb
+	.long	0xb2c
+	.uleb128 0x3
+	.byte	0x91
+	.sleb128 -112
+	.uleb128 0x1b
+	.string	"g"
+	.byte	0x3a
+	.byte	0x7
+	.long	0xa7f
+	.uleb128 0x3
+	.byte	0x91
+	.sleb128 -120
+	.uleb128 0xc
+	.long	.LASF794
+	.byte	0x3c
+	.byte	0x8
+	.long	0x653
+	.uleb128 0x3
+	.byte	0x91
+	.sleb128 -128
+	.uleb128 0xc
+	.long	.LASF796
+	.byte	0x3c
+	.byte	0x11
+	.long	0x653
+	.uleb128 0x3
+	.byte	0x91
+	.sleb128 -136
+	.uleb128 0xc
+	.long	.LASF797
+	.byte	0x3c
+	.byte	0x1b
+	.long	0x653
+	.uleb128 0x3
+	.byte	0x91
+	.sleb128 -144
+	.uleb128 0xc
+	.long	.LASF798
+	.byte	0x3c
+	.byte	0x25
+	.long	0x653
+	.uleb128 0x3
+	.byte	0x91
+	.sleb128 -152
+	.byte	0
+	.uleb128 0x3d
+	.long	.LASF804
+	.byte	0x1
+	.byte	0x1e
+	.byte	0x1
+	.quad	.LFB0
+	.quad	.LFE0-.LFB0
+	.uleb128 0x1
+	.byte	0x9c
+	.byte	0
+	.section	.debug_abbrev,"",@progbits
+.Ldebug_abbrev0:
+	.uleb128 0x1
+	.uleb128 0xd
+	.byte	0
+	.uleb128 0x3
+	.uleb128 0xe
+	.uleb128 0x3a
+	.uleb128 0xb
+	.uleb128 0x3b
+	.uleb128 0x5
+	.uleb128 0x39
+	.uleb128 0xb
+	.uleb128 0x49
+	.uleb128 0x13
+	.uleb128 0x38
+	.uleb128 0xb
+	.byte	0
+	.byte	0
+	.uleb128 0x2
+	.uleb128 0xd
+	.byte	0
+	.uleb128 0x3
+	.uleb128 0xe
+	.uleb128 0x3a
+	.uleb128 0xb
+	.uleb128 0x3b
+	.uleb128 0xb
+	.uleb128 0x39
+	.uleb128 0xb
+	.uleb128 0x49
+	.uleb128 0x13
+	.uleb128 0x38
+	.uleb128 0xb
+	.byte	0
+	.byte	0
+	.uleb128 0x3
+	.uleb128 0xd
+	.byte	0
+	.uleb128 0x3
+	.uleb128 0x8
+	.uleb128 0x3a
+	.uleb128 0xb
+	.uleb128 0x3b
+	.uleb128 0x5
+	.uleb128 0x39
+	.uleb128 0xb
+	.uleb128 0x49
+	.uleb128 0x13
+	.uleb128 0x38
+	.uleb128 0xb
+	.byte	0
+	.byte	0
+	.uleb128 0x4
+	.uleb128 0x5
+	.byte	0
+	.uleb128 0x49
+	.uleb128 0x13
+	.byte	0
+	.byte	0
+	.uleb128 0x5
+	.uleb128 0xd
+	.byte	0
+	.uleb128 0x3
+	.uleb128 0xe
+	.uleb128 0x3a
+	.uleb128 0xb
+	.uleb128 0x3b
+	.uleb128 0x5
+	.uleb128 0x39
+	.uleb128 0xb
+	.uleb128 0x49
+	.uleb128 0x13
+	.byte	0
+	.byte	0
+	.uleb128 0x6
+	.uleb128 0x13
+	.byte	0x1
+	.uleb128 0x3
+	.uleb128 0xe
+	.uleb128 0xb
+	.uleb128 0xb
+	.uleb128 0x3a
+	.uleb128 0xb
+	.uleb128 0x3b
+	.uleb128 0x5
+	.uleb128 0x39
+	.uleb128 0x21
+	.sleb128 8
+	.uleb128 0x1
+	.uleb128 0x13
+	.byte	0
+	.byte	0
+	.uleb128 0x7
+	.uleb128 0xf
+	.byte	0
+	.uleb128 0xb
+	.uleb128 0x21
+	.sleb128 8
+	.uleb128 0x49
+	.uleb128 0x13
+	.byte	0
+	.byte	0
+	.uleb128 0x8
+	.uleb128 0x28
+	.byte	0
+	.uleb128 0x3
+	.uleb128 0xe
+	.uleb128 0x1c
+	.uleb128 0xb
+	.byte	0
+	.byte	0
+	.uleb128 0x9
+	.uleb128 0x15
+	.byte	0x1
+	.uleb128 0x27
+	.uleb128 0x19
+	.uleb128 0x49
+	.uleb128 0x13
+	.uleb128 0x1
+	.uleb128 0x13
+	.byte	0
+	.byte	0
+	.uleb128 0xa
+	.uleb128 0x16
+	.byte	0
+	.uleb128 0x3
+	.uleb128 0xe
+	.uleb128 0x3a
+	.uleb128 0xb
+	.uleb128 0x3b
+	.uleb128 0xb
+	.uleb128 0x39
+	.uleb128 0xb
+	.uleb128 0x49
+	.uleb128 0x13
+	.byte	0
+	.byte	0
+	.uleb128 0xb
+	.uleb128 0xd
+	.byte	0
+	.uleb128 0x3
+	.uleb128 0xe
+	.uleb128 0x3a
+	.uleb128 0xb
+	.uleb128 0x3b
+	.uleb128 0xb
+	.uleb128 0x39
+	.uleb128 0x5
+	.uleb128 0x49
+	.uleb128 0x13
+	.uleb128 0x38
+	.uleb128 0xb
+	.byte	0
+	.byte	0
+	.uleb128 0xc
+	.uleb128 0x34
+	.byte	0
+	.uleb128 0x3
+	.uleb128 0xe
+	.uleb128 0x3a
+	.uleb128 0x21
+	.sleb128 1
+	.uleb128 0x3b
+	.uleb128 0xb
+	.uleb128 0x39
+	.uleb128 0xb
+	.uleb128 0x49
+	.uleb128 0x13
+	.uleb128 0x2
+	.uleb128 0x18
+	.byte	0
+	.byte	0
+	.uleb128 0xd
+	.uleb128 0x13
+	.byte	0x1
+	.uleb128 0x3
+	.uleb128 0xe
+	.uleb128 0xb
+	.uleb128 0xb
+	.uleb128 0x3a
+	.uleb128 0xb
+	.uleb128 0x3b
+	.uleb128 0xb
+	.uleb128 0x39
+	.uleb128 0xb
+	.uleb128 0x1
+	.uleb128 0x13
+	.byte	0
+	.byte	0
+	.uleb128 0xe
+	.uleb128 0x34
+	.byte	0
+	.uleb128 0x3
+	.uleb128 0xe
+	.uleb128 0x3a
+	.uleb128 0x21
+	.sleb128 1
+	.uleb128 0x3b
+	.uleb128 0x5
+	.uleb128 0x39
+	.uleb128 0xb
+	.uleb128 0x49
+	.uleb128 0x13
+	.uleb128 0x2
+	.uleb128 0x18
+	.byte	0
+	.byte	0
+	.uleb128 0xf
+	.uleb128 0x16
+	.byte	0
+	.uleb128 0x3
+	.uleb128 0xe
+	.uleb128 0x3a
+	.uleb128 0xb
+	.uleb128 0x3b
+	.uleb128 0x5
+	.uleb128 0x39
+	.uleb128 0xb
+	.uleb128 0x49
+	.uleb128 0x13
+	.byte	0
+	.byte	0
+	.uleb128 0x10
+	.uleb128 0xd
+	.byte	0
+	.uleb128 0x3
+	.uleb128 0xe
+	.uleb128 0x3a
+	.uleb128 0xb
+	.uleb128 0x3b
+	.uleb128 0xb
+	.uleb128 0x39
+	.uleb128 0x5
+	.uleb128 0x49
+	.uleb128 0x13
+	.uleb128 0x38
+	.uleb128 0x5
+	.byte	0
+	.byte	0
+	.uleb128 0x11
+	.uleb128 0x13
+	.byte	0
+	.uleb128 0x3
+	.uleb128 0xe
+	.uleb128 0x3c
+	.uleb128 0x19
+	.byte	0
+	.byte	0
+	.uleb128 0x12
+	.uleb128 0xd
+	.byte	0
+	.uleb128 0x3
+	.uleb128 0x8
+	.uleb128 0x3a
+	.uleb128 0xb
+	.uleb128 0x3b
+	.uleb128 0xb
+	.uleb128 0x39
+	.uleb128 0xb
+	.uleb128 0x49
+	.uleb128 0x13
+	.uleb128 0x38
+	.uleb128 0xb
+	.byte	0
+	.byte	0
+	.uleb128 0x13
+	.uleb128 0x24
+	.byte	0
+	.uleb128 0xb
+	.uleb128 0xb
+	.uleb128 0x3e
+	.uleb128 0xb
+	.uleb128 0x3
+	.uleb128 0xe
+	.byte	0
+	.byte	0
+	.uleb128 0x14
+	.uleb128 0x1
+	.byte	0x1
+	.uleb128 0x49
+	.uleb128 0x13
+	.uleb128 0x1
+	.uleb128 0x13
+	.byte	0
+	.byte	0
+	.uleb128 0x15
+	.uleb128 0x21
+	.byte	0
+	.uleb128 0x49
+	.uleb128 0x13
+	.uleb128 0x2f
+	.uleb128 0xb
+	.byte	0
+	.byte	0
+	.uleb128 0x16
+	.uleb128 0x15
+	.byte	0x1
+	.uleb128 0x27
+	.uleb128 0x19
+	.uleb128 0x1
+	.uleb128 0x13
+	.byte	0
+	.byte	0
+	.uleb128 0x17
+	.uleb128 0x2e
+	.byte	0x1
+	.uleb128 0x3f
+	.uleb128 0x19
+	.uleb128 0x3
+	.uleb128 0xe
+	.uleb128 0x3a
+	.uleb128 0xb
+	.uleb128 0x3b
+	.uleb128 0xb
+	.uleb128 0x39
+	.uleb128 0xb
+	.uleb128 0x27
+	.uleb128 0x19
+	.uleb128 0x49
+	.uleb128 0x13
+	.uleb128 0x3c
+	.uleb128 0x19
+	.uleb128 0x1
+	.uleb128 0x13
+	.byte	0
+	.byte	0
+	.uleb128 0x18
+	.uleb128 0x18
+	.byte	0
+	.byte	0
+	.byte	0
+	.uleb128 0x19
+	.uleb128 0xd
+	.byte	0
+	.uleb128 0x3
+	.uleb128 0x8
+	.uleb128 0x3a
+	.uleb128 0xb
+	.uleb128 0x3b
+	.uleb128 0x5
+	.uleb128 0x39
+	.uleb128 0xb
+	.uleb128 0x49
+	.uleb128 0x13
+	.byte	0
+	.byte	0
+	.uleb128 0x1a
+	.uleb128 0x2e
+	.byte	0x1
+	.uleb128 0x3f
+	.uleb128 0x19
+	.uleb128 0x3
+	.uleb128 0xe
+	.uleb128 0x3a
+	.uleb128 0xb
+	.uleb128 0x3b
+	.uleb128 0xb
+	.uleb128 0x39
+	.uleb128 0xb
+	.uleb128 0x27
+	.uleb128 0x19
+	.uleb128 0x3c
+	.uleb128 0x19
+	.uleb128 0x1
+	.uleb128 0x13
+	.byte	0
+	.byte	0
+	.uleb128 0x1b
+	.uleb128 0x34
+	.byte	0
+	.uleb128 0x3
+	.uleb128 0x8
+	.uleb128 0x3a
+	.uleb128 0x21
+	.sleb128 1
+	.uleb128 0x3b
+	.uleb128 0xb
+	.uleb128 0x39
+	.uleb128 0xb
+	.uleb128 0x49
+	.uleb128 0x13
+	.uleb128 0x2
+	.uleb128 0x18
+	.byte	0
+	.byte	0
+	.uleb128 0x1c
+	.uleb128 0x2e
+	.byte	0x1
+	.uleb128 0x3f
+	.uleb128 0x19
+	.uleb128 0x3
+	.uleb128 0xe
+	.uleb128 0x3a
+	.uleb128 0xb
+	.uleb128 0x3b
+	.uleb128 0x5
+	.uleb128 0x39
+	.uleb128 0xb
+	.uleb128 0x27
+	.uleb128 0x19
+	.uleb128 0x49
+	.uleb128 0x13
+	.uleb128 0x3c
+	.uleb128 0x19
+	.uleb128 0x1
+	.uleb128 0x13
+	.byte	0
+	.byte	0
+	.uleb128 0x1d
+	.uleb128 0x2e
+	.byte	0x1
+	.uleb128 0x3
+	.uleb128 0xe
+	.uleb128 0x3a
+	.uleb128 0x21
+	.sleb128 1
+	.uleb128 0x3b
+	.uleb128 0xb
+	.uleb128 0x39
+	.uleb128 0x21
+	.sleb128 1
+	.uleb128 0x11
+	.uleb128 0x1
+	.uleb128 0x12
+	.uleb128 0x7
+	.uleb128 0x40
+	.uleb128 0x18
+	.uleb128 0x7c
+	.uleb128 0x19
+	.uleb128 0x1
+	.uleb128 0x13
+	.byte	0
+	.byte	0
+	.uleb128 0x1e
+	.uleb128 0xd
+	.byte	0
+	.uleb128 0x3
+	.uleb128 0xe
+	.uleb128 0x3a
+	.uleb128 0x21
+	.sleb128 3
+	.uleb128 0x3b
+	.uleb128 0x21
+	.sleb128 0
+	.uleb128 0x49
+	.uleb128 0x13
+	.uleb128 0x38
+	.uleb128 0xb
+	.byte	0
+	.byte	0
+	.uleb128 0x1f
+	.uleb128 0xd
+	.byte	0
+	.uleb128 0x3
+	.uleb128 0x8
+	.uleb128 0x3a
+	.uleb128 0xb
+	.uleb128 0x3b
+	.uleb128 0xb
+	.uleb128 0x39
+	.uleb128 0x5
+	.uleb128 0x49
+	.uleb128 0x13
+	.uleb128 0x38
+	.uleb128 0xb
+	.byte	0
+	.byte	0
+	.uleb128 0x20
+	.uleb128 0x34
+	.byte	0
+	.uleb128 0x3
+	.uleb128 0xe
+	.uleb128 0x3a
+	.uleb128 0xb
+	.uleb128 0x3b
+	.uleb128 0xb
+	.uleb128 0x39
+	.uleb128 0xb
+	.uleb128 0x49
+	.uleb128 0x13
+	.uleb128 0x3f
+	.uleb128 0x19
+	.uleb128 0x3c
+	.uleb128 0x19
+	.byte	0
+	.byte	0
+	.uleb128 0x21
+	.uleb128 0x4
+	.byte	0x1
+	.uleb128 0x3
+	.uleb128 0xe
+	.uleb128 0x3e
+	.uleb128 0x21
+	.sleb128 7
+	.uleb128 0xb
+	.uleb128 0x21
+	.sleb128 4
+	.uleb128 0x49
+	.uleb128 0x13
+	.uleb128 0x3a
+	.uleb128 0xb
+	.uleb128 0x3b
+	.uleb128 0xb
+	.uleb128 0x39
+	.uleb128 0x21
+	.sleb128 6
+	.uleb128 0x1
+	.uleb128 0x13
+	.byte	0
+	.byte	0
+	.uleb128 0x22
+	.uleb128 0x17
+	.byte	0x1
+	.uleb128 0xb
+	.uleb128 0xb
+	.uleb128 0x3a
+	.uleb128 0xb
+	.uleb128 0x3b
+	.uleb128 0x5
+	.uleb128 0x39
+	.uleb128 0x21
+	.sleb128 2
+	.uleb128 0x1
+	.uleb128 0x13
+	.byte	0
+	.byte	0
+	.uleb128 0x23
+	.uleb128 0x2e
+	.byte	0
+	.uleb128 0x3f
+	.uleb128 0x19
+	.uleb128 0x3
+	.uleb128 0xe
+	.uleb128 0x3a
+	.uleb128 0x21
+	.sleb128 1
+	.uleb128 0x3b
+	.uleb128 0xb
+	.uleb128 0x39
+	.uleb128 0x21
+	.sleb128 6
+	.uleb128 0x27
+	.uleb128 0x19
+	.uleb128 0x3c
+	.uleb128 0x19
+	.byte	0
+	.byte	0
+	.uleb128 0x24
+	.uleb128 0x26
+	.byte	0
+	.uleb128 0x49
+	.uleb128 0x13
+	.byte	0
+	.byte	0
+	.uleb128 0x25
+	.uleb128 0x13
+	.byte	0x1
+	.uleb128 0x3
+	.uleb128 0xe
+	.uleb128 0xb
+	.uleb128 0x5
+	.uleb128 0x3a
+	.uleb128 0xb
+	.uleb128 0x3b
+	.uleb128 0xb
+	.uleb128 0x39
+	.uleb128 0xb
+	.uleb128 0x1
+	.uleb128 0x13
+	.byte	0
+	.byte	0
+	.uleb128 0x26
+	.uleb128 0xd
+	.byte	0
+	.uleb128 0x3
+	.uleb128 0x8
+	.uleb128 0x3a
+	.uleb128 0x21
+	.sleb128 9
+	.uleb128 0x3b
+	.uleb128 0xb
+	.uleb128 0x39
+	.uleb128 0xb
+	.uleb128 0x49
+	.uleb128 0x13
+	.byte	0
+	.byte	0
+	.uleb128 0x27
+	.uleb128 0xd
+	.byte	0
+	.uleb128 0x3
+	.uleb128 0xe
+	.uleb128 0x3a
+	.uleb128 0x21
+	.sleb128 12
+	.uleb128 0x3b
+	.uleb128 0xb
+	.uleb128 0x39
+	.uleb128 0xb
+	.uleb128 0x49
+	.uleb128 0x13
+	.byte	0
+	.byte	0
+	.uleb128 0x28
+	.uleb128 0x16
+	.byte	0
+	.uleb128 0x3
+	.uleb128 0x8
+	.uleb128 0x3a
+	.uleb128 0x21
+	.sleb128 14
+	.uleb128 0x3b
+	.uleb128 0xb
+	.uleb128 0x39
+	.uleb128 0x21
+	.sleb128 22
+	.uleb128 0x49
+	.uleb128 0x13
+	.byte	0
+	.byte	0
+	.uleb128 0x29
+	.uleb128 0x17
+	.byte	0x1
+	.uleb128 0x3
+	.uleb128 0xe
+	.uleb128 0xb
+	.uleb128 0xb
+	.uleb128 0x3a
+	.uleb128 0xb
+	.uleb128 0x3b
+	.uleb128 0x5
+	.uleb128 0x39
+	.uleb128 0x21
+	.sleb128 7
+	.uleb128 0x1
+	.uleb128 0x13
+	.byte	0
+	.byte	0
+	.uleb128 0x2a
+	.uleb128 0x34
+	.byte	0
+	.uleb128 0x3
+	.uleb128 0xe
+	.uleb128 0x3a
+	.uleb128 0xb
+	.uleb128 0x3b
+	.uleb128 0xb
+	.uleb128 0x39
+	.uleb128 0x5
+	.uleb128 0x49
+	.uleb128 0x13
+	.uleb128 0x3f
+	.uleb128 0x19
+	.uleb128 0x3c
+	.uleb128 0x19
+	.byte	0
+	.byte	0
+	.uleb128 0x2b
+	.uleb128 0x2e
+	.byte	0x1
+	.uleb128 0x3
+	.uleb128 0xe
+	.uleb128 0x3a
+	.uleb128 0x21
+	.sleb128 1
+	.uleb128 0x3b
+	.uleb128 0x5
+	.uleb128 0x39
+	.uleb128 0x21
+	.sleb128 1
+	.uleb128 0x11
+	.uleb128 0x1
+	.uleb128 0x12
+	.uleb128 0x7
+	.uleb128 0x40
+	.uleb128 0x18
+	.uleb128 0x7c
+	.uleb128 0x19
+	.uleb128 0x1
+	.uleb128 0x13
+	.byte	0
+	.byte	0
+	.uleb128 0x2c
+	.uleb128 0x11
+	.byte	0x1
+	.uleb128 0x25
+	.uleb128 0xe
+	.uleb128 0x13
+	.uleb128 0xb
+	.uleb128 0x3
+	.uleb128 0x1f
+	.uleb128 0x1b
+	.uleb128 0x1f
+	.uleb128 0x11
+	.uleb128 0x1
+	.uleb128 0x12
+	.uleb128 0x7
+	.uleb128 0x10
+	.uleb128 0x17
+	.byte	0
+	.byte	0
+	.uleb128 0x2d
+	.uleb128 0x24
+	.byte	0
+	.uleb128 0xb
+	.uleb128 0xb
+	.uleb128 0x3e
+	.uleb128 0xb
+	.uleb128 0x3
+	.uleb128 0x8
+	.byte	0
+	.byte	0
+	.uleb128 0x2e
+	.uleb128 0xf
+	.byte	0
+	.uleb128 0xb
+	.uleb128 0xb
+	.byte	0
+	.byte	0
+	.uleb128 0x2f
+	.uleb128 0x13
+	.byte	0x1
+	.uleb128 0x3
+	.uleb128 0xe
+	.uleb128 0xb
+	.uleb128 0xb
+	.uleb128 0x3a
+	.uleb128 0xb
+	.uleb128 0x3b
+	.uleb128 0xb
+	.uleb128 0x1
+	.uleb128 0x13
+	.byte	0
+	.byte	0
+	.uleb128 0x30
+	.uleb128 0x16
+	.byte	0
+	.uleb128 0x3
+	.uleb128 0xe
+	.uleb128 0x3a
+	.uleb128 0xb
+	.uleb128 0x3b
+	.uleb128 0xb
+	.uleb128 0x39
+	.uleb128 0xb
+	.byte	0
+	.byte	0
+	.uleb128 0x31
+	.uleb128 0x17
+	.byte	0x1
+	.uleb128 0xb
+	.uleb128 0xb
+	.uleb128 0x3a
+	.uleb128 0xb
+	.uleb128 0x3b
+	.uleb128 0xb
+	.uleb128 0x39
+	.uleb128 0xb
+	.uleb128 0x1
+	.uleb128 0x13
+	.byte	0
+	.byte	0
+	.uleb128 0x32
+	.uleb128 0x17
+	.byte	0x1
+	.uleb128 0x3
+	.uleb128 0xe
+	.uleb128 0xb
+	.uleb128 0xb
+	.uleb128 0x3a
+	.uleb128 0xb
+	.uleb128 0x3b
+	.uleb128 0xb
+	.uleb128 0x39
+	.uleb128 0xb
+	.uleb128 0x1
+	.uleb128 0x13
+	.byte	0
+	.byte	0
+	.uleb128 0x33
+	.uleb128 0x13
+	.byte	0
+	.uleb128 0x3
+	.uleb128 0x8
+	.uleb128 0x3c
+	.uleb128 0x19
+	.byte	0
+	.byte	0
+	.uleb128 0x34
+	.uleb128 0x13
+	.byte	0x1
+	.uleb128 0x3
+	.uleb128 0x8
+	.uleb128 0xb
+	.uleb128 0x5
+	.uleb128 0x3a
+	.uleb128 0xb
+	.uleb128 0x3b
+	.uleb128 0xb
+	.uleb128 0x39
+	.uleb128 0xb
+	.uleb128 0x1
+	.uleb128 0x13
+	.byte	0
+	.byte	0
+	.uleb128 0x35
+	.uleb128 0x17
+	.byte	0
+	.uleb128 0x3
+	.uleb128 0xe
+	.uleb128 0x3c
+	.uleb128 0x19
+	.byte	0
+	.byte	0
+	.uleb128 0x36
+	.uleb128 0xd
+	.byte	0
+	.uleb128 0x3
+	.uleb128 0xe
+	.uleb128 0x3a
+	.uleb128 0xb
+	.uleb128 0x3b
+	.uleb128 0xb
+	.uleb128 0x39
+	.uleb128 0xb
+	.uleb128 0x49
+	.uleb128 0x13
+	.uleb128 0x38
+	.uleb128 0x5
+	.byte	0
+	.byte	0
+	.uleb128 0x37
+	.uleb128 0x34
+	.byte	0
+	.uleb128 0x3
+	.uleb128 0xe
+	.uleb128 0x3a
+	.uleb128 0xb
+	.uleb128 0x3b
+	.uleb128 0x5
+	.uleb128 0x39
+	.uleb128 0xb
+	.uleb128 0x49
+	.uleb128 0x13
+	.uleb128 0x3f
+	.uleb128 0x19
+	.uleb128 0x3c
+	.uleb128 0x19
+	.byte	0
+	.byte	0
+	.uleb128 0x38
+	.uleb128 0x13
+	.byte	0x1
+	.uleb128 0xb
+	.uleb128 0xb
+	.uleb128 0x3a
+	.uleb128 0xb
+	.uleb128 0x3b
+	.uleb128 0xb
+	.uleb128 0x39
+	.uleb128 0xb
+	.uleb128 0x1
+	.uleb128 0x13
+	.byte	0
+	.byte	0
+	.uleb128 0x39
+	.uleb128 0x2e
+	.byte	0x1
+	.uleb128 0x3f
+	.uleb128 0x19
+	.uleb128 0x3
+	.uleb128 0x8
+	.uleb128 0x3a
+	.uleb128 0xb
+	.uleb128 0x3b
+	.uleb128 0xb
+	.uleb128 0x39
+	.uleb128 0xb
+	.uleb128 0x27
+	.uleb128 0x19
+	.uleb128 0x49
+	.uleb128 0x13
+	.uleb128 0x3c
+	.uleb128 0x19
+	.uleb128 0x1
+	.uleb128 0x13
+	.byte	0
+	.byte	0
+	.uleb128 0x3a
+	.uleb128 0x2e
+	.byte	0
+	.uleb128 0x3f
+	.uleb128 0x19
+	.uleb128 0x3
+	.uleb128 0xe
+	.uleb128 0x3a
+	.uleb128 0xb
+	.uleb128 0x3b
+	.uleb128 0xb
+	.uleb128 0x39
+	.uleb128 0xb
+	.uleb128 0x27
+	.uleb128 0x19
+	.uleb128 0x49
+	.uleb128 0x13
+	.uleb128 0x3c
+	.uleb128 0x19
+	.byte	0
+	.byte	0
+	.uleb128 0x3b
+	.uleb128 0x2e
+	.byte	0x1
+	.uleb128 0x3f
+	.uleb128 0x19
+	.uleb128 0x3
+	.uleb128 0xe
+	.uleb128 0x3a
+	.uleb128 0xb
+	.uleb128 0x3b
+	.uleb128 0xb
+	.uleb128 0x39
+	.uleb128 0xb
+	.uleb128 0x49
+	.uleb128 0x13
+	.uleb128 0x3c
+	.uleb128 0x19
+	.uleb128 0x1
+	.uleb128 0x13
+	.byte	0
+	.byte	0
+	.uleb128 0x3c
+	.uleb128 0x15
+	.byte	0
+	.uleb128 0x27
+	.uleb128 0x19
+	.byte	0
+	.byte	0
+	.uleb128 0x3d
+	.uleb128 0x2e
+	.byte	0
+	.uleb128 0x3f
+	.uleb128 0x19
+	.uleb128 0x3
+	.uleb128 0xe
+	.uleb128 0x3a
+	.uleb128 0xb
+	.uleb128 0x3b
+	.uleb128 0xb
+	.uleb128 0x39
+	.uleb128 0xb
+	.uleb128 0x11
+	.uleb128 0x1
+	.uleb128 0x12
+	.uleb128 0x7
+	.uleb128 0x40
+	.uleb128 0x18
+	.uleb128 0x7c
+	.uleb128 0x19
+	.byte	0
+	.byte	0
+	.byte	0
+	.section	.debug_aranges,"",@progbits
+	.long	0x2c
+	.value	0x2
+	.long	.Ldebug_info0
+	.byte	0x8
+	.byte	0
+	.value	0
+	.value	0
+	.quad	.Ltext0
+	.quad	.Letext0-.Ltext0
+	.quad	0
+	.quad	0
+	.section	.debug_line,"",@progbits
+.Ldebug_line0:
+	.section	.debug_str,"MS",@progbits,1
+.LASF275:
+	.string	"foamCProg"
+.LASF420:
+	.string	"TFormListCons"
+.LASF514:
+	.string	"AB_Sequence"
+.LASF478:
+	.string	"AB_Fix"
+.LASF47:
+	.string	"_unused2"
+.LASF666:
+	.string	"TF_Exit"
+.LASF33:
+	.string	"_fileno"
+.LASF737:
+	.string	"tipBupDebug"
+.LASF370:
+	.string	"ExpInfo"
+.LASF506:
+	.string	"AB_Qualify"
+.LASF628:
+	.string	"field"
+.LASF155:
+	.string	"abLocal"
+.LASF167:
+	.string	"abRaise"
+.LASF452:
+	.string	"AB_LitInteger"
+.LASF698:
+	.string	"TF_Third"
+.LASF694:
+	.string	"TF_RawRecord"
+.LASF295:
+	.string	"foamRRNew"
+.LASF113:
+	.string	"abDocText"
+.LASF412:
+	.string	"ContainsAllq"
+.LASF290:
+	.string	"foamIf"
+.LASF76:
+	.string	"OstWriteStringFn"
+.LASF137:
+	.string	"abFix"
+.LASF170:
+	.string	"abRestrictTo"
+.LASF706:
+	.string	"TF_NODE_LIMIT"
+.LASF163:
+	.string	"abParen"
+.LASF641:
+	.string	"dbOut"
+.LASF677:
+	.string	"TF_Add"
+.LASF321:
+	.string	"intLoaded"
+.LASF300:
+	.string	"foamCCall"
+.LASF123:
+	.string	"abBuiltin"
+.LASF38:
+	.string	"_shortbuf"
+.LASF729:
+	.string	"ncafter"
+.LASF591:
+	.string	"fuses"
+.LASF511:
+	.string	"AB_RestrictTo"
+.LASF75:
+	.string	"OstWriteCharFn"
+.LASF637:
+	.string	"StringListCons"
+.LASF788:
+	.string	"x_def"
+.LASF80:
+	.string	"writeStringFn"
+.LASF109:
+	.string	"abGen"
+.LASF396:
+	.string	"LastCons"
+.LASF635:
+	.string	"place"
+.LASF166:
+	.string	"abQualify"
+.LASF279:
+	.string	"foamEInfo"
+.LASF720:
+	.string	"extendees"
+.LASF310:
+	.string	"foamKill"
+.LASF104:
+	.string	"symbol"
+.LASF236:
+	.string	"tqual"
+.LASF481:
+	.string	"AB_ForeignImport"
+.LASF587:
+	.string	"defNo"
+.LASF434:
+	.string	"TblKey"
+.LASF16:
+	.string	"overflow_arg_area"
+.LASF486:
+	.string	"AB_Has"
+.LASF19:
+	.string	"_flags"
+.LASF741:
+	.string	"testIntIsNotZero"
+.LASF442:
+	.string	"AB_START"
+.LASF439:
+	.string	"next"
+.LASF643:
+	.string	"length"
+.LASF17:
+	.string	"reg_save_area"
+.LASF258:
+	.string	"foamDDecl"
+.LASF136:
+	.string	"abExtend"
+.LASF9:
+	.string	"__off_t"
+.LASF339:
+	.string	"unitb"
+.LASF201:
+	.string	"ownSyntax"
+.LASF454:
+	.string	"AB_LitString"
+.LASF657:
+	.string	"tfCond"
+.LASF543:
+	.string	"AB_State_HasPoss"
+.LASF346:
+	.string	"StabLevel"
+.LASF625:
+	.string	"usage"
+.LASF647:
+	.string	"verMinor"
+.LASF539:
+	.string	"AB_Use_LIMIT"
+.LASF409:
+	.string	"NConcat"
+.LASF774:
+	.string	"fncall"
+.LASF728:
+	.string	"ncbefore"
+.LASF145:
+	.string	"abHas"
+.LASF39:
+	.string	"_lock"
+.LASF690:
+	.string	"TF_Meet"
+.LASF186:
+	.string	"FreeVar"
+.LASF207:
+	.string	"intStepNo"
+.LASF253:
+	.string	"foamRRec"
+.LASF266:
+	.string	"foamLex"
+.LASF593:
+	.string	"mark"
+.LASF480:
+	.string	"AB_For"
+.LASF78:
+	.string	"ostreamOps"
+.LASF483:
+	.string	"AB_Free"
+.LASF712:
+	.string	"isExplicitImport"
+.LASF298:
+	.string	"foamPCall"
+.LASF393:
+	.string	"FreeDeeplyTo"
+.LASF679:
+	.string	"TF_Cross"
+.LASF149:
+	.string	"abImport"
+.LASF656:
+	.string	"TfCondEltList"
+.LASF84:
+	.string	"fileName"
+.LASF655:
+	.string	"TfCondEltListCons"
+.LASF362:
+	.string	"Stab"
+.LASF308:
+	.string	"foamValues"
+.LASF139:
+	.string	"abFor"
+.LASF776:
+	.string	"testTiBupApplyErrorOnArg"
+.LASF272:
+	.string	"foamPRef"
+.LASF482:
+	.string	"AB_ForeignExport"
+.LASF547:
+	.string	"AbEmbed"
+.LASF221:
+	.string	"queries"
+.LASF650:
+	.string	"Index"
+.LASF382:
+	.string	"Cons"
+.LASF614:
+	.string	"infoBits"
+.LASF227:
+	.string	"libNum"
+.LASF606:
+	.string	"baseType"
+.LASF108:
+	.string	"abHdr"
+.LASF580:
+	.string	"alternatives"
+.LASF533:
+	.string	"AB_Use_RetValue"
+.LASF653:
+	.string	"known"
+.LASF25:
+	.string	"_IO_write_end"
+.LASF622:
+	.string	"prog"
+.LASF792:
+	.string	"g2_def"
+.LASF319:
+	.string	"rdOnly"
+.LASF146:
+	.string	"abHide"
+.LASF724:
+	.string	"nbefore"
+.LASF800:
+	.string	"__va_list_tag"
+.LASF721:
+	.string	"declarees"
+.LASF256:
+	.string	"foamDecl"
+.LASF455:
+	.string	"AB_STR_LIMIT"
+.LASF732:
+	.string	"inDegree"
+.LASF689:
+	.string	"TF_Map"
+.LASF103:
+	.string	"Symbol"
+.LASF278:
+	.string	"foamEEnsure"
+.LASF529:
+	.string	"AB_Use_Label"
+.LASF626:
+	.string	"index"
+.LASF363:
+	.string	"StabLevelListCons"
+.LASF320:
+	.string	"isOutput"
+.LASF612:
+	.string	"nLabels"
+.LASF687:
+	.string	"TF_Instance"
+.LASF60:
+	.string	"Length"
+.LASF755:
+	.string	"typeInfer"
+.LASF572:
+	.string	"dest"
+.LASF347:
+	.string	"stabLevel"
+.LASF118:
+	.string	"abAnd"
+.LASF401:
+	.string	"Copy"
+.LASF235:
+	.string	"TQual"
+.LASF654:
+	.string	"TfCondElt"
+.LASF659:
+	.string	"TfCond"
+.LASF542:
+	.string	"AB_State_AbSyn"
+.LASF707:
+	.string	"TF_LIMIT"
+.LASF538:
+	.string	"AB_Use_Elided"
+.LASF702:
+	.string	"TF_Union"
+.LASF135:
+	.string	"abExport"
+.LASF484:
+	.string	"AB_Generate"
+.LASF531:
+	.string	"AB_Use_Define"
+.LASF525:
+	.string	"abSynTag"
+.LASF726:
+	.string	"cdependents"
+.LASF338:
+	.string	"constp"
+.LASF220:
+	.string	"consts"
+.LASF337:
+	.string	"constv"
+.LASF302:
+	.string	"foamCFCall"
+.LASF588:
+	.string	"defList"
+.LASF414:
+	.string	"Position"
+.LASF557:
+	.string	"seman"
+.LASF619:
+	.string	"locals"
+.LASF281:
+	.string	"foamRElt"
+.LASF314:
+	.string	"foamCatch"
+.LASF777:
+	.string	"S_def"
+.LASF447:
+	.string	"AB_SYM_LIMIT"
+.LASF781:
+	.string	"testTiBupApplyImplicit"
+.LASF551:
+	.string	"implicit"
+.LASF425:
+	.string	"TQualList"
+.LASF194:
+	.string	"type"
+.LASF743:
+	.string	"tformEqual"
+.LASF287:
+	.string	"foamUnimp"
+.LASF750:
+	.string	"abqParse"
+.LASF630:
+	.string	"eltType"
+.LASF751:
+	.string	"afprintf"
+.LASF378:
+	.string	"SymbolList"
+.LASF791:
+	.string	"g1_def"
+.LASF746:
+	.string	"testIntEqual"
+.LASF377:
+	.string	"SymbolListCons"
+.LASF218:
+	.string	"domImports"
+.LASF143:
+	.string	"abGenerate"
+.LASF552:
+	.string	"embed"
+.LASF784:
+	.string	"f1_def"
+.LASF93:
+	.string	"Table"
+.LASF152:
+	.string	"abLabel"
+.LASF708:
+	.string	"tfUnknown"
+.LASF32:
+	.string	"_chain"
+.LASF325:
+	.string	"topc"
+.LASF97:
+	.string	"info"
+.LASF428:
+	.string	"SymeListCons"
+.LASF322:
+	.string	"idName"
+.LASF134:
+	.string	"abExit"
+.LASF260:
+	.string	"foamDEnv"
+.LASF250:
+	.string	"foamArb"
+.LASF703:
+	.string	"TF_Variable"
+.LASF2:
+	.string	"unsigned char"
+.LASF251:
+	.string	"foamArr"
+.LASF550:
+	.string	"defnIdx"
+.LASF789:
+	.string	"pretend"
+.LASF801:
+	.string	"_IO_lock_t"
+.LASF81:
+	.string	"closeFn"
+.LASF12:
+	.string	"float"
+.LASF456:
+	.string	"AB_NODE_START"
+.LASF265:
+	.string	"foamLoc"
+.LASF651:
+	.string	"tfCondElt"
+.LASF195:
+	.string	"locmask"
+.LASF571:
+	.string	"whole"
+.LASF67:
+	.string	"MostAlignedType"
+.LASF672:
+	.string	"TF_ABSYN_START"
+.LASF282:
+	.string	"foamRRElt"
+.LASF740:
+	.string	"tfMulti"
+.LASF519:
+	.string	"AB_While"
+.LASF590:
+	.string	"invInfo"
+.LASF375:
+	.string	"FoamUses"
+.LASF59:
+	.string	"Hash"
+.LASF475:
+	.string	"AB_Exit"
+.LASF431:
+	.string	"UdInfoList"
+.LASF257:
+	.string	"foamGDecl"
+.LASF644:
+	.string	"libHdr"
+.LASF786:
+	.string	"testTiTdnPretend"
+.LASF223:
+	.string	"conditions"
+.LASF91:
+	.string	"SrcPosStack"
+.LASF766:
+	.string	"init"
+.LASF437:
+	.string	"TblEqFun"
+.LASF583:
+	.string	"within"
+.LASF512:
+	.string	"AB_Return"
+.LASF667:
+	.string	"TF_Literal"
+.LASF770:
+	.string	"g_def"
+.LASF487:
+	.string	"AB_Hide"
+.LASF92:
+	.string	"stack"
+.LASF631:
+	.string	"clos"
+.LASF402:
+	.string	"CopyTo"
+.LASF229:
+	.string	"tposs"
+.LASF373:
+	.string	"_InvInfo"
+.LASF248:
+	.string	"foamDFlo"
+.LASF267:
+	.string	"foamGlo"
+.LASF389:
+	.string	"FreeCons"
+.LASF553:
+	.string	"impl"
+.LASF172:
+	.string	"abReturn"
+.LASF142:
+	.string	"abFree"
+.LASF232:
+	.string	"refc"
+.LASF217:
+	.string	"thdExports"
+.LASF24:
+	.string	"_IO_write_ptr"
+.LASF273:
+	.string	"foamLabel"
+.LASF274:
+	.string	"foamPtr"
+.LASF407:
+	.string	"NReverse"
+.LASF697:
+	.string	"TF_Subst"
+.LASF261:
+	.string	"foamDFmt"
+.LASF360:
+	.string	"extendSymes"
+.LASF262:
+	.string	"foamDef"
+.LASF575:
+	.string	"elseAlt"
+.LASF560:
+	.string	"test"
+.LASF309:
+	.string	"foamUnit"
+.LASF537:
+	.string	"AB_Use_Except"
+.LASF661:
+	.string	"names"
+.LASF303:
+	.string	"foamOFCall"
+.LASF366:
+	.string	"optInfo"
+.LASF219:
+	.string	"domExportNames"
+.LASF624:
+	.string	"symeIndex"
+.LASF787:
+	.string	"D_def"
+.LASF686:
+	.string	"TF_If"
+.LASF530:
+	.string	"AB_Use_Assign"
+.LASF510:
+	.string	"AB_Repeat"
+.LASF204:
+	.string	"hasSelfSelf"
+.LASF216:
+	.string	"catExports"
+.LASF615:
+	.string	"size"
+.LASF129:
+	.string	"abDefine"
+.LASF99:
+	.string	"buckc"
+.LASF48:
+	.string	"FILE"
+.LASF168:
+	.string	"abReference"
+.LASF541:
+	.string	"ab_state"
+.LASF607:
+	.string	"eltv"
+.LASF100:
+	.string	"buckv"
+.LASF344:
+	.string	"ArEntry"
+.LASF613:
+	.string	"retType"
+.LASF717:
+	.string	"imports"
+.LASF670:
+	.string	"TF_Category"
+.LASF242:
+	.string	"foamBool"
+.LASF234:
+	.string	"tconst"
+.LASF18:
+	.string	"size_t"
+.LASF548:
+	.string	"abSeman"
+.LASF240:
+	.string	"foamNil"
+.LASF754:
+	.string	"tiGetTForm"
+.LASF90:
+	.string	"rest"
+.LASF304:
+	.string	"foamPushEnv"
+.LASF127:
+	.string	"abComma"
+.LASF497:
+	.string	"AB_MDefine"
+.LASF385:
+	.string	"Listv"
+.LASF565:
+	.string	"iterv"
+.LASF369:
+	.string	"_UdInfo"
+.LASF450:
+	.string	"AB_DOC_LIMIT"
+.LASF576:
+	.string	"param"
+.LASF237:
+	.string	"Foam"
+.LASF623:
+	.string	"protocol"
+.LASF171:
+	.string	"abRetractTo"
+.LASF507:
+	.string	"AB_Quote"
+.LASF468:
+	.string	"AB_Default"
+.LASF692:
+	.string	"TF_PackedMap"
+.LASF345:
+	.string	"ar_entry"
+.LASF28:
+	.string	"_IO_save_base"
+.LASF307:
+	.string	"foamRRFmt"
+.LASF453:
+	.string	"AB_LitFloat"
+.LASF534:
+	.string	"AB_Use_NoValue"
+.LASF222:
+	.string	"cascades"
+.LASF472:
+	.string	"AB_Do"
+.LASF727:
+	.string	"cdependees"
+.LASF700:
+	.string	"TF_TrailingArray"
+.LASF799:
+	.string	"GNU C99 12.2.0 -mtune=generic -march=x86-64 -g -O0 -std=c99 -fasynchronous-unwind-tables"
+.LASF364:
+	.string	"first"
+.LASF391:
+	.string	"FreeTo"
+.LASF782:
+	.string	"testTiBupApplyMixed"
+.LASF254:
+	.string	"foamProg"
+.LASF400:
+	.string	"IsLonger"
+.LASF714:
+	.string	"isCategoryImport"
+.LASF243:
+	.string	"foamByte"
+.LASF86:
+	.string	"SrcPos"
+.LASF323:
+	.string	"file"
+.LASF601:
+	.string	"HIntData"
+.LASF596:
+	.string	"code"
+.LASF42:
+	.string	"_wide_data"
+.LASF228:
+	.string	"TPoss"
+.LASF157:
+	.string	"abMDefine"
+.LASF772:
+	.string	"absynList"
+.LASF652:
+	.string	"list"
+.LASF315:
+	.string	"foamProtect"
+.LASF649:
+	.string	"Section"
+.LASF128:
+	.string	"abDefault"
+.LASF264:
+	.string	"foamPar"
+.LASF190:
+	.string	"fieldc"
+.LASF233:
+	.string	"TConst"
+.LASF355:
+	.string	"idsInScope"
+.LASF198:
+	.string	"fieldv"
+.LASF513:
+	.string	"AB_Select"
+.LASF757:
+	.string	"abPrintDb"
+.LASF738:
+	.string	"tfsDebug"
+.LASF485:
+	.string	"AB_Goto"
+.LASF438:
+	.string	"TblSlot"
+.LASF567:
+	.string	"value"
+.LASF376:
+	.string	"foamuses_struct"
+.LASF764:
+	.string	"fini"
+.LASF70:
+	.string	"OStreamPutFun"
+.LASF618:
+	.string	"params"
+.LASF457:
+	.string	"AB_Add"
+.LASF349:
+	.string	"lambdaLevel"
+.LASF563:
+	.string	"expr"
+.LASF352:
+	.string	"isChecked"
+.LASF399:
+	.string	"IsShorter"
+.LASF508:
+	.string	"AB_Raise"
+.LASF470:
+	.string	"AB_DDefine"
+.LASF780:
+	.string	"case1"
+.LASF206:
+	.string	"__absyn"
+.LASF283:
+	.string	"foamIRElt"
+.LASF356:
+	.string	"labelsInScope"
+.LASF695:
+	.string	"TF_Record"
+.LASF632:
+	.string	"retFmt"
+.LASF680:
+	.string	"TF_Declare"
+.LASF181:
+	.string	"AbSub"
+.LASF110:
+	.string	"abBlank"
+.LASF733:
+	.string	"cmarked"
+.LASF600:
+	.string	"ByteData"
+.LASF200:
+	.string	"tform"
+.LASF117:
+	.string	"abAdd"
+.LASF503:
+	.string	"AB_Paren"
+.LASF444:
+	.string	"AB_Id"
+.LASF674:
+	.string	"TF_General"
+.LASF488:
+	.string	"AB_If"
+.LASF544:
+	.string	"AB_State_HasUnique"
+.LASF723:
+	.string	"dependees"
+.LASF374:
+	.string	"SImpl"
+.LASF504:
+	.string	"AB_PLambda"
+.LASF182:
+	.string	"abSub"
+.LASF174:
+	.string	"abSequence"
+.LASF187:
+	.string	"fvar"
+.LASF775:
+	.string	"testTiTdnMultiToCrossEmbed"
+.LASF584:
+	.string	"pure"
+.LASF491:
+	.string	"AB_Iterate"
+.LASF343:
+	.string	"macros"
+.LASF765:
+	.string	"showTest"
+.LASF180:
+	.string	"abYield"
+.LASF413:
+	.string	"Posq"
+.LASF130:
+	.string	"abDDefine"
+.LASF778:
+	.string	"s_def"
+.LASF119:
+	.string	"abApply"
+.LASF639:
+	.string	"String_listOpsStruct"
+.LASF56:
+	.string	"AInt"
+.LASF627:
+	.string	"level"
+.LASF359:
+	.string	"boundSymes"
+.LASF317:
+	.string	"name"
+.LASF748:
+	.string	"tiBottomUp"
+.LASF115:
+	.string	"abLitString"
+.LASF335:
+	.string	"typeb"
+.LASF331:
+	.string	"typec"
+.LASF660:
+	.string	"SymeSet"
+.LASF460:
+	.string	"AB_Assert"
+.LASF30:
+	.string	"_IO_save_end"
+.LASF398:
+	.string	"IsLength"
+.LASF334:
+	.string	"typep"
+.LASF333:
+	.string	"types"
+.LASF332:
+	.string	"typev"
+.LASF102:
+	.string	"bint"
+.LASF522:
+	.string	"AB_NODE_LIMIT"
+.LASF231:
+	.string	"possc"
+.LASF341:
+	.string	"unit"
+.LASF144:
+	.string	"abGoto"
+.LASF685:
+	.string	"TF_Generator"
+.LASF230:
+	.string	"possl"
+.LASF744:
+	.string	"tfFollowArg"
+.LASF293:
+	.string	"foamANew"
+.LASF577:
+	.string	"rtype"
+.LASF15:
+	.string	"fp_offset"
+.LASF735:
+	.string	"TFormUsesListCons"
+.LASF532:
+	.string	"AB_Use_Value"
+.LASF14:
+	.string	"gp_offset"
+.LASF528:
+	.string	"AB_Use_Type"
+.LASF582:
+	.string	"always"
+.LASF164:
+	.string	"abPLambda"
+.LASF602:
+	.string	"SIntData"
+.LASF122:
+	.string	"abBreak"
+.LASF105:
+	.string	"AbSyn"
+.LASF212:
+	.string	"selfself"
+.LASF249:
+	.string	"foamWord"
+.LASF574:
+	.string	"thenAlt"
+.LASF151:
+	.string	"abIterate"
+.LASF184:
+	.string	"abLogic"
+.LASF176:
+	.string	"abTry"
+.LASF696:
+	.string	"TF_Reference"
+.LASF247:
+	.string	"foamSFlo"
+.LASF225:
+	.string	"__mark"
+.LASF3:
+	.string	"short unsigned int"
+.LASF361:
+	.string	"exportedTypes"
+.LASF798:
+	.string	"collect4"
+.LASF6:
+	.string	"signed char"
+.LASF785:
+	.string	"f2_def"
+.LASF154:
+	.string	"abLet"
+.LASF73:
+	.string	"ostream"
+.LASF255:
+	.string	"foamClos"
+.LASF802:
+	.string	"_SImpl"
+.LASF107:
+	.string	"abSyn"
+.LASF297:
+	.string	"foamCast"
+.LASF277:
+	.string	"foamLoose"
+.LASF169:
+	.string	"abRepeat"
+.LASF64:
+	.string	"CString"
+.LASF424:
+	.string	"TQualListCons"
+.LASF731:
+	.string	"outEdges"
+.LASF98:
+	.string	"count"
+.LASF244:
+	.string	"foamHInt"
+.LASF177:
+	.string	"abWhere"
+.LASF718:
+	.string	"inlines"
+.LASF422:
+	.string	"TConstListCons"
+.LASF54:
+	.string	"UShort"
+.LASF138:
+	.string	"abFluid"
+.LASF429:
+	.string	"SymeList"
+.LASF469:
+	.string	"AB_Define"
+.LASF10:
+	.string	"__off64_t"
+.LASF197:
+	.string	"full"
+.LASF199:
+	.string	"TForm"
+.LASF394:
+	.string	"FreeIfSat"
+.LASF421:
+	.string	"TFormList"
+.LASF22:
+	.string	"_IO_read_base"
+.LASF270:
+	.string	"foamEnv"
+.LASF40:
+	.string	"_offset"
+.LASF82:
+	.string	"OStreamOps"
+.LASF502:
+	.string	"AB_Or"
+.LASF709:
+	.string	"TFormUses"
+.LASF202:
+	.string	"state"
+.LASF27:
+	.string	"_IO_buf_end"
+.LASF416:
+	.string	"FillVector"
+.LASF795:
+	.string	"testTiBupCollect1"
+.LASF790:
+	.string	"testTiBupCollect2"
+.LASF642:
+	.string	"libSect"
+.LASF372:
+	.string	"InvInfo"
+.LASF669:
+	.string	"TF_Type"
+.LASF559:
+	.string	"capsule"
+.LASF523:
+	.string	"AB_LIMIT"
+.LASF46:
+	.string	"_mode"
+.LASF23:
+	.string	"_IO_write_base"
+.LASF711:
+	.string	"isImported"
+.LASF570:
+	.string	"function"
+.LASF549:
+	.string	"comment"
+.LASF745:
+	.string	"testTrue"
+.LASF435:
+	.string	"TblElt"
+.LASF458:
+	.string	"AB_And"
+.LASF749:
+	.string	"tfGenerator"
+.LASF665:
+	.string	"TF_Unknown"
+.LASF203:
+	.string	"hasSelf"
+.LASF192:
+	.string	"bits"
+.LASF616:
+	.string	"time"
+.LASF691:
+	.string	"TF_Multiple"
+.LASF213:
+	.string	"parents"
+.LASF87:
+	.string	"SrcPosCell"
+.LASF621:
+	.string	"levels"
+.LASF185:
+	.string	"fake"
+.LASF239:
+	.string	"foamGen"
+.LASF8:
+	.string	"long int"
+.LASF761:
+	.string	"abNewOfList"
+.LASF535:
+	.string	"AB_Use_Iterator"
+.LASF386:
+	.string	"ListNull"
+.LASF540:
+	.string	"AbUse"
+.LASF608:
+	.string	"format"
+.LASF49:
+	.string	"_IO_marker"
+.LASF305:
+	.string	"foamPopEnv"
+.LASF88:
+	.string	"sposCell"
+.LASF611:
+	.string	"endOffset"
+.LASF404:
+	.string	"CopyDeeplyTo"
+.LASF205:
+	.string	"hasCascades"
+.LASF581:
+	.string	"cond"
+.LASF380:
+	.string	"AbSynList"
+.LASF762:
+	.string	"stdtypes"
+.LASF648:
+	.string	"numSect"
+.LASF662:
+	.string	"tformTag"
+.LASF561:
+	.string	"label"
+.LASF578:
+	.string	"context"
+.LASF269:
+	.string	"foamConst"
+.LASF451:
+	.string	"AB_STR_START"
+.LASF173:
+	.string	"abSelect"
+.LASF368:
+	.string	"UdInfo"
+.LASF268:
+	.string	"foamFluid"
+.LASF365:
+	.string	"OptInfo"
+.LASF490:
+	.string	"AB_Inline"
+.LASF693:
+	.string	"TF_Raw"
+.LASF773:
+	.string	"absyn"
+.LASF50:
+	.string	"_IO_codecvt"
+.LASF179:
+	.string	"abWith"
+.LASF556:
+	.string	"unique"
+.LASF440:
+	.string	"Symbol_TSet"
+.LASF526:
+	.string	"ab_use"
+.LASF296:
+	.string	"foamTRNew"
+.LASF716:
+	.string	"exports"
+.LASF673:
+	.string	"TF_Syntax"
+.LASF83:
+	.string	"FileName"
+.LASF771:
+	.string	"lines"
+.LASF492:
+	.string	"AB_Label"
+.LASF306:
+	.string	"foamMFmt"
+.LASF63:
+	.string	"String"
+.LASF246:
+	.string	"foamBInt"
+.LASF554:
+	.string	"AbSeman"
+.LASF663:
+	.string	"TF_START"
+.LASF5:
+	.string	"long unsigned int"
+.LASF381:
+	.string	"AbSyn_listOpsStruct"
+.LASF516:
+	.string	"AB_Try"
+.LASF779:
+	.string	"e_def"
+.LASF58:
+	.string	"Bool"
+.LASF189:
+	.string	"syme"
+.LASF252:
+	.string	"foamRec"
+.LASF594:
+	.string	"dvMark"
+.LASF688:
+	.string	"TF_Join"
+.LASF392:
+	.string	"FreeDeeply"
+.LASF11:
+	.string	"char"
+.LASF520:
+	.string	"AB_With"
+.LASF496:
+	.string	"AB_Macro"
+.LASF85:
+	.string	"partv"
+.LASF311:
+	.string	"foamFree"
+.LASF443:
+	.string	"AB_SYM_START"
+.LASF494:
+	.string	"AB_Let"
+.LASF285:
+	.string	"foamEElt"
+.LASF432:
+	.string	"AbSyn_listPointer"
+.LASF710:
+	.string	"tformUses"
+.LASF94:
+	.string	"table"
+.LASF638:
+	.string	"StringList"
+.LASF566:
+	.string	"except"
+.LASF436:
+	.string	"TblHashFun"
+.LASF26:
+	.string	"_IO_buf_base"
+.LASF592:
+	.string	"foamHdr"
+.LASF668:
+	.string	"TF_Test"
+.LASF605:
+	.string	"DFloData"
+.LASF342:
+	.string	"formats"
+.LASF699:
+	.string	"TF_Trigger"
+.LASF474:
+	.string	"AB_Except"
+.LASF21:
+	.string	"_IO_read_end"
+.LASF682:
+	.string	"TF_Define"
+.LASF286:
+	.string	"foamBVal"
+.LASF55:
+	.string	"ULong"
+.LASF589:
+	.string	"expInfo"
+.LASF193:
+	.string	"hash"
+.LASF72:
+	.string	"_IO_FILE"
+.LASF419:
+	.string	"Format"
+.LASF96:
+	.string	"eqFun"
+.LASF51:
+	.string	"_IO_wide_data"
+.LASF804:
+	.string	"tibupTest"
+.LASF734:
+	.string	"crep"
+.LASF358:
+	.string	"tformsUnused"
+.LASF441:
+	.string	"SymbolTSet"
+.LASF294:
+	.string	"foamRNew"
+.LASF640:
+	.string	"String_listPointer"
+.LASF597:
+	.string	"sfloat"
+.LASF599:
+	.string	"BoolData"
+.LASF756:
+	.string	"scopeBind"
+.LASF120:
+	.string	"abAssert"
+.LASF684:
+	.string	"TF_Forward"
+.LASF69:
+	.string	"buffer"
+.LASF211:
+	.string	"self"
+.LASF271:
+	.string	"foamEEnv"
+.LASF79:
+	.string	"writeCharFn"
+.LASF664:
+	.string	"TF_SYM_START"
+.LASF390:
+	.string	"Free"
+.LASF159:
+	.string	"abNever"
+.LASF763:
+	.string	"abqParseLines"
+.LASF57:
+	.string	"UAInt"
+.LASF299:
+	.string	"foamBCall"
+.LASF65:
+	.string	"SFloat"
+.LASF768:
+	.string	"E_def"
+.LASF224:
+	.string	"sigma"
+.LASF793:
+	.string	"dg_def"
+.LASF371:
+	.string	"_ExpInfo"
+.LASF131:
+	.string	"abDo"
+.LASF501:
+	.string	"AB_Nothing"
+.LASF316:
+	.string	"foamReturn"
+.LASF585:
+	.string	"fixed"
+.LASF111:
+	.string	"abId"
+.LASF148:
+	.string	"abIf"
+.LASF45:
+	.string	"__pad5"
+.LASF464:
+	.string	"AB_CoerceTo"
+.LASF683:
+	.string	"TF_Enumerate"
+.LASF31:
+	.string	"_markers"
+.LASF586:
+	.string	"lazy"
+.LASF545:
+	.string	"AB_State_Error"
+.LASF759:
+	.string	"finiFile"
+.LASF276:
+	.string	"foamCEnv"
+.LASF736:
+	.string	"TFormUsesList"
+.LASF280:
+	.string	"foamAElt"
+.LASF350:
+	.string	"serialNo"
+.LASF66:
+	.string	"DFloat"
+.LASF753:
+	.string	"uniqueMeaning"
+.LASF329:
+	.string	"codev"
+.LASF354:
+	.string	"children"
+.LASF562:
+	.string	"what"
+.LASF41:
+	.string	"_codecvt"
+.LASF13:
+	.string	"double"
+.LASF291:
+	.string	"foamSeq"
+.LASF289:
+	.string	"foamSet"
+.LASF208:
+	.string	"argc"
+.LASF645:
+	.string	"magic"
+.LASF499:
+	.string	"AB_Never"
+.LASF636:
+	.string	"after"
+.LASF675:
+	.string	"TF_ABSYN_LIMIT"
+.LASF336:
+	.string	"constc"
+.LASF161:
+	.string	"abNothing"
+.LASF209:
+	.string	"argv"
+.LASF466:
+	.string	"AB_Comma"
+.LASF125:
+	.string	"abCoerceTo"
+.LASF760:
+	.string	"initFile"
+.LASF598:
+	.string	"CharData"
+.LASF713:
+	.string	"isParamImport"
+.LASF620:
+	.string	"fluids"
+.LASF461:
+	.string	"AB_Assign"
+.LASF74:
+	.string	"data"
+.LASF767:
+	.string	"Boolean_imp"
+.LASF175:
+	.string	"abTest"
+.LASF301:
+	.string	"foamOCall"
+.LASF106:
+	.string	"sposStack"
+.LASF188:
+	.string	"Syme"
+.LASF238:
+	.string	"foam"
+.LASF658:
+	.string	"containsEmpty"
+.LASF140:
+	.string	"abForeignImport"
+.LASF794:
+	.string	"collect"
+.LASF68:
+	.string	"Buffer"
+.LASF430:
+	.string	"UdInfoListCons"
+.LASF418:
+	.string	"GPrint"
+.LASF558:
+	.string	"base"
+.LASF671:
+	.string	"TF_SYM_LIMIT"
+.LASF715:
+	.string	"isCatConditionImport"
+.LASF153:
+	.string	"abLambda"
+.LASF465:
+	.string	"AB_Collect"
+.LASF742:
+	.string	"tiTopDown"
+.LASF536:
+	.string	"AB_Use_Default"
+.LASF77:
+	.string	"OstCloseFn"
+.LASF758:
+	.string	"abPutUse"
+.LASF318:
+	.string	"arent"
+.LASF348:
+	.string	"lexicalLevel"
+.LASF603:
+	.string	"BIntData"
+.LASF62:
+	.string	"Pointer"
+.LASF633:
+	.string	"argsPtr"
+.LASF573:
+	.string	"property"
+.LASF259:
+	.string	"foamDFluid"
+.LASF44:
+	.string	"_freeres_buf"
+.LASF515:
+	.string	"AB_Test"
+.LASF89:
+	.string	"spos"
+.LASF498:
+	.string	"AB_MLambda"
+.LASF527:
+	.string	"AB_Use_Declaration"
+.LASF752:
+	.string	"symeType"
+.LASF183:
+	.string	"AbLogic"
+.LASF162:
+	.string	"abOr"
+.LASF324:
+	.string	"offset"
+.LASF646:
+	.string	"verMajor"
+.LASF705:
+	.string	"TF_Except"
+.LASF36:
+	.string	"_cur_column"
+.LASF803:
+	.string	"stabFile"
+.LASF178:
+	.string	"abWhile"
+.LASF191:
+	.string	"kind"
+.LASF719:
+	.string	"extension"
+.LASF312:
+	.string	"foamGoto"
+.LASF678:
+	.string	"TF_Assign"
+.LASF448:
+	.string	"AB_DOC_START"
+.LASF150:
+	.string	"abInline"
+.LASF406:
+	.string	"Reverse"
+.LASF116:
+	.string	"abLitFloat"
+.LASF156:
+	.string	"abMacro"
+.LASF493:
+	.string	"AB_Lambda"
+.LASF747:
+	.string	"tpossCount"
+.LASF426:
+	.string	"StabListCons"
+.LASF245:
+	.string	"foamSInt"
+.LASF126:
+	.string	"abCollect"
+.LASF517:
+	.string	"AB_Unit"
+.LASF477:
+	.string	"AB_Extend"
+.LASF29:
+	.string	"_IO_backup_base"
+.LASF408:
+	.string	"Concat"
+.LASF701:
+	.string	"TF_Tuple"
+.LASF20:
+	.string	"_IO_read_ptr"
+.LASF292:
+	.string	"foamSelect"
+.LASF141:
+	.string	"abForeignExport"
+.LASF196:
+	.string	"hasmask"
+.LASF112:
+	.string	"abIdSy"
+.LASF43:
+	.string	"_freeres_list"
+.LASF500:
+	.string	"AB_Not"
+.LASF165:
+	.string	"abPretendTo"
+.LASF446:
+	.string	"AB_Blank"
+.LASF704:
+	.string	"TF_With"
+.LASF95:
+	.string	"hashFun"
+.LASF158:
+	.string	"abMLambda"
+.LASF524:
+	.string	"AbSynTag"
+.LASF730:
+	.string	"sortMark"
+.LASF417:
+	.string	"Print"
+.LASF609:
+	.string	"nargs"
+.LASF610:
+	.string	"values"
+.LASF397:
+	.string	"_Length"
+.LASF35:
+	.string	"_old_offset"
+.LASF284:
+	.string	"foamTRElt"
+.LASF505:
+	.string	"AB_PretendTo"
+.LASF495:
+	.string	"AB_Local"
+.LASF467:
+	.string	"AB_Declare"
+.LASF326:
+	.string	"symec"
+.LASF423:
+	.string	"TConstList"
+.LASF160:
+	.string	"abNot"
+.LASF328:
+	.string	"symep"
+.LASF214:
+	.string	"symes"
+.LASF327:
+	.string	"symev"
+.LASF52:
+	.string	"long long int"
+.LASF489:
+	.string	"AB_Import"
+.LASF313:
+	.string	"foamThrow"
+.LASF387:
+	.string	"Equal"
+.LASF34:
+	.string	"_flags2"
+.LASF445:
+	.string	"AB_IdSy"
+.LASF604:
+	.string	"SFloData"
+.LASF147:
+	.string	"abHook"
+.LASF796:
+	.string	"collect2"
+.LASF797:
+	.string	"collect3"
+.LASF367:
+	.string	"SefoMark"
+.LASF133:
+	.string	"abExcept"
+.LASF132:
+	.string	"abDocumented"
+.LASF459:
+	.string	"AB_Apply"
+.LASF509:
+	.string	"AB_Reference"
+.LASF555:
+	.string	"poss"
+.LASF121:
+	.string	"abAssign"
+.LASF395:
+	.string	"Drop"
+.LASF564:
+	.string	"body"
+.LASF433:
+	.string	"sposNone"
+.LASF241:
+	.string	"foamChar"
+.LASF288:
+	.string	"foamNOp"
+.LASF681:
+	.string	"TF_Default"
+.LASF61:
+	.string	"Offset"
+.LASF473:
+	.string	"AB_Documented"
+.LASF226:
+	.string	"parent"
+.LASF405:
+	.string	"NMap"
+.LASF411:
+	.string	"Member"
+.LASF351:
+	.string	"isLocked"
+.LASF124:
+	.string	"abDeclare"
+.LASF71:
+	.string	"OStream"
+.LASF739:
+	.string	"aprintf"
+.LASF415:
+	.string	"NRemove"
+.LASF53:
+	.string	"UByte"
+.LASF725:
+	.string	"nafter"
+.LASF568:
+	.string	"origin"
+.LASF462:
+	.string	"AB_Break"
+.LASF403:
+	.string	"CopyDeeply"
+.LASF676:
+	.string	"TF_NODE_START"
+.LASF569:
+	.string	"destination"
+.LASF634:
+	.string	"defs"
+.LASF783:
+	.string	"F_def"
+.LASF215:
+	.string	"domExports"
+.LASF340:
+	.string	"postbl"
+.LASF383:
+	.string	"Singleton"
+.LASF546:
+	.string	"AB_State_LIMIT"
+.LASF617:
+	.string	"auxInfo"
+.LASF4:
+	.string	"unsigned int"
+.LASF476:
+	.string	"AB_Export"
+.LASF410:
+	.string	"Memq"
+.LASF579:
+	.string	"testPart"
+.LASF449:
+	.string	"AB_DocText"
+.LASF101:
+	.string	"BInt"
+.LASF7:
+	.string	"short int"
+.LASF384:
+	.string	"List"
+.LASF427:
+	.string	"StabList"
+.LASF357:
+	.string	"tformsUsed"
+.LASF518:
+	.string	"AB_Where"
+.LASF769:
+	.string	"f_def"
+.LASF37:
+	.string	"_vtable_offset"
+.LASF479:
+	.string	"AB_Fluid"
+.LASF471:
+	.string	"AB_Delay"
+.LASF330:
+	.string	"triggers"
+.LASF353:
+	.string	"isSubstable"
+.LASF263:
+	.string	"foamDDef"
+.LASF210:
+	.string	"stab"
+.LASF521:
+	.string	"AB_Yield"
+.LASF595:
+	.string	"defnId"
+.LASF722:
+	.string	"dependents"
+.LASF463:
+	.string	"AB_Builtin"
+.LASF114:
+	.string	"abLitInteger"
+.LASF388:
+	.string	"Find"
+.LASF629:
+	.string	"builtinTag"
+.LASF379:
+	.string	"AbSynListCons"
+	.section	.debug_line_str,"MS",@progbits,1
+.LASF0:
+	.string	"test/test_tibup.c"
+.LASF1:
+	.string	"/repo/aldor/aldor/src"
+	.ident	"GCC: (Debian 12.2.0-14+deb12u1) 12.2.0"
+	.section	.note.GNU-stack,"",@progbits
